@@ -1,49 +1,1 @@
-/-
-  GENERATED by driver_c20 --emit-cert from Gen/Regexes.lean — do not edit.
-  Bisimulation certificate: pat_isodate against Fmt.isoDateQ (excluded region: Spec.never).
-  32 derivative states, 1223 product states.
--/
-import Gozod.Model.FormatSpec
-import Gozod.Gen.Regexes
-namespace Gozod.Gen
-open Gozod
-
-noncomputable def cert_isodate : Cert (Fmt.isoDateQ) (Spec.never) where
-  D := [(.alt (.seq (.alt (.seq (.cls [(48,57)]) (.seq (.cls [(48,57)]) (.alt (.seq (.cls [(50,50), (52,52), (54,54), (56,56)]) (.cls [(48,48), (52,52), (56,56)])) (.alt (.seq (.cls [(49,49), (51,51), (53,53), (55,55), (57,57)]) (.cls [(50,50), (54,54)])) (.seq (.cls [(48,48)]) (.cls [(52,52), (56,56)])))))) (.alt (.seq (.cls [(48,48), (50,50), (52,52), (54,54), (56,56)]) (.seq (.cls [(48,48), (52,52), (56,56)]) (.seq (.cls [(48,48)]) (.cls [(48,48)])))) (.seq (.cls [(49,49), (51,51), (53,53), (55,55), (57,57)]) (.seq (.cls [(50,50), (54,54)]) (.seq (.cls [(48,48)]) (.cls [(48,48)])))))) (.seq (.cls [(45,45)]) (.seq (.cls [(48,48)]) (.seq (.cls [(50,50)]) (.seq (.cls [(45,45)]) (.seq (.cls [(50,50)]) (.cls [(57,57)]))))))) (.seq (.cls [(48,57)]) (.seq (.cls [(48,57)]) (.seq (.cls [(48,57)]) (.seq (.cls [(48,57)]) (.seq (.cls [(45,45)]) (.alt (.seq (.alt (.seq (.cls [(48,48)]) (.cls [(49,49), (51,51), (53,53), (55,56)])) (.seq (.cls [(49,49)]) (.cls [(48,48), (50,50)]))) (.seq (.cls [(45,45)]) (.alt (.seq (.cls [(48,48)]) (.cls [(49,57)])) (.alt (.seq (.cls [(49,50)]) (.cls [(48,57)])) (.seq (.cls [(51,51)]) (.cls [(48,49)])))))) (.alt (.seq (.alt (.seq (.cls [(48,48)]) (.cls [(52,52), (54,54), (57,57)])) (.seq (.cls [(49,49)]) (.cls [(49,49)]))) (.seq (.cls [(45,45)]) (.alt (.seq (.cls [(48,48)]) (.cls [(49,57)])) (.alt (.seq (.cls [(49,50)]) (.cls [(48,57)])) (.seq (.cls [(51,51)]) (.cls [(48,48)])))))) (.seq (.cls [(48,48)]) (.seq (.cls [(50,50)]) (.seq (.cls [(45,45)]) (.alt (.seq (.cls [(48,48)]) (.cls [(49,57)])) (.alt (.seq (.cls [(49,49)]) (.cls [(48,57)])) (.seq (.cls [(50,50)]) (.cls [(48,56)]))))))))))))))),
-    (.cls []),
-    (.alt (.seq (.alt (.seq (.cls [(48,57)]) (.alt (.seq (.cls [(50,50), (52,52), (54,54), (56,56)]) (.cls [(48,48), (52,52), (56,56)])) (.alt (.seq (.cls [(49,49), (51,51), (53,53), (55,55), (57,57)]) (.cls [(50,50), (54,54)])) (.seq (.cls [(48,48)]) (.cls [(52,52), (56,56)]))))) (.seq (.cls [(48,48), (52,52), (56,56)]) (.seq (.cls [(48,48)]) (.cls [(48,48)])))) (.seq (.cls [(45,45)]) (.seq (.cls [(48,48)]) (.seq (.cls [(50,50)]) (.seq (.cls [(45,45)]) (.seq (.cls [(50,50)]) (.cls [(57,57)]))))))) (.seq (.cls [(48,57)]) (.seq (.cls [(48,57)]) (.seq (.cls [(48,57)]) (.seq (.cls [(45,45)]) (.alt (.seq (.alt (.seq (.cls [(48,48)]) (.cls [(49,49), (51,51), (53,53), (55,56)])) (.seq (.cls [(49,49)]) (.cls [(48,48), (50,50)]))) (.seq (.cls [(45,45)]) (.alt (.seq (.cls [(48,48)]) (.cls [(49,57)])) (.alt (.seq (.cls [(49,50)]) (.cls [(48,57)])) (.seq (.cls [(51,51)]) (.cls [(48,49)])))))) (.alt (.seq (.alt (.seq (.cls [(48,48)]) (.cls [(52,52), (54,54), (57,57)])) (.seq (.cls [(49,49)]) (.cls [(49,49)]))) (.seq (.cls [(45,45)]) (.alt (.seq (.cls [(48,48)]) (.cls [(49,57)])) (.alt (.seq (.cls [(49,50)]) (.cls [(48,57)])) (.seq (.cls [(51,51)]) (.cls [(48,48)])))))) (.seq (.cls [(48,48)]) (.seq (.cls [(50,50)]) (.seq (.cls [(45,45)]) (.alt (.seq (.cls [(48,48)]) (.cls [(49,57)])) (.alt (.seq (.cls [(49,49)]) (.cls [(48,57)])) (.seq (.cls [(50,50)]) (.cls [(48,56)])))))))))))))),
-    (.alt (.seq (.alt (.seq (.cls [(48,57)]) (.alt (.seq (.cls [(50,50), (52,52), (54,54), (56,56)]) (.cls [(48,48), (52,52), (56,56)])) (.alt (.seq (.cls [(49,49), (51,51), (53,53), (55,55), (57,57)]) (.cls [(50,50), (54,54)])) (.seq (.cls [(48,48)]) (.cls [(52,52), (56,56)]))))) (.seq (.cls [(50,50), (54,54)]) (.seq (.cls [(48,48)]) (.cls [(48,48)])))) (.seq (.cls [(45,45)]) (.seq (.cls [(48,48)]) (.seq (.cls [(50,50)]) (.seq (.cls [(45,45)]) (.seq (.cls [(50,50)]) (.cls [(57,57)]))))))) (.seq (.cls [(48,57)]) (.seq (.cls [(48,57)]) (.seq (.cls [(48,57)]) (.seq (.cls [(45,45)]) (.alt (.seq (.alt (.seq (.cls [(48,48)]) (.cls [(49,49), (51,51), (53,53), (55,56)])) (.seq (.cls [(49,49)]) (.cls [(48,48), (50,50)]))) (.seq (.cls [(45,45)]) (.alt (.seq (.cls [(48,48)]) (.cls [(49,57)])) (.alt (.seq (.cls [(49,50)]) (.cls [(48,57)])) (.seq (.cls [(51,51)]) (.cls [(48,49)])))))) (.alt (.seq (.alt (.seq (.cls [(48,48)]) (.cls [(52,52), (54,54), (57,57)])) (.seq (.cls [(49,49)]) (.cls [(49,49)]))) (.seq (.cls [(45,45)]) (.alt (.seq (.cls [(48,48)]) (.cls [(49,57)])) (.alt (.seq (.cls [(49,50)]) (.cls [(48,57)])) (.seq (.cls [(51,51)]) (.cls [(48,48)])))))) (.seq (.cls [(48,48)]) (.seq (.cls [(50,50)]) (.seq (.cls [(45,45)]) (.alt (.seq (.cls [(48,48)]) (.cls [(49,57)])) (.alt (.seq (.cls [(49,49)]) (.cls [(48,57)])) (.seq (.cls [(50,50)]) (.cls [(48,56)])))))))))))))),
-    (.alt (.seq (.alt (.seq (.cls [(50,50), (52,52), (54,54), (56,56)]) (.cls [(48,48), (52,52), (56,56)])) (.alt (.seq (.cls [(49,49), (51,51), (53,53), (55,55), (57,57)]) (.cls [(50,50), (54,54)])) (.alt (.seq (.cls [(48,48)]) (.cls [(52,52), (56,56)])) (.seq (.cls [(48,48)]) (.cls [(48,48)]))))) (.seq (.cls [(45,45)]) (.seq (.cls [(48,48)]) (.seq (.cls [(50,50)]) (.seq (.cls [(45,45)]) (.seq (.cls [(50,50)]) (.cls [(57,57)]))))))) (.seq (.cls [(48,57)]) (.seq (.cls [(48,57)]) (.seq (.cls [(45,45)]) (.alt (.seq (.alt (.seq (.cls [(48,48)]) (.cls [(49,49), (51,51), (53,53), (55,56)])) (.seq (.cls [(49,49)]) (.cls [(48,48), (50,50)]))) (.seq (.cls [(45,45)]) (.alt (.seq (.cls [(48,48)]) (.cls [(49,57)])) (.alt (.seq (.cls [(49,50)]) (.cls [(48,57)])) (.seq (.cls [(51,51)]) (.cls [(48,49)])))))) (.alt (.seq (.alt (.seq (.cls [(48,48)]) (.cls [(52,52), (54,54), (57,57)])) (.seq (.cls [(49,49)]) (.cls [(49,49)]))) (.seq (.cls [(45,45)]) (.alt (.seq (.cls [(48,48)]) (.cls [(49,57)])) (.alt (.seq (.cls [(49,50)]) (.cls [(48,57)])) (.seq (.cls [(51,51)]) (.cls [(48,48)])))))) (.seq (.cls [(48,48)]) (.seq (.cls [(50,50)]) (.seq (.cls [(45,45)]) (.alt (.seq (.cls [(48,48)]) (.cls [(49,57)])) (.alt (.seq (.cls [(49,49)]) (.cls [(48,57)])) (.seq (.cls [(50,50)]) (.cls [(48,56)]))))))))))))),
-    (.alt (.seq (.alt (.seq (.cls [(50,50), (52,52), (54,54), (56,56)]) (.cls [(48,48), (52,52), (56,56)])) (.alt (.seq (.cls [(49,49), (51,51), (53,53), (55,55), (57,57)]) (.cls [(50,50), (54,54)])) (.seq (.cls [(48,48)]) (.cls [(52,52), (56,56)])))) (.seq (.cls [(45,45)]) (.seq (.cls [(48,48)]) (.seq (.cls [(50,50)]) (.seq (.cls [(45,45)]) (.seq (.cls [(50,50)]) (.cls [(57,57)]))))))) (.seq (.cls [(48,57)]) (.seq (.cls [(48,57)]) (.seq (.cls [(45,45)]) (.alt (.seq (.alt (.seq (.cls [(48,48)]) (.cls [(49,49), (51,51), (53,53), (55,56)])) (.seq (.cls [(49,49)]) (.cls [(48,48), (50,50)]))) (.seq (.cls [(45,45)]) (.alt (.seq (.cls [(48,48)]) (.cls [(49,57)])) (.alt (.seq (.cls [(49,50)]) (.cls [(48,57)])) (.seq (.cls [(51,51)]) (.cls [(48,49)])))))) (.alt (.seq (.alt (.seq (.cls [(48,48)]) (.cls [(52,52), (54,54), (57,57)])) (.seq (.cls [(49,49)]) (.cls [(49,49)]))) (.seq (.cls [(45,45)]) (.alt (.seq (.cls [(48,48)]) (.cls [(49,57)])) (.alt (.seq (.cls [(49,50)]) (.cls [(48,57)])) (.seq (.cls [(51,51)]) (.cls [(48,48)])))))) (.seq (.cls [(48,48)]) (.seq (.cls [(50,50)]) (.seq (.cls [(45,45)]) (.alt (.seq (.cls [(48,48)]) (.cls [(49,57)])) (.alt (.seq (.cls [(49,49)]) (.cls [(48,57)])) (.seq (.cls [(50,50)]) (.cls [(48,56)]))))))))))))),
-    (.alt (.seq (.alt (.cls [(52,52), (56,56)]) (.cls [(48,48)])) (.seq (.cls [(45,45)]) (.seq (.cls [(48,48)]) (.seq (.cls [(50,50)]) (.seq (.cls [(45,45)]) (.seq (.cls [(50,50)]) (.cls [(57,57)]))))))) (.seq (.cls [(48,57)]) (.seq (.cls [(45,45)]) (.alt (.seq (.alt (.seq (.cls [(48,48)]) (.cls [(49,49), (51,51), (53,53), (55,56)])) (.seq (.cls [(49,49)]) (.cls [(48,48), (50,50)]))) (.seq (.cls [(45,45)]) (.alt (.seq (.cls [(48,48)]) (.cls [(49,57)])) (.alt (.seq (.cls [(49,50)]) (.cls [(48,57)])) (.seq (.cls [(51,51)]) (.cls [(48,49)])))))) (.alt (.seq (.alt (.seq (.cls [(48,48)]) (.cls [(52,52), (54,54), (57,57)])) (.seq (.cls [(49,49)]) (.cls [(49,49)]))) (.seq (.cls [(45,45)]) (.alt (.seq (.cls [(48,48)]) (.cls [(49,57)])) (.alt (.seq (.cls [(49,50)]) (.cls [(48,57)])) (.seq (.cls [(51,51)]) (.cls [(48,48)])))))) (.seq (.cls [(48,48)]) (.seq (.cls [(50,50)]) (.seq (.cls [(45,45)]) (.alt (.seq (.cls [(48,48)]) (.cls [(49,57)])) (.alt (.seq (.cls [(49,49)]) (.cls [(48,57)])) (.seq (.cls [(50,50)]) (.cls [(48,56)])))))))))))),
-    (.alt (.seq (.cls [(50,50), (54,54)]) (.seq (.cls [(45,45)]) (.seq (.cls [(48,48)]) (.seq (.cls [(50,50)]) (.seq (.cls [(45,45)]) (.seq (.cls [(50,50)]) (.cls [(57,57)]))))))) (.seq (.cls [(48,57)]) (.seq (.cls [(45,45)]) (.alt (.seq (.alt (.seq (.cls [(48,48)]) (.cls [(49,49), (51,51), (53,53), (55,56)])) (.seq (.cls [(49,49)]) (.cls [(48,48), (50,50)]))) (.seq (.cls [(45,45)]) (.alt (.seq (.cls [(48,48)]) (.cls [(49,57)])) (.alt (.seq (.cls [(49,50)]) (.cls [(48,57)])) (.seq (.cls [(51,51)]) (.cls [(48,49)])))))) (.alt (.seq (.alt (.seq (.cls [(48,48)]) (.cls [(52,52), (54,54), (57,57)])) (.seq (.cls [(49,49)]) (.cls [(49,49)]))) (.seq (.cls [(45,45)]) (.alt (.seq (.cls [(48,48)]) (.cls [(49,57)])) (.alt (.seq (.cls [(49,50)]) (.cls [(48,57)])) (.seq (.cls [(51,51)]) (.cls [(48,48)])))))) (.seq (.cls [(48,48)]) (.seq (.cls [(50,50)]) (.seq (.cls [(45,45)]) (.alt (.seq (.cls [(48,48)]) (.cls [(49,57)])) (.alt (.seq (.cls [(49,49)]) (.cls [(48,57)])) (.seq (.cls [(50,50)]) (.cls [(48,56)])))))))))))),
-    (.alt (.seq (.cls [(48,48), (52,52), (56,56)]) (.seq (.cls [(45,45)]) (.seq (.cls [(48,48)]) (.seq (.cls [(50,50)]) (.seq (.cls [(45,45)]) (.seq (.cls [(50,50)]) (.cls [(57,57)]))))))) (.seq (.cls [(48,57)]) (.seq (.cls [(45,45)]) (.alt (.seq (.alt (.seq (.cls [(48,48)]) (.cls [(49,49), (51,51), (53,53), (55,56)])) (.seq (.cls [(49,49)]) (.cls [(48,48), (50,50)]))) (.seq (.cls [(45,45)]) (.alt (.seq (.cls [(48,48)]) (.cls [(49,57)])) (.alt (.seq (.cls [(49,50)]) (.cls [(48,57)])) (.seq (.cls [(51,51)]) (.cls [(48,49)])))))) (.alt (.seq (.alt (.seq (.cls [(48,48)]) (.cls [(52,52), (54,54), (57,57)])) (.seq (.cls [(49,49)]) (.cls [(49,49)]))) (.seq (.cls [(45,45)]) (.alt (.seq (.cls [(48,48)]) (.cls [(49,57)])) (.alt (.seq (.cls [(49,50)]) (.cls [(48,57)])) (.seq (.cls [(51,51)]) (.cls [(48,48)])))))) (.seq (.cls [(48,48)]) (.seq (.cls [(50,50)]) (.seq (.cls [(45,45)]) (.alt (.seq (.cls [(48,48)]) (.cls [(49,57)])) (.alt (.seq (.cls [(49,49)]) (.cls [(48,57)])) (.seq (.cls [(50,50)]) (.cls [(48,56)])))))))))))),
-    (.alt (.seq (.cls [(52,52), (56,56)]) (.seq (.cls [(45,45)]) (.seq (.cls [(48,48)]) (.seq (.cls [(50,50)]) (.seq (.cls [(45,45)]) (.seq (.cls [(50,50)]) (.cls [(57,57)]))))))) (.seq (.cls [(48,57)]) (.seq (.cls [(45,45)]) (.alt (.seq (.alt (.seq (.cls [(48,48)]) (.cls [(49,49), (51,51), (53,53), (55,56)])) (.seq (.cls [(49,49)]) (.cls [(48,48), (50,50)]))) (.seq (.cls [(45,45)]) (.alt (.seq (.cls [(48,48)]) (.cls [(49,57)])) (.alt (.seq (.cls [(49,50)]) (.cls [(48,57)])) (.seq (.cls [(51,51)]) (.cls [(48,49)])))))) (.alt (.seq (.alt (.seq (.cls [(48,48)]) (.cls [(52,52), (54,54), (57,57)])) (.seq (.cls [(49,49)]) (.cls [(49,49)]))) (.seq (.cls [(45,45)]) (.alt (.seq (.cls [(48,48)]) (.cls [(49,57)])) (.alt (.seq (.cls [(49,50)]) (.cls [(48,57)])) (.seq (.cls [(51,51)]) (.cls [(48,48)])))))) (.seq (.cls [(48,48)]) (.seq (.cls [(50,50)]) (.seq (.cls [(45,45)]) (.alt (.seq (.cls [(48,48)]) (.cls [(49,57)])) (.alt (.seq (.cls [(49,49)]) (.cls [(48,57)])) (.seq (.cls [(50,50)]) (.cls [(48,56)])))))))))))),
-    (.alt (.seq (.cls [(45,45)]) (.seq (.cls [(48,48)]) (.seq (.cls [(50,50)]) (.seq (.cls [(45,45)]) (.seq (.cls [(50,50)]) (.cls [(57,57)])))))) (.seq (.cls [(45,45)]) (.alt (.seq (.alt (.seq (.cls [(48,48)]) (.cls [(49,49), (51,51), (53,53), (55,56)])) (.seq (.cls [(49,49)]) (.cls [(48,48), (50,50)]))) (.seq (.cls [(45,45)]) (.alt (.seq (.cls [(48,48)]) (.cls [(49,57)])) (.alt (.seq (.cls [(49,50)]) (.cls [(48,57)])) (.seq (.cls [(51,51)]) (.cls [(48,49)])))))) (.alt (.seq (.alt (.seq (.cls [(48,48)]) (.cls [(52,52), (54,54), (57,57)])) (.seq (.cls [(49,49)]) (.cls [(49,49)]))) (.seq (.cls [(45,45)]) (.alt (.seq (.cls [(48,48)]) (.cls [(49,57)])) (.alt (.seq (.cls [(49,50)]) (.cls [(48,57)])) (.seq (.cls [(51,51)]) (.cls [(48,48)])))))) (.seq (.cls [(48,48)]) (.seq (.cls [(50,50)]) (.seq (.cls [(45,45)]) (.alt (.seq (.cls [(48,48)]) (.cls [(49,57)])) (.alt (.seq (.cls [(49,49)]) (.cls [(48,57)])) (.seq (.cls [(50,50)]) (.cls [(48,56)]))))))))))),
-    (.seq (.cls [(45,45)]) (.alt (.seq (.alt (.seq (.cls [(48,48)]) (.cls [(49,49), (51,51), (53,53), (55,56)])) (.seq (.cls [(49,49)]) (.cls [(48,48), (50,50)]))) (.seq (.cls [(45,45)]) (.alt (.seq (.cls [(48,48)]) (.cls [(49,57)])) (.alt (.seq (.cls [(49,50)]) (.cls [(48,57)])) (.seq (.cls [(51,51)]) (.cls [(48,49)])))))) (.alt (.seq (.alt (.seq (.cls [(48,48)]) (.cls [(52,52), (54,54), (57,57)])) (.seq (.cls [(49,49)]) (.cls [(49,49)]))) (.seq (.cls [(45,45)]) (.alt (.seq (.cls [(48,48)]) (.cls [(49,57)])) (.alt (.seq (.cls [(49,50)]) (.cls [(48,57)])) (.seq (.cls [(51,51)]) (.cls [(48,48)])))))) (.seq (.cls [(48,48)]) (.seq (.cls [(50,50)]) (.seq (.cls [(45,45)]) (.alt (.seq (.cls [(48,48)]) (.cls [(49,57)])) (.alt (.seq (.cls [(49,49)]) (.cls [(48,57)])) (.seq (.cls [(50,50)]) (.cls [(48,56)])))))))))),
-    (.alt (.seq (.cls [(48,48)]) (.seq (.cls [(50,50)]) (.seq (.cls [(45,45)]) (.seq (.cls [(50,50)]) (.cls [(57,57)]))))) (.alt (.seq (.alt (.seq (.cls [(48,48)]) (.cls [(49,49), (51,51), (53,53), (55,56)])) (.seq (.cls [(49,49)]) (.cls [(48,48), (50,50)]))) (.seq (.cls [(45,45)]) (.alt (.seq (.cls [(48,48)]) (.cls [(49,57)])) (.alt (.seq (.cls [(49,50)]) (.cls [(48,57)])) (.seq (.cls [(51,51)]) (.cls [(48,49)])))))) (.alt (.seq (.alt (.seq (.cls [(48,48)]) (.cls [(52,52), (54,54), (57,57)])) (.seq (.cls [(49,49)]) (.cls [(49,49)]))) (.seq (.cls [(45,45)]) (.alt (.seq (.cls [(48,48)]) (.cls [(49,57)])) (.alt (.seq (.cls [(49,50)]) (.cls [(48,57)])) (.seq (.cls [(51,51)]) (.cls [(48,48)])))))) (.seq (.cls [(48,48)]) (.seq (.cls [(50,50)]) (.seq (.cls [(45,45)]) (.alt (.seq (.cls [(48,48)]) (.cls [(49,57)])) (.alt (.seq (.cls [(49,49)]) (.cls [(48,57)])) (.seq (.cls [(50,50)]) (.cls [(48,56)])))))))))),
-    (.alt (.seq (.alt (.seq (.cls [(48,48)]) (.cls [(49,49), (51,51), (53,53), (55,56)])) (.seq (.cls [(49,49)]) (.cls [(48,48), (50,50)]))) (.seq (.cls [(45,45)]) (.alt (.seq (.cls [(48,48)]) (.cls [(49,57)])) (.alt (.seq (.cls [(49,50)]) (.cls [(48,57)])) (.seq (.cls [(51,51)]) (.cls [(48,49)])))))) (.alt (.seq (.alt (.seq (.cls [(48,48)]) (.cls [(52,52), (54,54), (57,57)])) (.seq (.cls [(49,49)]) (.cls [(49,49)]))) (.seq (.cls [(45,45)]) (.alt (.seq (.cls [(48,48)]) (.cls [(49,57)])) (.alt (.seq (.cls [(49,50)]) (.cls [(48,57)])) (.seq (.cls [(51,51)]) (.cls [(48,48)])))))) (.seq (.cls [(48,48)]) (.seq (.cls [(50,50)]) (.seq (.cls [(45,45)]) (.alt (.seq (.cls [(48,48)]) (.cls [(49,57)])) (.alt (.seq (.cls [(49,49)]) (.cls [(48,57)])) (.seq (.cls [(50,50)]) (.cls [(48,56)]))))))))),
-    (.alt (.seq (.cls [(50,50)]) (.seq (.cls [(45,45)]) (.seq (.cls [(50,50)]) (.cls [(57,57)])))) (.alt (.seq (.cls [(49,49), (51,51), (53,53), (55,56)]) (.seq (.cls [(45,45)]) (.alt (.seq (.cls [(48,48)]) (.cls [(49,57)])) (.alt (.seq (.cls [(49,50)]) (.cls [(48,57)])) (.seq (.cls [(51,51)]) (.cls [(48,49)])))))) (.alt (.seq (.cls [(52,52), (54,54), (57,57)]) (.seq (.cls [(45,45)]) (.alt (.seq (.cls [(48,48)]) (.cls [(49,57)])) (.alt (.seq (.cls [(49,50)]) (.cls [(48,57)])) (.seq (.cls [(51,51)]) (.cls [(48,48)])))))) (.seq (.cls [(50,50)]) (.seq (.cls [(45,45)]) (.alt (.seq (.cls [(48,48)]) (.cls [(49,57)])) (.alt (.seq (.cls [(49,49)]) (.cls [(48,57)])) (.seq (.cls [(50,50)]) (.cls [(48,56)]))))))))),
-    (.alt (.seq (.cls [(48,48), (50,50)]) (.seq (.cls [(45,45)]) (.alt (.seq (.cls [(48,48)]) (.cls [(49,57)])) (.alt (.seq (.cls [(49,50)]) (.cls [(48,57)])) (.seq (.cls [(51,51)]) (.cls [(48,49)])))))) (.seq (.cls [(49,49)]) (.seq (.cls [(45,45)]) (.alt (.seq (.cls [(48,48)]) (.cls [(49,57)])) (.alt (.seq (.cls [(49,50)]) (.cls [(48,57)])) (.seq (.cls [(51,51)]) (.cls [(48,48)]))))))),
-    (.alt (.seq (.cls [(49,49), (51,51), (53,53), (55,56)]) (.seq (.cls [(45,45)]) (.alt (.seq (.cls [(48,48)]) (.cls [(49,57)])) (.alt (.seq (.cls [(49,50)]) (.cls [(48,57)])) (.seq (.cls [(51,51)]) (.cls [(48,49)])))))) (.alt (.seq (.cls [(52,52), (54,54), (57,57)]) (.seq (.cls [(45,45)]) (.alt (.seq (.cls [(48,48)]) (.cls [(49,57)])) (.alt (.seq (.cls [(49,50)]) (.cls [(48,57)])) (.seq (.cls [(51,51)]) (.cls [(48,48)])))))) (.seq (.cls [(50,50)]) (.seq (.cls [(45,45)]) (.alt (.seq (.cls [(48,48)]) (.cls [(49,57)])) (.alt (.seq (.cls [(49,49)]) (.cls [(48,57)])) (.seq (.cls [(50,50)]) (.cls [(48,56)])))))))),
-    (.seq (.cls [(45,45)]) (.alt (.seq (.cls [(48,48)]) (.cls [(49,57)])) (.alt (.seq (.cls [(49,50)]) (.cls [(48,57)])) (.seq (.cls [(51,51)]) (.cls [(48,49)]))))),
-    (.alt (.seq (.cls [(45,45)]) (.seq (.cls [(50,50)]) (.cls [(57,57)]))) (.seq (.cls [(45,45)]) (.alt (.seq (.cls [(48,48)]) (.cls [(49,57)])) (.alt (.seq (.cls [(49,49)]) (.cls [(48,57)])) (.seq (.cls [(50,50)]) (.cls [(48,56)])))))),
-    (.seq (.cls [(45,45)]) (.alt (.seq (.cls [(48,48)]) (.cls [(49,57)])) (.alt (.seq (.cls [(49,50)]) (.cls [(48,57)])) (.seq (.cls [(51,51)]) (.cls [(48,48)]))))),
-    (.seq (.cls [(45,45)]) (.alt (.seq (.cls [(48,48)]) (.cls [(49,57)])) (.alt (.seq (.cls [(49,49)]) (.cls [(48,57)])) (.seq (.cls [(50,50)]) (.cls [(48,56)]))))),
-    (.alt (.seq (.cls [(48,48)]) (.cls [(49,57)])) (.alt (.seq (.cls [(49,50)]) (.cls [(48,57)])) (.seq (.cls [(51,51)]) (.cls [(48,49)])))),
-    (.alt (.seq (.cls [(50,50)]) (.cls [(57,57)])) (.alt (.seq (.cls [(48,48)]) (.cls [(49,57)])) (.alt (.seq (.cls [(49,49)]) (.cls [(48,57)])) (.seq (.cls [(50,50)]) (.cls [(48,56)]))))),
-    (.alt (.seq (.cls [(48,48)]) (.cls [(49,57)])) (.alt (.seq (.cls [(49,50)]) (.cls [(48,57)])) (.seq (.cls [(51,51)]) (.cls [(48,48)])))),
-    (.alt (.seq (.cls [(48,48)]) (.cls [(49,57)])) (.alt (.seq (.cls [(49,49)]) (.cls [(48,57)])) (.seq (.cls [(50,50)]) (.cls [(48,56)])))),
-    (.cls [(49,57)]),
-    (.cls [(48,57)]),
-    (.cls [(48,49)]),
-    (.alt (.cls [(57,57)]) (.cls [(48,56)])),
-    (.cls [(48,48)]),
-    (.cls [(48,56)]),
-    .eps]
-  tbl := [[1,2,3,2,3,2,3,2,3,2,3], [1,1,1,1,1,1,1,1,1,1,1], [1,4,5,5,5,4,5,5,5,4,5], [1,5,5,4,5,5,5,4,5,5,5], [1,6,7,8,7,8,7,8,7,8,7], [1,9,7,8,7,8,7,8,7,8,7], [1,10,11,11,11,10,11,11,11,10,11], [1,11,11,10,11,11,11,10,11,11,11], [1,10,11,11,11,10,11,11,11,10,11], [1,11,11,11,11,10,11,11,11,10,11], [12,1,1,1,1,1,1,1,1,1,1], [13,1,1,1,1,1,1,1,1,1,1], [1,14,15,1,1,1,1,1,1,1,1], [1,16,15,1,1,1,1,1,1,1,1], [1,1,17,18,17,19,17,19,17,17,19], [1,17,19,17,1,1,1,1,1,1,1], [1,1,17,20,17,19,17,19,17,17,19], [21,1,1,1,1,1,1,1,1,1,1], [22,1,1,1,1,1,1,1,1,1,1], [23,1,1,1,1,1,1,1,1,1,1], [24,1,1,1,1,1,1,1,1,1,1], [1,25,26,26,27,1,1,1,1,1,1], [1,25,26,28,1,1,1,1,1,1,1], [1,25,26,26,29,1,1,1,1,1,1], [1,25,26,30,1,1,1,1,1,1,1], [1,1,31,31,31,31,31,31,31,31,31], [1,31,31,31,31,31,31,31,31,31,31], [1,31,31,1,1,1,1,1,1,1,1], [1,31,31,31,31,31,31,31,31,31,31], [1,31,1,1,1,1,1,1,1,1,1], [1,31,31,31,31,31,31,31,31,31,1], [1,1,1,1,1,1,1,1,1,1,1]]
-  tree := (.node (.node (.node (.node (.node (.node (.node (.node (.node (.node (.node .leaf 1 ⟨1, none, none⟩ .leaf) 14 ⟨0, (some (Fmt.DateSt.mk 0 0 0 0 0)), (some ())⟩ .leaf) 1441151907146838149011867811840007 ⟨2, (some (Fmt.DateSt.mk 1 0 0 0 0)), none⟩ (.node .leaf 1441728454381936498816671644262411 ⟨3, (some (Fmt.DateSt.mk 1 1 0 0 0)), none⟩ .leaf)) 1442305174589851678458781974183943 ⟨2, (some (Fmt.DateSt.mk 1 2 0 0 0)), none⟩ (.node (.node (.node .leaf 1442882067805176736194302334361611 ⟨3, (some (Fmt.DateSt.mk 1 3 0 0 0)), none⟩ .leaf) 1443459134062507749375296378470407 ⟨2, (some (Fmt.DateSt.mk 1 4 0 0 0)), none⟩ .leaf) 1444036373396444683872816101498891 ⟨3, (some (Fmt.DateSt.mk 1 5 0 0 0)), none⟩ (.node .leaf 1444613785841590534482023387119623 ⟨2, (some (Fmt.DateSt.mk 1 6 0 0 0)), none⟩ .leaf))) 1445191371432552184688935872421899 ⟨3, (some (Fmt.DateSt.mk 1 7 0 0 0)), none⟩ (.node (.node (.node (.node .leaf 1445769130203939546731796491206663 ⟨2, (some (Fmt.DateSt.mk 1 8 0 0 0)), none⟩ .leaf) 1446347062190366421711605702533131 ⟨3, (some (Fmt.DateSt.mk 1 9 0 0 0)), none⟩ .leaf) 23058430303243173932040198389760016 ⟨4, (some (Fmt.DateSt.mk 2 0 0 0 0)), none⟩ (.node .leaf 23063042335181249794320379485462550 ⟨5, (some (Fmt.DateSt.mk 2 1 0 0 0)), none⟩ .leaf)) 23067655058941408680601252416929814 ⟨5, (some (Fmt.DateSt.mk 2 2 0 0 0)), none⟩ (.node (.node (.node .leaf 23072268474592831284212694190972950 ⟨5, (some (Fmt.DateSt.mk 2 3 0 0 0)), none⟩ .leaf) 23076882582204701327666456132812816 ⟨4, (some (Fmt.DateSt.mk 2 4 0 0 0)), none⟩ .leaf) 23081497381846206851575898264576022 ⟨5, (some (Fmt.DateSt.mk 2 5 0 0 0)), none⟩ (.node .leaf 23086112873586538066313252114382870 ⟨5, (some (Fmt.DateSt.mk 2 6 0 0 0)), none⟩ .leaf)))) 23090729057494889500352357907259414 ⟨5, (some (Fmt.DateSt.mk 2 7 0 0 0)), none⟩ (.node (.node (.node (.node (.node .leaf 23095345933640458711177097134669840 ⟨4, (some (Fmt.DateSt.mk 2 8 0 0 0)), none⟩ .leaf) 23099963502092447574716660448665622 ⟨5, (some (Fmt.DateSt.mk 2 9 0 0 0)), none⟩ .leaf) 23104581762920060136143559311769622 ⟨5, (some (Fmt.DateSt.mk 2 10 0 0 0)), none⟩ (.node .leaf 23109200716192504759075614347091990 ⟨5, (some (Fmt.DateSt.mk 2 11 0 0 0)), none⟩ .leaf)) 23113820361978992835968820032471056 ⟨4, (some (Fmt.DateSt.mk 2 12 0 0 0)), none⟩ (.node (.node (.node .leaf 23118440700348740078068249189490710 ⟨5, (some (Fmt.DateSt.mk 2 13 0 0 0)), none⟩ .leaf) 23123061731370964365346641675468822 ⟨5, (some (Fmt.DateSt.mk 2 14 0 0 0)), none⟩ .leaf) 23127683455114887896565815691468822 ⟨5, (some (Fmt.DateSt.mk 2 15 0 0 0)), none⟩ (.node .leaf 23132305871649735899153861521834000 ⟨4, (some (Fmt.DateSt.mk 2 16 0 0 0)), none⟩ .leaf))) 23136928981044737919671785697288214 ⟨5, (some (Fmt.DateSt.mk 2 17 0 0 0)), none⟩ (.node (.node (.node (.node .leaf 23141552783369125672892504930336790 ⟨5, (some (Fmt.DateSt.mk 2 18 0 0 0)), none⟩ .leaf) 23146177278692135192721852179865622 ⟨5, (some (Fmt.DateSt.mk 2 19 0 0 0)), none⟩ .leaf) 23150802467083005541559996356853776 ⟨4, (some (Fmt.DateSt.mk 2 20 0 0 0)), none⟩ (.node .leaf 23155428348610980101283929240772630 ⟨5, (some (Fmt.DateSt.mk 2 21 0 0 0)), none⟩ .leaf)) 23160054923345304421466692859707414 ⟨5, (some (Fmt.DateSt.mk 2 22 0 0 0)), none⟩ (.node (.node .leaf 23164682191355228371158152110235670 ⟨5, (some (Fmt.DateSt.mk 2 23 0 0 0)), none⟩ .leaf) 23169310152710004847730537350103056 ⟨4, (some (Fmt.DateSt.mk 2 24 0 0 0)), none⟩ (.node .leaf 23173938807478891068376877147136022 ⟨5, (some (Fmt.DateSt.mk 2 25 0 0 0)), none⟩ .leaf))))) 23178568155731146417470287305392150 ⟨5, (some (Fmt.DateSt.mk 2 26 0 0 0)), none⟩ (.node (.node (.node (.node (.node (.node .leaf 23183198197536034599204681839009814 ⟨5, (some (Fmt.DateSt.mk 2 27 0 0 0)), none⟩ .leaf) 23187828932962822345924335372632080 ⟨4, (some (Fmt.DateSt.mk 2 28 0 0 0)), none⟩ .leaf) 23192460362080780710138364802048022 ⟨5, (some (Fmt.DateSt.mk 2 29 0 0 0)), none⟩ (.node .leaf 23197092484959182911019908167680022 ⟨5, (some (Fmt.DateSt.mk 2 30 0 0 0)), none⟩ .leaf)) 23201725301667306487906945781096470 ⟨5, (some (Fmt.DateSt.mk 2 31 0 0 0)), none⟩ (.node (.node (.node .leaf 23206358812274432008115779353968656 ⟨4, (some (Fmt.DateSt.mk 2 32 0 0 0)), none⟩ .leaf) 23210993016849844359471665649655830 ⟨5, (some (Fmt.DateSt.mk 2 33 0 0 0)), none⟩ .leaf) 23215627915462830595947713405337622 ⟨5, (some (Fmt.DateSt.mk 2 34 0 0 0)), none⟩ (.node .leaf 23220263508182682092025986409881622 ⟨5, (some (Fmt.DateSt.mk 2 35 0 0 0)), none⟩ .leaf))) 23224899795078693249994796282118160 ⟨4, (some (Fmt.DateSt.mk 2 36 0 0 0)), none⟩ (.node (.node (.node (.node .leaf 23229536776220162792995591192584214 ⟨5, (some (Fmt.DateSt.mk 2 37 0 0 0)), none⟩ .leaf) 23234174451676391609801399035609110 ⟨5, (some (Fmt.DateSt.mk 2 38 0 0 0)), none⟩ .leaf) 23238812821516684910038384257228822 ⟨5, (some (Fmt.DateSt.mk 2 39 0 0 0)), none⟩ (.node .leaf 23243451885810350930966851203563536 ⟨4, (some (Fmt.DateSt.mk 2 40 0 0 0)), none⟩ .leaf)) 23248091644626702231044490991935510 ⟨5, (some (Fmt.DateSt.mk 2 41 0 0 0)), none⟩ (.node (.node .leaf 23252732098035053533844199134216214 ⟨5, (some (Fmt.DateSt.mk 2 42 0 0 0)), none⟩ .leaf) 23257373246104723884136257913479190 ⟨5, (some (Fmt.DateSt.mk 2 43 0 0 0)), none⟩ (.node .leaf 23262015088905035354152947223265296 ⟨4, (some (Fmt.DateSt.mk 2 44 0 0 0)), none⟩ .leaf)))) 23266657626505314337668252667289622 ⟨5, (some (Fmt.DateSt.mk 2 45 0 0 0)), none⟩ (.node (.node (.node (.node (.node .leaf 23271300858974889393054885835358230 ⟨5, (some (Fmt.DateSt.mk 2 46 0 0 0)), none⟩ .leaf) 23275944786383093400227264027451414 ⟨5, (some (Fmt.DateSt.mk 2 47 0 0 0)), none⟩ .leaf) 23280589408799262266389625504661520 ⟨4, (some (Fmt.DateSt.mk 2 48 0 0 0)), none⟩ (.node .leaf 23285234726292736220632301896704022 ⟨5, (some (Fmt.DateSt.mk 2 49 0 0 0)), none⟩ .leaf)) 23289880738932857656127769331712022 ⟨5, (some (Fmt.DateSt.mk 2 50 0 0 0)), none⟩ (.node (.node (.node .leaf 23294527446788973287934597306441750 ⟨5, (some (Fmt.DateSt.mk 2 51 0 0 0)), none⟩ .leaf) 23299174849930432858228965269667856 ⟨4, (some (Fmt.DateSt.mk 2 52 0 0 0)), none⟩ .leaf) 23303822948426590431417602416713750 ⟨5, (some (Fmt.DateSt.mk 2 53 0 0 0)), none⟩ (.node .leaf 23308471742346802235472697874432022 ⟨5, (some (Fmt.DateSt.mk 2 54 0 0 0)), none⟩ .leaf))) 23313121231760428820596990516224022 ⟨5, (some (Fmt.DateSt.mk 2 55 0 0 0)), none⟩ (.node (.node (.node (.node .leaf 23317771416736833763938583798677520 ⟨4, (some (Fmt.DateSt.mk 2 56 0 0 0)), none⟩ .leaf) 23322422297345384965220656022331414 ⟨5, (some (Fmt.DateSt.mk 2 57 0 0 0)), none⟩ .leaf) 23327073873655452487215057773150230 ⟨5, (some (Fmt.DateSt.mk 2 58 0 0 0)), none⟩ (.node .leaf 23331726145736410715268714481049622 ⟨5, (some (Fmt.DateSt.mk 2 59 0 0 0)), none⟩ .leaf)) 23336379113657637061501636430561296 ⟨4, (some (Fmt.DateSt.mk 2 60 0 0 0)), none⟩ (.node (.node .leaf 23341032777488513260953502567047190 ⟨5, (some (Fmt.DateSt.mk 2 61 0 0 0)), none⟩ .leaf) 23345687137298423211195773395976214 ⟨5, (some (Fmt.DateSt.mk 2 62 0 0 0)), none⟩ (.node .leaf 23350342193156755132719578083647510 ⟨5, (some (Fmt.DateSt.mk 2 63 0 0 0)), none⟩ .leaf)))))) 23354997945132900272616816562667536 ⟨4, (some (Fmt.DateSt.mk 2 64 0 0 0)), none⟩ (.node (.node (.node (.node (.node (.node (.node .leaf 23359654393296254201243719962828822 ⟨5, (some (Fmt.DateSt.mk 2 65 0 0 0)), none⟩ .leaf) 23364311537716214650971307169497110 ⟨5, (some (Fmt.DateSt.mk 2 66 0 0 0)), none⟩ .leaf) 23368969378462183677434928265224214 ⟨5, (some (Fmt.DateSt.mk 2 67 0 0 0)), none⟩ (.node .leaf 23373627915603566362698355650822160 ⟨4, (some (Fmt.DateSt.mk 2 68 0 0 0)), none⟩ .leaf)) 23378287149209772112434424180121622 ⟨5, (some (Fmt.DateSt.mk 2 69 0 0 0)), none⟩ (.node (.node (.node .leaf 23382947079350212493813659578777622 ⟨5, (some (Fmt.DateSt.mk 2 70 0 0 0)), none⟩ .leaf) 23387607706094303397615650025463830 ⟨5, (some (Fmt.DateSt.mk 2 71 0 0 0)), none⟩ .leaf) 23392269029511463740876023209328656 ⟨4, (some (Fmt.DateSt.mk 2 72 0 0 0)), none⟩ (.node .leaf 23396931049671116764584269247848470 ⟨5, (some (Fmt.DateSt.mk 2 73 0 0 0)), none⟩ .leaf))) 23401593766642687870710369167360022 ⟨5, (some (Fmt.DateSt.mk 2 74 0 0 0)), none⟩ (.node (.node (.node (.node .leaf 23406257180495606785178166422528022 ⟨5, (some (Fmt.DateSt.mk 2 75 0 0 0)), none⟩ .leaf) 23410921291299306259995126810968080 ⟨4, (some (Fmt.DateSt.mk 2 76 0 0 0)), none⟩ .leaf) 23415586099123223371467447253409814 ⟨5, (some (Fmt.DateSt.mk 2 77 0 0 0)), none⟩ (.node .leaf 23420251604036797356364512537264150 ⟨5, (some (Fmt.DateSt.mk 2 78 0 0 0)), none⟩ .leaf)) 23424917806109471775754438573056022 ⟨5, (some (Fmt.DateSt.mk 2 79 0 0 0)), none⟩ (.node (.node .leaf 23429584705410693216616512086999056 ⟨4, (some (Fmt.DateSt.mk 2 80 0 0 0)), none⟩ .leaf) 23434252302009912590573688342683670 ⟨5, (some (Fmt.DateSt.mk 2 81 0 0 0)), none⟩ (.node .leaf 23438920595976582969194704348987414 ⟨5, (some (Fmt.DateSt.mk 2 82 0 0 0)), none⟩ .leaf)))) 23443589587380161748691965652164630 ⟨5, (some (Fmt.DateSt.mk 2 83 0 0 0)), none⟩ (.node (.node (.node (.node (.node .leaf 23448259276290109351016562727157776 ⟨4, (some (Fmt.DateSt.mk 2 84 0 0 0)), none⟩ .leaf) 23452929662775890523108260720025622 ⟨5, (some (Fmt.DateSt.mk 2 85 0 0 0)), none⟩ .leaf) 23457600746906972171335097321504790 ⟨5, (some (Fmt.DateSt.mk 2 86 0 0 0)), none⟩ (.node .leaf 23462272528752825527053784893448214 ⟨5, (some (Fmt.DateSt.mk 2 87 0 0 0)), none⟩ .leaf)) 23466945008382924847187200479658000 ⟨4, (some (Fmt.DateSt.mk 2 88 0 0 0)), none⟩ (.node (.node (.node .leaf 23471618185866748713991970648268822 ⟨5, (some (Fmt.DateSt.mk 2 89 0 0 0)), none⟩ .leaf) 23476292061273777868635382232268822 ⟨5, (some (Fmt.DateSt.mk 2 90 0 0 0)), none⟩ .leaf) 23480966634673497377618471588978710 ⟨5, (some (Fmt.DateSt.mk 2 91 0 0 0)), none⟩ (.node .leaf 23485641906135395332835885151191056 ⟨4, (some (Fmt.DateSt.mk 2 92 0 0 0)), none⟩ .leaf))) 23490317875728964151861162448723990 ⟨5, (some (Fmt.DateSt.mk 2 93 0 0 0)), none⟩ (.node (.node (.node (.node .leaf 23494994543523698410660787917209622 ⟨5, (some (Fmt.DateSt.mk 2 94 0 0 0)), none⟩ .leaf) 23499671909589097010880139089305622 ⟨5, (some (Fmt.DateSt.mk 2 95 0 0 0)), none⟩ .leaf) 23504349973994661879385614606925840 ⟨4, (some (Fmt.DateSt.mk 2 96 0 0 0)), none⟩ (.node .leaf 23509028736809899269067718501179414 ⟨5, (some (Fmt.DateSt.mk 2 97 0 0 0)), none⟩ .leaf)) 23513708198104317590692081270734870 ⟨5, (some (Fmt.DateSt.mk 2 98 0 0 0)), none⟩ (.node (.node .leaf 23518388357947429581048438803456022 ⟨5, (some (Fmt.DateSt.mk 2 99 0 0 0)), none⟩ .leaf) 116733303053926796313074086133760029 ⟨6, (some (Fmt.DateSt.mk 3 0 0 0 0)), none⟩ (.node .leaf 116748868272549549535569797365702693 ⟨7, (some (Fmt.DateSt.mk 3 1 0 0 0)), none⟩ .leaf))))) 116764435047720103680449176427675694 ⟨8, (some (Fmt.DateSt.mk 3 2 0 0 0)), none⟩ (.node (.node (.node (.node (.node (.node .leaf 116780003379542225904871015432544293 ⟨7, (some (Fmt.DateSt.mk 3 3 0 0 0)), none⟩ .leaf) 116795573268119689724376971512217646 ⟨8, (some (Fmt.DateSt.mk 3 4 0 0 0)), none⟩ .leaf) 116811144713556268247029500358533157 ⟨7, (some (Fmt.DateSt.mk 3 5 0 0 0)), none⟩ (.node .leaf 116826717715955741906157014847406126 ⟨8, (some (Fmt.DateSt.mk 3 6 0 0 0)), none⟩ .leaf)) 116842292275421890727093261618896933 ⟨7, (some (Fmt.DateSt.mk 3 7 0 0 0)), none⟩ (.node (.node (.node .leaf 116857868392058502060953426472796206 ⟨8, (some (Fmt.DateSt.mk 3 8 0 0 0)), none⟩ .leaf) 116873446065969362850342529817518117 ⟨7, (some (Fmt.DateSt.mk 3 9 0 0 0)), none⟩ .leaf) 116889025297258267847668546065940536 ⟨9, (some (Fmt.DateSt.mk 3 10 0 0 0)), none⟩ (.node .leaf 116904606086029009462289756686934053 ⟨7, (some (Fmt.DateSt.mk 3 11 0 0 0)), none⟩ .leaf))) 116920188432385390331412940395675694 ⟨8, (some (Fmt.DateSt.mk 3 12 0 0 0)), none⟩ (.node (.node (.node (.node .leaf 116935772336431210748679615088336933 ⟨7, (some (Fmt.DateSt.mk 3 13 0 0 0)), none⟩ .leaf) 116951357798270278818565388415549486 ⟨8, (some (Fmt.DateSt.mk 3 14 0 0 0)), none⟩ .leaf) 116966944818006402235488999011573797 ⟨7, (some (Fmt.DateSt.mk 3 15 0 0 0)), none⟩ (.node .leaf 116982533395743396021712896170393646 ⟨8, (some (Fmt.DateSt.mk 3 16 0 0 0)), none⟩ .leaf)) 116998123531585074788927023575146533 ⟨7, (some (Fmt.DateSt.mk 3 17 0 0 0)), none⟩ (.node (.node .leaf 117013715225635260477180689343037486 ⟨8, (some (Fmt.DateSt.mk 3 18 0 0 0)), none⟩ .leaf) 117029308477997774615435025026211877 ⟨7, (some (Fmt.DateSt.mk 3 19 0 0 0)), none⟩ (.node .leaf 117044903288776446545354496863273016 ⟨9, (some (Fmt.DateSt.mk 3 20 0 0 0)), none⟩ .leaf)))) 117060499658075103261686560740581413 ⟨7, (some (Fmt.DateSt.mk 3 21 0 0 0)), none⟩ (.node (.node (.node (.node (.node .leaf 117076097585997581991539140316315694 ⟨8, (some (Fmt.DateSt.mk 3 22 0 0 0)), none⟩ .leaf) 117091697072647717614587409222721573 ⟨7, (some (Fmt.DateSt.mk 3 23 0 0 0)), none⟩ .leaf) 117107298118129352824241355125882926 ⟨8, (some (Fmt.DateSt.mk 3 24 0 0 0)), none⟩ (.node .leaf 117122900722546329901275570105753637 ⟨7, (some (Fmt.DateSt.mk 3 25 0 0 0)), none⟩ .leaf)) 117138504886002498456886969371115566 ⟨8, (some (Fmt.DateSt.mk 3 26 0 0 0)), none⟩ (.node (.node (.node .leaf 117154110608601707689121264151453733 ⟨7, (some (Fmt.DateSt.mk 3 27 0 0 0)), none⟩ .leaf) 117169717890447814126962314378117166 ⟨8, (some (Fmt.DateSt.mk 3 28 0 0 0)), none⟩ .leaf) 117185326731644673885726933250252837 ⟨7, (some (Fmt.DateSt.mk 3 29 0 0 0)), none⟩ (.node .leaf 117200937132296150896336615703101496 ⟨9, (some (Fmt.DateSt.mk 3 30 0 0 0)), none⟩ .leaf))) 117216549092506106738927240421236773 ⟨7, (some (Fmt.DateSt.mk 3 31 0 0 0)), none⟩ (.node (.node (.node (.node .leaf 117232162612378413230508627625115694 ⟨8, (some (Fmt.DateSt.mk 3 32 0 0 0)), none⟩ .leaf) 117247777692016939836789069812146213 ⟨7, (some (Fmt.DateSt.mk 3 33 0 0 0)), none⟩ .leaf) 117263394331525563840113364160593966 ⟨8, (some (Fmt.DateSt.mk 3 34 0 0 0)), none⟩ (.node .leaf 117279012531008162107611526699376677 ⟨7, (some (Fmt.DateSt.mk 3 35 0 0 0)), none⟩ .leaf)) 117294632290568618839415368048803886 ⟨8, (some (Fmt.DateSt.mk 3 36 0 0 0)), none⟩ (.node (.node .leaf 117310253610310817819925937487978533 ⟨7, (some (Fmt.DateSt.mk 3 37 0 0 0)), none⟩ .leaf) 117325876490338650167062076259123246 ⟨8, (some (Fmt.DateSt.mk 3 38 0 0 0)), none⟩ (.node .leaf 117341500930756006582495849711656997 ⟨7, (some (Fmt.DateSt.mk 3 39 0 0 0)), none⟩ .leaf))))))) 117357126931666784132986803972014109 ⟨6, (some (Fmt.DateSt.mk 3 40 0 0 0)), none⟩ (.node (.node (.node (.node (.node (.node (.node (.node .leaf 117372754493174883344317032032772133 ⟨7, (some (Fmt.DateSt.mk 3 41 0 0 0)), none⟩ .leaf) 117388383615384206263140459166875694 ⟨8, (some (Fmt.DateSt.mk 3 42 0 0 0)), none⟩ .leaf) 117404014298398658394617474242338853 ⟨7, (some (Fmt.DateSt.mk 3 43 0 0 0)), none⟩ (.node .leaf 117419646542322151610028113446338606 ⟨8, (some (Fmt.DateSt.mk 3 44 0 0 0)), none⟩ .leaf)) 117435280347258597362857387260026917 ⟨7, (some (Fmt.DateSt.mk 3 45 0 0 0)), none⟩ (.node (.node (.node .leaf 117450915713311914442172431211970606 ⟨8, (some (Fmt.DateSt.mk 3 46 0 0 0)), none⟩ .leaf) 117466552640586021218729203134160933 ⟨7, (some (Fmt.DateSt.mk 3 47 0 0 0)), none⟩ .leaf) 117482191129184843399381955076423726 ⟨8, (some (Fmt.DateSt.mk 3 48 0 0 0)), none⟩ (.node .leaf 117497831179212306272157575041720357 ⟨7, (some (Fmt.DateSt.mk 3 49 0 0 0)), none⟩ .leaf))) 117513472790772342946493225971302456 ⟨9, (some (Fmt.DateSt.mk 3 50 0 0 0)), none⟩ (.node (.node (.node (.node .leaf 117529115963968884173299377288339493 ⟨7, (some (Fmt.DateSt.mk 3 51 0 0 0)), none⟩ .leaf) 117544760698905870949391897195675694 ⟨8, (some (Fmt.DateSt.mk 3 52 0 0 0)), none⟩ .leaf) 117560406995687241912543705308307493 ⟨7, (some (Fmt.DateSt.mk 3 53 0 0 0)), none⟩ (.node .leaf 117576054854416943522970506319052846 ⟨8, (some (Fmt.DateSt.mk 3 54 0 0 0)), none⟩ .leaf)) 117591704275198921820511875664568357 ⟨7, (some (Fmt.DateSt.mk 3 55 0 0 0)), none⟩ (.node (.node (.node .leaf 117607355258137130183170703278407726 ⟨8, (some (Fmt.DateSt.mk 3 56 0 0 0)), none⟩ .leaf) 117623007803335521568057426048720933 ⟨7, (some (Fmt.DateSt.mk 3 57 0 0 0)), none⟩ .leaf) 117638661910898056270962136329666606 ⟨8, (some (Fmt.DateSt.mk 3 58 0 0 0)), none⟩ (.node .leaf 117654317580928694166266115281018917 ⟨7, (some (Fmt.DateSt.mk 3 59 0 0 0)), none⟩ .leaf)))) 117669974813531402952665165153402936 ⟨9, (some (Fmt.DateSt.mk 3 60 0 0 0)), none⟩ (.node (.node (.node (.node (.node .leaf 117685633608810147966455923310370853 ⟨7, (some (Fmt.DateSt.mk 3 61 0 0 0)), none⟩ .leaf) 117701293966868904794358409374875694 ⟨8, (some (Fmt.DateSt.mk 3 62 0 0 0)), none⟩ .leaf) 117716955887811646660177051214340133 ⟨7, (some (Fmt.DateSt.mk 3 63 0 0 0)), none⟩ (.node .leaf 117732619371742354613063651523952686 ⟨8, (some (Fmt.DateSt.mk 3 64 0 0 0)), none⟩ .leaf)) 117748284418765009279211921199144997 ⟨7, (some (Fmt.DateSt.mk 3 65 0 0 0)), none⟩ (.node (.node (.node .leaf 117763951028983598625560934075187246 ⟨8, (some (Fmt.DateSt.mk 3 66 0 0 0)), none⟩ .leaf) 117779619202502110195575176599658533 ⟨7, (some (Fmt.DateSt.mk 3 67 0 0 0)), none⟩ .leaf) 117795288939424538873981010927779886 ⟨8, (some (Fmt.DateSt.mk 3 68 0 0 0)), none⟩ (.node .leaf 117810960239854879121513681879408677 ⟨7, (some (Fmt.DateSt.mk 3 69 0 0 0)), none⟩ .leaf))) 117826633103897133226128167885455416 ⟨9, (some (Fmt.DateSt.mk 3 70 0 0 0)), none⟩ (.node (.node (.node (.node .leaf 117842307531655301109506522630578213 ⟨7, (some (Fmt.DateSt.mk 3 71 0 0 0)), none⟩ .leaf) 117857983523233392948273668777115694 ⟨8, (some (Fmt.DateSt.mk 3 72 0 0 0)), none⟩ .leaf) 117873661078735416552265005574004773 ⟨7, (some (Fmt.DateSt.mk 3 73 0 0 0)), none⟩ (.node .leaf 117889340198265387559568863215534126 ⟨8, (some (Fmt.DateSt.mk 3 74 0 0 0)), none⟩ .leaf)) 117905020881927321182732658559180837 ⟨7, (some (Fmt.DateSt.mk 3 75 0 0 0)), none⟩ (.node (.node .leaf 117920703129825239977632078838661166 ⟨8, (some (Fmt.DateSt.mk 3 76 0 0 0)), none⟩ .leaf) 117936386942063166074085230564253733 ⟨7, (some (Fmt.DateSt.mk 3 77 0 0 0)), none⟩ (.node .leaf 117952072318745128945755175188971566 ⟨8, (some (Fmt.DateSt.mk 3 78 0 0 0)), none⟩ .leaf))))) 117967759259975157639730691696025637 ⟨7, (some (Fmt.DateSt.mk 3 79 0 0 0)), none⟩ (.node (.node (.node (.node (.node (.node .leaf 117983447765857287575933755677736989 ⟨6, (some (Fmt.DateSt.mk 3 80 0 0 0)), none⟩ .leaf) 117999137836495557633309233189953573 ⟨7, (some (Fmt.DateSt.mk 3 81 0 0 0)), none⟩ .leaf) 118014829471994008206509553884315694 ⟨8, (some (Fmt.DateSt.mk 3 82 0 0 0)), none⟩ (.node .leaf 118030522672456683148693267410149413 ⟨7, (some (Fmt.DateSt.mk 3 83 0 0 0)), none⟩ .leaf)) 118046217437987632686885660957573166 ⟨8, (some (Fmt.DateSt.mk 3 84 0 0 0)), none⟩ (.node (.node (.node .leaf 118061913768690906619987427849379877 ⟨7, (some (Fmt.DateSt.mk 3 85 0 0 0)), none⟩ .leaf) 118077611664670562092811298214461486 ⟨8, (some (Fmt.DateSt.mk 3 86 0 0 0)), none⟩ .leaf) 118093311126030655821528569129066533 ⟨7, (some (Fmt.DateSt.mk 3 87 0 0 0)), none⟩ (.node .leaf 118109012152875251868739430840729646 ⟨8, (some (Fmt.DateSt.mk 3 88 0 0 0)), none⟩ .leaf))) 118124714745308413867885766999285797 ⟨7, (some (Fmt.DateSt.mk 3 89 0 0 0)), none⟩ (.node (.node (.node (.node .leaf 118140418903434213285442519008952376 ⟨9, (some (Fmt.DateSt.mk 3 90 0 0 0)), none⟩ .leaf) 118156124627356719213860318338768933 ⟨7, (some (Fmt.DateSt.mk 3 91 0 0 0)), none⟩ .leaf) 118171831917180011009576148587675694 ⟨8, (some (Fmt.DateSt.mk 3 92 0 0 0)), none⟩ (.node .leaf 118187540773008165654485741154902053 ⟨7, (some (Fmt.DateSt.mk 3 93 0 0 0)), none⟩ .leaf)) 118203251194945267964551769723125806 ⟨8, (some (Fmt.DateSt.mk 3 94 0 0 0)), none⟩ (.node (.node .leaf 118218963183095402325027774583726117 ⟨7, (some (Fmt.DateSt.mk 3 95 0 0 0)), none⟩ .leaf) 118234676737562660469663958257500206 ⟨8, (some (Fmt.DateSt.mk 3 96 0 0 0)), none⟩ (.node .leaf 118250391858451133700984378889936933 ⟨7, (some (Fmt.DateSt.mk 3 97 0 0 0)), none⟩ .leaf)))) 118266108545864920670526785019822126 ⟨8, (some (Fmt.DateSt.mk 3 98 0 0 0)), none⟩ (.node (.node (.node (.node (.node .leaf 118281826799908119598085735466885157 ⟨7, (some (Fmt.DateSt.mk 3 99 0 0 0)), none⟩ .leaf) 118297546620684836539396958428364856 ⟨9, (some (Fmt.DateSt.mk 3 100 0 0 0)), none⟩ .leaf) 118313268008299175172294246836576293 ⟨7, (some (Fmt.DateSt.mk 3 101 0 0 0)), none⟩ (.node .leaf 118328990962855249443121742187675694 ⟨8, (some (Fmt.DateSt.mk 3 102 0 0 0)), none⟩ .leaf)) 118344715484457170919804536649670693 ⟨7, (some (Fmt.DateSt.mk 3 103 0 0 0)), none⟩ (.node (.node (.node .leaf 118360441573209059007243119894528046 ⟨8, (some (Fmt.DateSt.mk 3 104 0 0 0)), none⟩ .leaf) 118376169229215032677043449685483557 ⟨7, (some (Fmt.DateSt.mk 3 105 0 0 0)), none⟩ .leaf) 118391898452579218251893630431969326 ⟨8, (some (Fmt.DateSt.mk 3 106 0 0 0)), none⟩ (.node .leaf 118407629243405741620670051851984933 ⟨7, (some (Fmt.DateSt.mk 3 107 0 0 0)), none⟩ .leaf))) 118423361601798736023848450272297006 ⟨8, (some (Fmt.DateSt.mk 3 108 0 0 0)), none⟩ (.node (.node (.node (.node .leaf 118439095527862334267575630185799717 ⟨7, (some (Fmt.DateSt.mk 3 109 0 0 0)), none⟩ .leaf) 118454831021700676996848643453665336 ⟨9, (some (Fmt.DateSt.mk 3 110 0 0 0)), none⟩ .leaf) 118470568083417902474883692852207653 ⟨7, (some (Fmt.DateSt.mk 3 111 0 0 0)), none⟩ (.node .leaf 118486306713118159237932829394075694 ⟨8, (some (Fmt.DateSt.mk 3 112 0 0 0)), none⟩ .leaf)) 118502046910905593439949969145143333 ⟨7, (some (Fmt.DateSt.mk 3 113 0 0 0)), none⟩ (.node (.node .leaf 118517788676884359074773847263395886 ⟨8, (some (Fmt.DateSt.mk 3 114 0 0 0)), none⟩ .leaf) 118533532011158609700362409487196197 ⟨7, (some (Fmt.DateSt.mk 3 115 0 0 0)), none⟩ (.node .leaf 118549276913832506228342091611340846 ⟨8, (some (Fmt.DateSt.mk 3 116 0 0 0)), none⟩ .leaf)))))) 118565023385010209133941185429610533 ⟨7, (some (Fmt.DateSt.mk 3 117 0 0 0)), none⟩ (.node (.node (.node (.node (.node (.node (.node .leaf 118580771424795886246573844553482286 ⟨8, (some (Fmt.DateSt.mk 3 118 0 0 0)), none⟩ .leaf) 118596521033293704958738689652285477 ⟨7, (some (Fmt.DateSt.mk 3 119 0 0 0)), none⟩ .leaf) 118612272210607839043523561758064669 ⟨6, (some (Fmt.DateSt.mk 3 120 0 0 0)), none⟩ (.node .leaf 118628024956842465733039535963775013 ⟨7, (some (Fmt.DateSt.mk 3 121 0 0 0)), none⟩ .leaf)) 118643779272101763769934110325915694 ⟨8, (some (Fmt.DateSt.mk 3 122 0 0 0)), none⟩ (.node (.node (.node .leaf 118659535156489915355360559301287973 ⟨7, (some (Fmt.DateSt.mk 3 123 0 0 0)), none⟩ .leaf) 118675292610111109072096293030625326 ⟨8, (some (Fmt.DateSt.mk 3 124 0 0 0)), none⟩ .leaf) 118691051633069533064450815730688037 ⟨7, (some (Fmt.DateSt.mk 3 125 0 0 0)), none⟩ (.node .leaf 118706812225469382832989324078366766 ⟨8, (some (Fmt.DateSt.mk 3 126 0 0 0)), none⟩ .leaf))) 118722574387414853439291582446493733 ⟨7, (some (Fmt.DateSt.mk 3 127 0 0 0)), none⟩ (.node (.node (.node (.node .leaf 118738338119010147301710591227985966 ⟨8, (some (Fmt.DateSt.mk 3 128 0 0 0)), none⟩ .leaf) 118754103420359466399096357771878437 ⟨7, (some (Fmt.DateSt.mk 3 129 0 0 0)), none⟩ .leaf) 118769870291567020554970191879946296 ⟨9, (some (Fmt.DateSt.mk 3 130 0 0 0)), none⟩ (.node .leaf 118785638732737017203310861158670373 ⟨7, (some (Fmt.DateSt.mk 3 131 0 0 0)), none⟩ .leaf)) 118801408743973674060188490511515694 ⟨8, (some (Fmt.DateSt.mk 3 132 0 0 0)), none⟩ (.node (.node .leaf 118817180325381206451613033187352613 ⟨7, (some (Fmt.DateSt.mk 3 133 0 0 0)), none⟩ .leaf) 118832953477063837549301003806392366 ⟨8, (some (Fmt.DateSt.mk 3 134 0 0 0)), none⟩ (.node .leaf 118848728199125790083913035567063077 ⟨7, (some (Fmt.DateSt.mk 3 135 0 0 0)), none⟩ .leaf)))) 118864504491671294144953515525079086 ⟨8, (some (Fmt.DateSt.mk 3 136 0 0 0)), none⟩ (.node (.node (.node (.node (.node .leaf 118880282354804579380353251135594533 ⟨7, (some (Fmt.DateSt.mk 3 137 0 0 0)), none⟩ .leaf) 118896061788629882797404519069696046 ⟨8, (some (Fmt.DateSt.mk 3 138 0 0 0)), none⟩ .leaf) 118911842793251440961308283859394597 ⟨7, (some (Fmt.DateSt.mk 3 139 0 0 0)), none⟩ (.node .leaf 118927625368773498284848789583134776 ⟨9, (some (Fmt.DateSt.mk 3 140 0 0 0)), none⟩ .leaf)) 118943409515300296787384958833565733 ⟨7, (some (Fmt.DateSt.mk 3 141 0 0 0)), none⟩ (.node (.node (.node .leaf 118959195232936088774897080888475694 ⟨8, (some (Fmt.DateSt.mk 3 142 0 0 0)), none⟩ .leaf) 118974982521785124159422322281865253 ⟨7, (some (Fmt.DateSt.mk 3 143 0 0 0)), none⟩ .leaf) 118990771381951660701616731610153006 ⟨8, (some (Fmt.DateSt.mk 3 144 0 0 0)), none⟩ (.node .leaf 119006561813539955718491641556705317 ⟨7, (some (Fmt.DateSt.mk 3 145 0 0 0)), none⟩ .leaf))) 119022353816654273888491059052789806 ⟨8, (some (Fmt.DateSt.mk 3 146 0 0 0)), none⟩ (.node (.node (.node (.node .leaf 119038147391398879445896405139152933 ⟨7, (some (Fmt.DateSt.mk 3 147 0 0 0)), none⟩ .leaf) 119053942537878043986939662261780526 ⟨8, (some (Fmt.DateSt.mk 3 148 0 0 0)), none⟩ .leaf) 119069739256196038663172322638929957 ⟨7, (some (Fmt.DateSt.mk 3 149 0 0 0)), none⟩ (.node .leaf 119085537546457142476642101496627256 ⟨9, (some (Fmt.DateSt.mk 3 150 0 0 0)), none⟩ .leaf)) 119101337408765632032087324794413093 ⟨7, (some (Fmt.DateSt.mk 3 151 0 0 0)), none⟩ (.node (.node .leaf 119117138843225794225399197803675694 ⟨8, (some (Fmt.DateSt.mk 3 152 0 0 0)), none⟩ .leaf) 119132941849941913554641563472633893 ⟨7, (some (Fmt.DateSt.mk 3 153 0 0 0)), none⟩ (.node .leaf 119148746429018282369410433870643246 ⟨8, (some (Fmt.DateSt.mk 3 154 0 0 0)), none⟩ .leaf))))) 119164552580559192573067411669278757 ⟨7, (some (Fmt.DateSt.mk 3 155 0 0 0)), none⟩ (.node (.node (.node (.node (.node (.node .leaf 119180360304668943432996553172090926 ⟨8, (some (Fmt.DateSt.mk 3 156 0 0 0)), none⟩ .leaf) 119196169601451833769829463508688933 ⟨7, (some (Fmt.DateSt.mk 3 157 0 0 0)), none⟩ .leaf) 119211980471012169768738260396687406 ⟨8, (some (Fmt.DateSt.mk 3 158 0 0 0)), none⟩ (.node .leaf 119227792913454257167624534243860517 ⟨7, (some (Fmt.DateSt.mk 3 159 0 0 0)), none⟩ .leaf)) 119243606928882408092745427495813149 ⟨6, (some (Fmt.DateSt.mk 3 160 0 0 0)), none⟩ (.node (.node (.node .leaf 119259422517400938129381660256444453 ⟨7, (some (Fmt.DateSt.mk 3 161 0 0 0)), none⟩ .leaf) 119275239679114164368172363013275694 ⟨8, (some (Fmt.DateSt.mk 3 162 0 0 0)), none⟩ .leaf) 119291058414126407358262099056746533 ⟨7, (some (Fmt.DateSt.mk 3 163 0 0 0)), none⟩ (.node .leaf 119306878722541994038187273425879086 ⟨8, (some (Fmt.DateSt.mk 3 164 0 0 0)), none⟩ .leaf))) 119322700604465250897659329283727397 ⟨7, (some (Fmt.DateSt.mk 3 165 0 0 0)), none⟩ (.node (.node (.node (.node .leaf 119338524060000511793002801802854446 ⟨8, (some (Fmt.DateSt.mk 3 166 0 0 0)), none⟩ .leaf) 119354349089252110131199050705002533 ⟨7, (some (Fmt.DateSt.mk 3 167 0 0 0)), none⟩ .leaf) 119370175692324386686360758476144686 ⟨8, (some (Fmt.DateSt.mk 3 168 0 0 0)), none⟩ (.node .leaf 119386003869321681782739184216842277 ⟨7, (some (Fmt.DateSt.mk 3 169 0 0 0)), none⟩ .leaf)) 119401833620348343600910596061020216 ⟨9, (some (Fmt.DateSt.mk 3 170 0 0 0)), none⟩ (.node (.node .leaf 119417664945508717916369871844171813 ⟨7, (some (Fmt.DateSt.mk 3 171 0 0 0)), none⟩ .leaf) 119433497844907160804832303682715694 ⟨8, (some (Fmt.DateSt.mk 3 172 0 0 0)), none⟩ (.node .leaf 119449332318648025936413476740571173 ⟨7, (some (Fmt.DateSt.mk 3 173 0 0 0)), none⟩ .leaf)))) 119465168366835674838590618523156526 ⟨8, (some (Fmt.DateSt.mk 3 174 0 0 0)), none⟩ (.node (.node (.node (.node (.node .leaf 119481005989574468587424583188275237 ⟨7, (some (Fmt.DateSt.mk 3 175 0 0 0)), none⟩ .leaf) 119496845186968775628180814274232366 ⟨8, (some (Fmt.DateSt.mk 3 176 0 0 0)), none⟩ .leaf) 119512685959122963954189996598173733 ⟨7, (some (Fmt.DateSt.mk 3 177 0 0 0)), none⟩ (.node .leaf 119528528306141408928505806911160366 ⟨8, (some (Fmt.DateSt.mk 3 178 0 0 0)), none⟩ .leaf)) 119544372228128485461728743509811237 ⟨7, (some (Fmt.DateSt.mk 3 179 0 0 0)), none⟩ (.node (.node (.node .leaf 119560217725188576323700156288368696 ⟨9, (some (Fmt.DateSt.mk 3 180 0 0 0)), none⟩ .leaf) 119576064797426061875292071591387173 ⟨7, (some (Fmt.DateSt.mk 3 181 0 0 0)), none⟩ .leaf) 119591913444945332782132952386715694 ⟨8, (some (Fmt.DateSt.mk 3 182 0 0 0)), none⟩ (.node .leaf 119607763667850777300363449639755813 ⟨7, (some (Fmt.DateSt.mk 3 183 0 0 0)), none⟩ .leaf))) 119623615466246791546402042819051566 ⟨8, (some (Fmt.DateSt.mk 3 184 0 0 0)), none⟩ (.node (.node (.node (.node .leaf 119639468840237771182658567580426277 ⟨7, (some (Fmt.DateSt.mk 3 185 0 0 0)), none⟩ .leaf) 119655323789928119243339805324656686 ⟨8, (some (Fmt.DateSt.mk 3 186 0 0 0)), none⟩ .leaf) 119671180315422238308125336467562533 ⟨7, (some (Fmt.DateSt.mk 3 187 0 0 0)), none⟩ (.node .leaf 119687038416824538329010261522022446 ⟨8, (some (Fmt.DateSt.mk 3 188 0 0 0)), none⟩ .leaf)) 119702898094239428802943888483983397 ⟨7, (some (Fmt.DateSt.mk 3 189 0 0 0)), none⟩ (.node (.node .leaf 119718759347771327089033185878917176 ⟨9, (some (Fmt.DateSt.mk 3 190 0 0 0)), none⟩ .leaf) 119734622177524648133526576941162533 ⟨7, (some (Fmt.DateSt.mk 3 191 0 0 0)), none⟩ (.node .leaf 119750486583603817191966447109275694 ⟨8, (some (Fmt.DateSt.mk 3 192 0 0 0)), none⟩ .leaf)))))))) 119766352566113257106517976279228453 ⟨7, (some (Fmt.DateSt.mk 3 193 0 0 0)), none⟩ (.node (.node (.node (.node (.node (.node (.node (.node (.node .leaf 119782220125157398582541325379420206 ⟨8, (some (Fmt.DateSt.mk 3 194 0 0 0)), none⟩ .leaf) 119798089260840671868794882066964517 ⟨7, (some (Fmt.DateSt.mk 3 195 0 0 0)), none⟩ .leaf) 119813959973267514588427195101839406 ⟨8, (some (Fmt.DateSt.mk 3 196 0 0 0)), none⟩ (.node .leaf 119829832262542363907466311001808933 ⟨7, (some (Fmt.DateSt.mk 3 197 0 0 0)), none⟩ .leaf)) 119845706128769664366849183538298926 ⟨8, (some (Fmt.DateSt.mk 3 198 0 0 0)), none⟩ (.node (.node (.node .leaf 119861581572053860049873500909854757 ⟨7, (some (Fmt.DateSt.mk 3 199 0 0 0)), none⟩ .leaf) 119877458592499401435969142949478429 ⟨6, (some (Fmt.DateSt.mk 3 200 0 0 0)), none⟩ .leaf) 119893337190210742463589910745849893 ⟨7, (some (Fmt.DateSt.mk 3 201 0 0 0)), none⟩ (.node .leaf 119909217365292338571363131243675694 ⟨8, (some (Fmt.DateSt.mk 3 202 0 0 0)), none⟩ .leaf))) 119925099117848648656421220593197093 ⟨7, (some (Fmt.DateSt.mk 3 203 0 0 0)), none⟩ (.node (.node (.node (.node .leaf 119940982447984138013066450679398446 ⟨8, (some (Fmt.DateSt.mk 3 204 0 0 0)), none⟩ .leaf) 119956867355803271476405331663953957 ⟨7, (some (Fmt.DateSt.mk 3 205 0 0 0)), none⟩ .leaf) 119972753841410521258528609162772526 ⟨8, (some (Fmt.DateSt.mk 3 206 0 0 0)), none⟩ (.node .leaf 119988641904910359111812366298832933 ⟨7, (some (Fmt.DateSt.mk 3 207 0 0 0)), none⟩ .leaf)) 120004531546407264166135839598837806 ⟨8, (some (Fmt.DateSt.mk 3 208 0 0 0)), none⟩ (.node (.node (.node .leaf 120020422766005715091144667967201317 ⟨7, (some (Fmt.DateSt.mk 3 209 0 0 0)), none⟩ .leaf) 120036315563810198424478667804590136 ⟨9, (some (Fmt.DateSt.mk 3 210 0 0 0)), none⟩ .leaf) 120052209939925198283136801267081253 ⟨7, (some (Fmt.DateSt.mk 3 211 0 0 0)), none⟩ (.node .leaf 120068105894455209102491553592475694 ⟨8, (some (Fmt.DateSt.mk 3 212 0 0 0)), none⟩ .leaf)))) 120084003427504722896755551925149733 ⟨7, (some (Fmt.DateSt.mk 3 213 0 0 0)), none⟩ (.node (.node (.node (.node (.node .leaf 120099902539178239549173608603402286 ⟨8, (some (Fmt.DateSt.mk 3 214 0 0 0)), none⟩ .leaf) 120115803229580258481199926796738597 ⟨7, (some (Fmt.DateSt.mk 3 215 0 0 0)), none⟩ .leaf) 120131705498815286493867878473728046 ⟨8, (some (Fmt.DateSt.mk 3 216 0 0 0)), none⟩ (.node .leaf 120147609346987829925901153865834533 ⟨7, (some (Fmt.DateSt.mk 3 217 0 0 0)), none⟩ .leaf)) 120163514774202402496121701751767086 ⟨8, (some (Fmt.DateSt.mk 3 218 0 0 0)), none⟩ (.node (.node (.node .leaf 120179421780563517460522682245079077 ⟨7, (some (Fmt.DateSt.mk 3 219 0 0 0)), none⟩ .leaf) 120195330366175695946011140990402616 ⟨9, (some (Fmt.DateSt.mk 3 220 0 0 0)), none⟩ .leaf) 120211240531143456654960182175768613 ⟨7, (some (Fmt.DateSt.mk 3 221 0 0 0)), none⟩ (.node .leaf 120227152275571328612658468367515694 ⟨8, (some (Fmt.DateSt.mk 3 222 0 0 0)), none⟩ .leaf))) 120243065599563838419341545027854373 ⟨7, (some (Fmt.DateSt.mk 3 223 0 0 0)), none⟩ (.node (.node (.node (.node .leaf 120258980503225520547197194445127726 ⟨8, (some (Fmt.DateSt.mk 3 224 0 0 0)), none⟩ .leaf) 120274896986660909004026883299942437 ⟨7, (some (Fmt.DateSt.mk 3 225 0 0 0)), none⟩ .leaf) 120290815049974545179807039410257966 ⟨8, (some (Fmt.DateSt.mk 3 226 0 0 0)), none⟩ (.node .leaf 120306734693270969999608530619293733 ⟨7, (some (Fmt.DateSt.mk 3 227 0 0 0)), none⟩ .leaf)) 120322655916654731771196447454494766 ⟨8, (some (Fmt.DateSt.mk 3 228 0 0 0)), none⟩ (.node (.node .leaf 120338578720230378336911041741824037 ⟨7, (some (Fmt.DateSt.mk 3 229 0 0 0)), none⟩ .leaf) 120354503104102465412927125240791096 ⟨9, (some (Fmt.DateSt.mk 3 230 0 0 0)), none⟩ (.node .leaf 120370429068375546286991192552103973 ⟨7, (some (Fmt.DateSt.mk 3 231 0 0 0)), none⟩ .leaf))))) 120386356613154184574308835189915694 ⟨8, (some (Fmt.DateSt.mk 3 232 0 0 0)), none⟩ (.node (.node (.node (.node (.node (.node .leaf 120402285738542941461137980063359013 ⟨7, (some (Fmt.DateSt.mk 3 233 0 0 0)), none⟩ .leaf) 120418216444646386008609808907550766 ⟨8, (some (Fmt.DateSt.mk 3 234 0 0 0)), none⟩ .leaf) 120434148731569086810872622417469477 ⟨7, (some (Fmt.DateSt.mk 3 235 0 0 0)), none⟩ (.node .leaf 120450082599415619846846333757194286 ⟨8, (some (Fmt.DateSt.mk 3 236 0 0 0)), none⟩ .leaf)) 120466018048290560627948558884970533 ⟨7, (some (Fmt.DateSt.mk 3 237 0 0 0)), none⟩ (.node (.node (.node .leaf 120481955078298492050887959573708846 ⟨8, (some (Fmt.DateSt.mk 3 238 0 0 0)), none⟩ .leaf) 120497893689543996544351449865052197 ⟨7, (some (Fmt.DateSt.mk 3 239 0 0 0)), none⟩ .leaf) 120513833882131662940945082953236509 ⟨6, (some (Fmt.DateSt.mk 3 240 0 0 0)), none⟩ (.node .leaf 120529775656166083532299176885559333 ⟨7, (some (Fmt.DateSt.mk 3 241 0 0 0)), none⟩ .leaf))) 120545719011751852105025819090075694 ⟨8, (some (Fmt.DateSt.mk 3 242 0 0 0)), none⟩ (.node (.node (.node (.node .leaf 120561663948993565904241842602991653 ⟨7, (some (Fmt.DateSt.mk 3 243 0 0 0)), none⟩ .leaf) 120577610467995828580022258102927406 ⟨8, (some (Fmt.DateSt.mk 3 244 0 0 0)), none⟩ .leaf) 120593558568863243312861770802503717 ⟨7, (some (Fmt.DateSt.mk 3 245 0 0 0)), none⟩ (.node .leaf 120609508251700420670624208708649006 ⟨8, (some (Fmt.DateSt.mk 3 246 0 0 0)), none⟩ .leaf)) 120625459516611970751073506397904933 ⟨7, (some (Fmt.DateSt.mk 3 247 0 0 0)), none⟩ (.node (.node .leaf 120641412363702511039862326385377326 ⟨8, (some (Fmt.DateSt.mk 3 248 0 0 0)), none⟩ .leaf) 120657366793076658552023815431659557 ⟨7, (some (Fmt.DateSt.mk 3 249 0 0 0)), none⟩ (.node .leaf 120673322804839038182269928138752056 ⟨9, (some (Fmt.DateSt.mk 3 250 0 0 0)), none⟩ .leaf)))) 120689280399094272389091685074886693 ⟨7, (some (Fmt.DateSt.mk 3 251 0 0 0)), none⟩ (.node (.node (.node (.node (.node .leaf 120705239575946993967530790507675694 ⟨8, (some (Fmt.DateSt.mk 3 252 0 0 0)), none⟩ .leaf) 120721200335501833275888323627360293 ⟨7, (some (Fmt.DateSt.mk 3 253 0 0 0)), none⟩ .leaf) 120737162677863428553183553552793646 ⟨8, (some (Fmt.DateSt.mk 3 254 0 0 0)), none⟩ (.node .leaf 120753126603136417566257160517509157 ⟨7, (some (Fmt.DateSt.mk 3 255 0 0 0)), none⟩ .leaf)) 120769092111425445471917316868014126 ⟨8, (some (Fmt.DateSt.mk 3 256 0 0 0)), none⟩ (.node (.node (.node .leaf 120785059202835156954273846302416933 ⟨7, (some (Fmt.DateSt.mk 3 257 0 0 0)), none⟩ .leaf) 120801027877470204087923841574748206 ⟨8, (some (Fmt.DateSt.mk 3 258 0 0 0)), none⟩ .leaf) 120816998135435238474246252667822117 ⟨7, (some (Fmt.DateSt.mk 3 259 0 0 0)), none⟩ (.node .leaf 120832969976834919597222410911252536 ⟨9, (some (Fmt.DateSt.mk 3 260 0 0 0)), none⟩ .leaf))) 120848943401773904500714472428118053 ⟨7, (some (Fmt.DateSt.mk 3 261 0 0 0)), none⟩ (.node (.node (.node (.node .leaf 120864918410356860569683325291675694 ⟨8, (some (Fmt.DateSt.mk 3 262 0 0 0)), none⟩ .leaf) 120880895002688452748450819526352933 ⟨7, (some (Fmt.DateSt.mk 3 263 0 0 0)), none⟩ .leaf) 120896873178873353864980912187965486 ⟨8, (some (Fmt.DateSt.mk 3 264 0 0 0)), none⟩ (.node .leaf 120912852939016236272459829034229797 ⟨7, (some (Fmt.DateSt.mk 3 265 0 0 0)), none⟩ .leaf)) 120928834283221779716640516247961646 ⟨8, (some (Fmt.DateSt.mk 3 266 0 0 0)), none⟩ (.node (.node .leaf 120944817211594663467978257152106533 ⟨7, (some (Fmt.DateSt.mk 3 267 0 0 0)), none⟩ .leaf) 120960801724239574190015004236349486 ⟨8, (some (Fmt.DateSt.mk 3 268 0 0 0)), none⟩ (.node .leaf 120976787821261198070475081208995877 ⟨7, (some (Fmt.DateSt.mk 3 269 0 0 0)), none⟩ .leaf)))))) 120992775502764229182609732998185016 ⟨9, (some (Fmt.DateSt.mk 3 270 0 0 0)), none⟩ (.node (.node (.node (.node (.node (.node (.node .leaf 121008764768853359155651499662565413 ⟨7, (some (Fmt.DateSt.mk 3 271 0 0 0)), none⟩ .leaf) 121024755619633289964481204700315694 ⟨8, (some (Fmt.DateSt.mk 3 272 0 0 0)), none⟩ .leaf) 121040748055208721139440932099137573 ⟨7, (some (Fmt.DateSt.mk 3 273 0 0 0)), none⟩ (.node .leaf 121056742075684360097439756348538926 ⟨8, (some (Fmt.DateSt.mk 3 274 0 0 0)), none⟩ .leaf)) 121072737681164913778009019233689637 ⟨7, (some (Fmt.DateSt.mk 3 275 0 0 0)), none⟩ (.node (.node (.node .leaf 121088734871755096515846870270443566 ⟨8, (some (Fmt.DateSt.mk 3 276 0 0 0)), none⟩ .leaf) 121104733647559622167753622909853733 ⟨7, (some (Fmt.DateSt.mk 3 277 0 0 0)), none⟩ .leaf) 121120734008683211986216518873989166 ⟨8, (some (Fmt.DateSt.mk 3 278 0 0 0)), none⟩ (.node .leaf 121136735955230586745304826099916837 ⟨7, (some (Fmt.DateSt.mk 3 279 0 0 0)), none⟩ .leaf))) 121152739487306473630804207116943389 ⟨6, (some (Fmt.DateSt.mk 3 280 0 0 0)), none⟩ (.node (.node (.node (.node .leaf 121168744605015603287524932904820773 ⟨7, (some (Fmt.DateSt.mk 3 281 0 0 0)), none⟩ .leaf) 121184751308462707850060415401115694 ⟨8, (some (Fmt.DateSt.mk 3 282 0 0 0)), none⟩ .leaf) 121200759597752522911508468554162213 ⟨7, (some (Fmt.DateSt.mk 3 283 0 0 0)), none⟩ (.node .leaf 121216769472989790477723713783889966 ⟨8, (some (Fmt.DateSt.mk 3 284 0 0 0)), none⟩ .leaf)) 121232780934279252074582179406192677 ⟨7, (some (Fmt.DateSt.mk 3 285 0 0 0)), none⟩ (.node (.node .leaf 121248793981725656625727647766691886 ⟨8, (some (Fmt.DateSt.mk 3 286 0 0 0)), none⟩ .leaf) 121264808615433752574305032947818533 ⟨7, (some (Fmt.DateSt.mk 3 287 0 0 0)), none⟩ (.node .leaf 121280824835508295761747295400755246 ⟨8, (some (Fmt.DateSt.mk 3 288 0 0 0)), none⟩ .leaf)))) 121296842642054041548468217794600997 ⟨7, (some (Fmt.DateSt.mk 3 289 0 0 0)), none⟩ (.node (.node (.node (.node (.node .leaf 121312862035175753186260482867281976 ⟨9, (some (Fmt.DateSt.mk 3 290 0 0 0)), none⟩ .leaf) 121328883014978191475095143690756133 ⟨7, (some (Fmt.DateSt.mk 3 291 0 0 0)), none⟩ .leaf) 121344905581566127569695149470875694 ⟨8, (some (Fmt.DateSt.mk 3 292 0 0 0)), none⟩ (.node .leaf 121360929735044330172441441509154853 ⟨7, (some (Fmt.DateSt.mk 3 293 0 0 0)), none⟩ .leaf)) 121376955475517575878134617652674606 ⟨8, (some (Fmt.DateSt.mk 3 294 0 0 0)), none⟩ (.node (.node (.node .leaf 121392982803090640798994963251322917 ⟨7, (some (Fmt.DateSt.mk 3 295 0 0 0)), none⟩ .leaf) 121409011717868308447612322977218606 ⟨8, (some (Fmt.DateSt.mk 3 296 0 0 0)), none⟩ .leaf) 121425042219955361853475782047440933 ⟨7, (some (Fmt.DateSt.mk 3 297 0 0 0)), none⟩ (.node .leaf 121441074309456591446964449139015726 ⟨8, (some (Fmt.DateSt.mk 3 298 0 0 0)), none⟩ .leaf))) 121457107986476787174836192156344357 ⟨7, (some (Fmt.DateSt.mk 3 299 0 0 0)), none⟩ (.node (.node (.node (.node .leaf 121473143251120746878155218048614456 ⟨9, (some (Fmt.DateSt.mk 3 300 0 0 0)), none⟩ .leaf) 121489180103493265942260708965523493 ⟨7, (some (Fmt.DateSt.mk 3 301 0 0 0)), none⟩ .leaf) 121505218543699150111797804395675694 ⟨8, (some (Fmt.DateSt.mk 3 302 0 0 0)), none⟩ (.node .leaf 121521258571843202675166068991123493 ⟨7, (some (Fmt.DateSt.mk 3 303 0 0 0)), none⟩ .leaf)) 121537300188030234816112506522828846 ⟨8, (some (Fmt.DateSt.mk 3 304 0 0 0)), none⟩ (.node (.node .leaf 121553343392365057233201229877944357 ⟨7, (some (Fmt.DateSt.mk 3 305 0 0 0)), none⟩ .leaf) 121569388184952488027968575551815726 ⟨8, (some (Fmt.DateSt.mk 3 306 0 0 0)), none⟩ (.node .leaf 121585434565897344816247370399440933 ⟨7, (some (Fmt.DateSt.mk 3 307 0 0 0)), none⟩ .leaf))))) 121601482535304452617363300820418606 ⟨8, (some (Fmt.DateSt.mk 3 308 0 0 0)), none⟩ (.node (.node (.node (.node (.node (.node .leaf 121617532093278635964417890457722917 ⟨7, (some (Fmt.DateSt.mk 3 309 0 0 0)), none⟩ .leaf) 121633583239924727287747407342714936 ⟨9, (some (Fmt.DateSt.mk 3 310 0 0 0)), none⟩ .leaf) 121649635975347556558058411083554853 ⟨7, (some (Fmt.DateSt.mk 3 311 0 0 0)), none⟩ (.node .leaf 121665690299651964109918983070875694 ⟨8, (some (Fmt.DateSt.mk 3 312 0 0 0)), none⟩ .leaf)) 121681746212942787817746774436356133 ⟨7, (some (Fmt.DateSt.mk 3 313 0 0 0)), none⟩ (.node (.node (.node .leaf 121697803715324873454235624371568686 ⟨8, (some (Fmt.DateSt.mk 3 314 0 0 0)), none⟩ .leaf) 121713862806903066304293043804200997 ⟨7, (some (Fmt.DateSt.mk 3 315 0 0 0)), none⟩ .leaf) 121729923487782219058402290549555246 ⟨8, (some (Fmt.DateSt.mk 3 316 0 0 0)), none⟩ (.node .leaf 121745985758067183918739503603818533 ⟨7, (some (Fmt.DateSt.mk 3 317 0 0 0)), none⟩ .leaf))) 121762049617862820493577376585891886 ⟨8, (some (Fmt.DateSt.mk 3 318 0 0 0)), none⟩ (.node (.node (.node (.node .leaf 121778115067273987902360659380592677 ⟨7, (some (Fmt.DateSt.mk 3 319 0 0 0)), none⟩ .leaf) 121794182106405551684058059826135069 ⟨6, (some (Fmt.DateSt.mk 3 320 0 0 0)), none⟩ .leaf) 121810250735362380836663237808562213 ⟨7, (some (Fmt.DateSt.mk 3 321 0 0 0)), none⟩ (.node .leaf 121826320954249345842747493801115694 ⟨8, (some (Fmt.DateSt.mk 3 322 0 0 0)), none⟩ .leaf)) 121842392763171320643386186690420773 ⟨7, (some (Fmt.DateSt.mk 3 323 0 0 0)), none⟩ (.node (.node .leaf 121858466162233185600220420585390126 ⟨8, (some (Fmt.DateSt.mk 3 324 0 0 0)), none⟩ .leaf) 121874541151539820584500674957516837 ⟨7, (some (Fmt.DateSt.mk 3 325 0 0 0)), none⟩ (.node .leaf 121890617731196112875657558438789166 ⟨8, (some (Fmt.DateSt.mk 3 326 0 0 0)), none⟩ .leaf)))) 121906695901306949262210092669853733 ⟨7, (some (Fmt.DateSt.mk 3 327 0 0 0)), none⟩ (.node (.node (.node (.node (.node .leaf 121922775661977223941378407985643566 ⟨8, (some (Fmt.DateSt.mk 3 328 0 0 0)), none⟩ .leaf) 121938857013311830618950051016089637 ⟨7, (some (Fmt.DateSt.mk 3 329 0 0 0)), none⟩ .leaf) 121954939955415670903807022569635896 ⟨9, (some (Fmt.DateSt.mk 3 330 0 0 0)), none⟩ (.node .leaf 121971024488393643937388382313537573 ⟨7, (some (Fmt.DateSt.mk 3 331 0 0 0)), none⟩ .leaf)) 121987110612350659234110350300315694 ⟨8, (some (Fmt.DateSt.mk 3 332 0 0 0)), none⟩ (.node (.node (.node .leaf 122003198327391623840425140008165413 ⟨7, (some (Fmt.DateSt.mk 3 333 0 0 0)), none⟩ .leaf) 122019287633621452706921549960069166 ⟨8, (some (Fmt.DateSt.mk 3 334 0 0 0)), none⟩ .leaf) 122035378531145060291192598674595877 ⟨7, (some (Fmt.DateSt.mk 3 335 0 0 0)), none⟩ (.node .leaf 122051471020067368461616675097149486 ⟨8, (some (Fmt.DateSt.mk 3 336 0 0 0)), none⟩ .leaf))) 122067565100493298593055254016106533 ⟨7, (some (Fmt.DateSt.mk 3 337 0 0 0)), none⟩ (.node (.node (.node (.node .leaf 122083660772527779471676331979161646 ⟨8, (some (Fmt.DateSt.mk 3 338 0 0 0)), none⟩ .leaf) 122099758036275739389609822864629797 ⟨7, (some (Fmt.DateSt.mk 3 339 0 0 0)), none⟩ .leaf) 122115856891842114545011399175864376 ⟨9, (some (Fmt.DateSt.mk 3 340 0 0 0)), none⟩ (.node .leaf 122131957339331838664685243180752933 ⟨7, (some (Fmt.DateSt.mk 3 341 0 0 0)), none⟩ .leaf)) 122148059378849855852972771691675694 ⟨8, (some (Fmt.DateSt.mk 3 342 0 0 0)), none⟩ (.node (.node .leaf 122164163010501107742342674053718053 ⟨7, (some (Fmt.DateSt.mk 3 343 0 0 0)), none⟩ .leaf) 122180268234390543872331872700661806 ⟨8, (some (Fmt.DateSt.mk 3 344 0 0 0)), none⟩ (.node .leaf 122196375050623113286875495701422117 ⟨7, (some (Fmt.DateSt.mk 3 345 0 0 0)), none⟩ .leaf))))))) 122212483459303772443300141811548206 ⟨8, (some (Fmt.DateSt.mk 3 346 0 0 0)), none⟩ (.node (.node (.node (.node (.node (.node (.node (.node .leaf 122228593460537477302809309470416933 ⟨7, (some (Fmt.DateSt.mk 3 347 0 0 0)), none⟩ .leaf) 122244705054429191240519290935214126 ⟨8, (some (Fmt.DateSt.mk 3 348 0 0 0)), none⟩ .leaf) 122260818241083877134901937835909157 ⟨7, (some (Fmt.DateSt.mk 3 349 0 0 0)), none⟩ (.node .leaf 122276933020606505773387131241676856 ⟨9, (some (Fmt.DateSt.mk 3 350 0 0 0)), none⟩ .leaf)) 122293049393102045468143424401760293 ⟨7, (some (Fmt.DateSt.mk 3 351 0 0 0)), none⟩ (.node (.node (.node .leaf 122309167358675474913438182507675694 ⟨8, (some (Fmt.DateSt.mk 3 352 0 0 0)), none⟩ .leaf) 122325286917431770327756033900486693 ⟨7, (some (Fmt.DateSt.mk 3 353 0 0 0)), none⟩ .leaf) 122341408069475915839582454421504046 ⟨8, (some (Fmt.DateSt.mk 3 354 0 0 0)), none⟩ (.node .leaf 122357530814912895079194252193259557 ⟨7, (some (Fmt.DateSt.mk 3 355 0 0 0)), none⟩ .leaf))) 122373655153847699092866665278177326 ⟨8, (some (Fmt.DateSt.mk 3 356 0 0 0)), none⟩ (.node (.node (.node (.node .leaf 122389781086385318428144786269904933 ⟨7, (some (Fmt.DateSt.mk 3 357 0 0 0)), none⟩ .leaf) 122405908612630751049093632631849006 ⟨8, (some (Fmt.DateSt.mk 3 358 0 0 0)), none⟩ .leaf) 122422037732688994420526564248903717 ⟨7, (some (Fmt.DateSt.mk 3 359 0 0 0)), none⟩ (.node .leaf 122438168446665052434598770242027549 ⟨6, (some (Fmt.DateSt.mk 3 360 0 0 0)), none⟩ .leaf)) 122454300754663932442490735377391653 ⟨7, (some (Fmt.DateSt.mk 3 361 0 0 0)), none⟩ (.node (.node (.node .leaf 122470434656790643274748212690075694 ⟨8, (some (Fmt.DateSt.mk 3 362 0 0 0)), none⟩ .leaf) 122486570153150197220420670031159333 ⟨7, (some (Fmt.DateSt.mk 3 363 0 0 0)), none⟩ .leaf) 122502707243847612996942566146211886 ⟨8, (some (Fmt.DateSt.mk 3 364 0 0 0)), none⟩ (.node .leaf 122518845928987908820931959714652197 ⟨7, (some (Fmt.DateSt.mk 3 365 0 0 0)), none⟩ .leaf)))) 122534986208676110327613157602508846 ⟨8, (some (Fmt.DateSt.mk 3 366 0 0 0)), none⟩ (.node (.node (.node (.node (.node .leaf 122551128083017242650872417060970533 ⟨7, (some (Fmt.DateSt.mk 3 367 0 0 0)), none⟩ .leaf) 122567271552116338343723910256394286 ⟨8, (some (Fmt.DateSt.mk 3 368 0 0 0)), none⟩ .leaf) 122583416616078429457322075831869477 ⟨7, (some (Fmt.DateSt.mk 3 369 0 0 0)), none⟩ (.node .leaf 122599563275008555957646822600949816 ⟨9, (some (Fmt.DateSt.mk 3 370 0 0 0)), none⟩ .leaf)) 122615711529011755327593190917759013 ⟨7, (some (Fmt.DateSt.mk 3 371 0 0 0)), none⟩ (.node (.node (.node .leaf 122631861378193075441282697589915694 ⟨8, (some (Fmt.DateSt.mk 3 372 0 0 0)), none⟩ .leaf) 122648012822657561689230238337703973 ⟨7, (some (Fmt.DateSt.mk 3 373 0 0 0)), none⟩ .leaf) 122664165862510267377819684307681326 ⟨8, (some (Fmt.DateSt.mk 3 374 0 0 0)), none⟩ (.node .leaf 122680320497856245310009915239424037 ⟨7, (some (Fmt.DateSt.mk 3 375 0 0 0)), none⟩ .leaf))) 122696476728800555709974736299294766 ⟨8, (some (Fmt.DateSt.mk 3 376 0 0 0)), none⟩ (.node (.node (.node (.node .leaf 122712634555448258297941139899293733 ⟨7, (some (Fmt.DateSt.mk 3 377 0 0 0)), none⟩ .leaf) 122728793977904420215872882405457966 ⟨8, (some (Fmt.DateSt.mk 3 378 0 0 0)), none⟩ .leaf) 122744954996274108101265051722342437 ⟨7, (some (Fmt.DateSt.mk 3 379 0 0 0)), none⟩ (.node .leaf 122761117610662396509373375842058296 ⟨9, (some (Fmt.DateSt.mk 3 380 0 0 0)), none⟩ .leaf)) 122777281821174357508455011242254373 ⟨7, (some (Fmt.DateSt.mk 3 381 0 0 0)), none⟩ (.node (.node .leaf 122793447627915073562559677967515694 ⟨8, (some (Fmt.DateSt.mk 3 382 0 0 0)), none⟩ .leaf) 122809615030989624648216600121368613 ⟨7, (some (Fmt.DateSt.mk 3 383 0 0 0)), none⟩ (.node .leaf 122825784030503098660759490748088366 ⟨8, (some (Fmt.DateSt.mk 3 384 0 0 0)), none⟩ .leaf))))) 122841954626560582989487621150679077 ⟨7, (some (Fmt.DateSt.mk 3 385 0 0 0)), none⟩ (.node (.node (.node (.node (.node (.node .leaf 122858126819267172447524724292567086 ⟨8, (some (Fmt.DateSt.mk 3 386 0 0 0)), none⟩ .leaf) 122874300608727961341438098249834533 ⟨7, (some (Fmt.DateSt.mk 3 387 0 0 0)), none⟩ .leaf) 122890475995048051402141513084928046 ⟨8, (some (Fmt.DateSt.mk 3 388 0 0 0)), none⟩ (.node .leaf 122906652978332543853470276467138597 ⟨7, (some (Fmt.DateSt.mk 3 389 0 0 0)), none⟩ .leaf)) 122922831558686547839956472438046776 ⟨9, (some (Fmt.DateSt.mk 3 390 0 0 0)), none⟩ (.node (.node (.node .leaf 122939011736215170015218621979549733 ⟨7, (some (Fmt.DateSt.mk 3 391 0 0 0)), none⟩ .leaf) 122955193511023527433235399992475694 ⟨8, (some (Fmt.DateSt.mk 3 392 0 0 0)), none⟩ .leaf) 122971376883216734656549822092681253 ⟨7, (some (Fmt.DateSt.mk 3 393 0 0 0)), none⟩ (.node .leaf 122987561852899914169445872718889006 ⟨8, (some (Fmt.DateSt.mk 3 394 0 0 0)), none⟩ .leaf))) 123003748420178187947562785240801317 ⟨7, (some (Fmt.DateSt.mk 3 395 0 0 0)), none⟩ (.node (.node (.node (.node .leaf 123019936585156685392974649915637806 ⟨8, (some (Fmt.DateSt.mk 3 396 0 0 0)), none⟩ .leaf) 123036126347940535398588640986832933 ⟨7, (some (Fmt.DateSt.mk 3 397 0 0 0)), none⟩ .leaf) 123052317708634874284268971709972526 ⟨8, (some (Fmt.DateSt.mk 3 398 0 0 0)), none⟩ (.node .leaf 123068510667344837860190740022353957 ⟨7, (some (Fmt.DateSt.mk 3 399 0 0 0)), none⟩ .leaf)) 368934883163040905254089547776000067 ⟨10, (some (Fmt.DateSt.mk 4 0 0 0 0)), none⟩ (.node (.node .leaf 368971778034843856225554842436902991 ⟨11, (some (Fmt.DateSt.mk 4 1 0 0 0)), none⟩ .leaf) 369008675673796776325970195606421583 ⟨11, (some (Fmt.DateSt.mk 4 2 0 0 0)), none⟩ (.node .leaf 369045576080038022183186990492966991 ⟨11, (some (Fmt.DateSt.mk 4 3 0 0 0)), none⟩ .leaf)))) 369082479253705952165662394511360067 ⟨10, (some (Fmt.DateSt.mk 4 4 0 0 0)), none⟩ (.node (.node (.node (.node (.node .leaf 369119385194938931537279162689167439 ⟨11, (some (Fmt.DateSt.mk 4 5 0 0 0)), none⟩ .leaf) 369156293903875323865692953186189391 ⟨11, (some (Fmt.DateSt.mk 4 6 0 0 0)), none⟩ .leaf) 369193205380653499613985011774971983 ⟨11, (some (Fmt.DateSt.mk 4 7 0 0 0)), none⟩ (.node .leaf 369230119625411830985498736690659395 ⟨10, (some (Fmt.DateSt.mk 4 8 0 0 0)), none⟩ .leaf)) 369267036638288697079690411628503119 ⟨11, (some (Fmt.DateSt.mk 4 9 0 0 0)), none⟩ (.node (.node (.node .leaf 369303956419422475298758276644945999 ⟨11, (some (Fmt.DateSt.mk 4 10 0 0 0)), none⟩ .leaf) 369340878968951549941013457256538191 ⟨11, (some (Fmt.DateSt.mk 4 11 0 0 0)), none⟩ .leaf) 369377804287014307044685565338878019 ⟨10, (some (Fmt.DateSt.mk 4 12 0 0 0)), none⟩ (.node .leaf 369414732373749139544804464794509391 ⟨11, (some (Fmt.DateSt.mk 4 13 0 0 0)), none⟩ .leaf))) 369451663229294438678110926036910159 ⟨11, (some (Fmt.DateSt.mk 4 14 0 0 0)), none⟩ (.node (.node (.node (.node .leaf 369488596853788602578145971506503759 ⟨11, (some (Fmt.DateSt.mk 4 15 0 0 0)), none⟩ .leaf) 369525533247370031118025409539473475 ⟨10, (some (Fmt.DateSt.mk 4 16 0 0 0)), none⟩ .leaf) 369562472410177131068352735785263183 ⟨11, (some (Fmt.DateSt.mk 4 17 0 0 0)), none⟩ (.node .leaf 369599414342348307500411199474778191 ⟨11, (some (Fmt.DateSt.mk 4 18 0 0 0)), none⟩ .leaf)) 369636359044021972382971737152184399 ⟨11, (some (Fmt.DateSt.mk 4 19 0 0 0)), none⟩ (.node (.node .leaf 369673306515336539424036336434380867 ⟨10, (some (Fmt.DateSt.mk 4 20 0 0 0)), none⟩ .leaf) 369710256756430429229782176257318991 ⟨11, (some (Fmt.DateSt.mk 4 21 0 0 0)), none⟩ (.node .leaf 369747209767442060706034933129723983 ⟨11, (some (Fmt.DateSt.mk 4 22 0 0 0)), none⟩ .leaf)))))) 369784165548509859656795474879373391 ⟨11, (some (Fmt.DateSt.mk 4 23 0 0 0)), none⟩ (.node (.node (.node (.node (.node (.node (.node .leaf 369821124099772253624951951224012867 ⟨10, (some (Fmt.DateSt.mk 4 24 0 0 0)), none⟩ .leaf) 369858085421367677052255275925708879 ⟨11, (some (Fmt.DateSt.mk 4 25 0 0 0)), none⟩ .leaf) 369895049513434562679073501231398991 ⟨11, (some (Fmt.DateSt.mk 4 26 0 0 0)), none⟩ (.node .leaf 369932016376111350144637443432341583 ⟨11, (some (Fmt.DateSt.mk 4 27 0 0 0)), none⟩ .leaf)) 369968986009536480826721397167259715 ⟨10, (some (Fmt.DateSt.mk 4 28 0 0 0)), none⟩ (.node (.node (.node .leaf 370005958413848403002650062563942479 ⟨11, (some (Fmt.DateSt.mk 4 29 0 0 0)), none⟩ .leaf) 370042933589185563247333816067932239 ⟨11, (some (Fmt.DateSt.mk 4 30 0 0 0)), none⟩ .leaf) 370079911535686415035233439613837391 ⟨11, (some (Fmt.DateSt.mk 4 31 0 0 0)), none⟩ (.node .leaf 370116892253489413579009355581489219 ⟨10, (some (Fmt.DateSt.mk 4 32 0 0 0)), none⟩ .leaf))) 370153875742733020991560102004006991 ⟨11, (some (Fmt.DateSt.mk 4 33 0 0 0)), none⟩ (.node (.node (.node (.node .leaf 370190862003555697682338327985930319 ⟨11, (some (Fmt.DateSt.mk 4 34 0 0 0)), none⟩ .leaf) 370227851036095910961034798285086799 ⟨11, (some (Fmt.DateSt.mk 4 35 0 0 0)), none⟩ .leaf) 370264842840492129875196045842546755 ⟨10, (some (Fmt.DateSt.mk 4 36 0 0 0)), none⟩ (.node .leaf 370301837416882830373294498136367183 ⟨11, (some (Fmt.DateSt.mk 4 37 0 0 0)), none⟩ .leaf)) 370338834765406486699325025390477391 ⟨11, (some (Fmt.DateSt.mk 4 38 0 0 0)), none⟩ (.node (.node .leaf 370375834886201579998208392365793359 ⟨11, (some (Fmt.DateSt.mk 4 39 0 0 0)), none⟩ .leaf) 370412837779406593152377225384755267 ⟨10, (some (Fmt.DateSt.mk 4 40 0 0 0)), none⟩ (.node .leaf 370449843445160015945877892909965391 ⟨11, (some (Fmt.DateSt.mk 4 41 0 0 0)), none⟩ .leaf)))) 370486851883600336457247434745135183 ⟨11, (some (Fmt.DateSt.mk 4 42 0 0 0)), none⟩ (.node (.node (.node (.node (.node .leaf 370523863094866049666636632834138191 ⟨11, (some (Fmt.DateSt.mk 4 43 0 0 0)), none⟩ .leaf) 370560877079095652291364189700915267 ⟨10, (some (Fmt.DateSt.mk 4 44 0 0 0)), none⟩ .leaf) 370597893836427647951050466332221519 ⟨11, (some (Fmt.DateSt.mk 4 45 0 0 0)), none⟩ (.node .leaf 370634913367000538558774620571942991 ⟨11, (some (Fmt.DateSt.mk 4 46 0 0 0)), none⟩ .leaf)) 370671935670952832929917468726779983 ⟨11, (some (Fmt.DateSt.mk 4 47 0 0 0)), none⟩ (.node (.node (.node .leaf 370708960748423041616683772342304835 ⟨10, (some (Fmt.DateSt.mk 4 48 0 0 0)), none⟩ .leaf) 370745988599549682074267936469033039 ⟨11, (some (Fmt.DateSt.mk 4 49 0 0 0)), none⟩ .leaf) 370783019224471270050291185451417679 ⟨11, (some (Fmt.DateSt.mk 4 50 0 0 0)), none⟩ (.node .leaf 370820052623326328195364387138854991 ⟨11, (some (Fmt.DateSt.mk 4 51 0 0 0)), none⟩ .leaf))) 370857088796253380896578344918679619 ⟨10, (some (Fmt.DateSt.mk 4 52 0 0 0)), none⟩ (.node (.node (.node (.node .leaf 370894127743390959444701559444774991 ⟨11, (some (Fmt.DateSt.mk 4 53 0 0 0)), none⟩ .leaf) 370931169464877593421897270022553679 ⟨11, (some (Fmt.DateSt.mk 4 54 0 0 0)), none⟩ .leaf) 370968213960851819314006413223977039 ⟨11, (some (Fmt.DateSt.mk 4 55 0 0 0)), none⟩ (.node .leaf 371005261231452175343005817098272835 ⟨10, (some (Fmt.DateSt.mk 4 56 0 0 0)), none⟩ .leaf)) 371042311276817206635238129442299983 ⟨11, (some (Fmt.DateSt.mk 4 57 0 0 0)), none⟩ (.node (.node .leaf 371079364097085456607408552982822991 ⟨11, (some (Fmt.DateSt.mk 4 58 0 0 0)), none⟩ .leaf) 371116419692395475580588110194237519 ⟨11, (some (Fmt.DateSt.mk 4 59 0 0 0)), none⟩ (.node .leaf 371153478062885815611639636607795267 ⟨10, (some (Fmt.DateSt.mk 4 60 0 0 0)), none⟩ .leaf))))) 371190539208695035662479978702938191 ⟨11, (some (Fmt.DateSt.mk 4 61 0 0 0)), none⟩ (.node (.node (.node (.node (.node (.node .leaf 371227603129961692984356251088175183 ⟨11, (some (Fmt.DateSt.mk 4 62 0 0 0)), none⟩ .leaf) 371264669826824351733569579320205391 ⟨11, (some (Fmt.DateSt.mk 4 63 0 0 0)), none⟩ .leaf) 371301739299421577801868789232435267 ⟨10, (some (Fmt.DateSt.mk 4 64 0 0 0)), none⟩ (.node .leaf 371338811547891943986744977526497359 ⟨11, (some (Fmt.DateSt.mk 4 65 0 0 0)), none⟩ .leaf)) 371375886572374021373987119153037391 ⟨11, (some (Fmt.DateSt.mk 4 66 0 0 0)), none⟩ (.node (.node (.node .leaf 371412964373006387955126459930927183 ⟨11, (some (Fmt.DateSt.mk 4 67 0 0 0)), none⟩ .leaf) 371450044949927623456797798815858755 ⟨10, (some (Fmt.DateSt.mk 4 68 0 0 0)), none⟩ .leaf) 371487128303276314512066534271262799 ⟨11, (some (Fmt.DateSt.mk 4 69 0 0 0)), none⟩ (.node .leaf 371524214433191046041263450050314319 ⟨11, (some (Fmt.DateSt.mk 4 70 0 0 0)), none⟩ .leaf))) 371561303339810409871149929413926991 ⟨11, (some (Fmt.DateSt.mk 4 71 0 0 0)), none⟩ (.node (.node (.node (.node .leaf 371598395023272999563246727260209219 ⟨10, (some (Fmt.DateSt.mk 4 72 0 0 0)), none⟩ .leaf) 371635489483717415586193595353997391 ⟨11, (some (Fmt.DateSt.mk 4 73 0 0 0)), none⟩ .leaf) 371672586721282256694863074711388239 ⟨11, (some (Fmt.DateSt.mk 4 74 0 0 0)), none⟩ (.node .leaf 371709686736106128551246703215206479 ⟨11, (some (Fmt.DateSt.mk 4 75 0 0 0)), none⟩ .leaf)) 371746789528327638551751174526107715 ⟨10, (some (Fmt.DateSt.mk 4 76 0 0 0)), none⟩ (.node (.node .leaf 371783895098085401000590645249941583 ⟨11, (some (Fmt.DateSt.mk 4 77 0 0 0)), none⟩ .leaf) 371821003445518028487179362126118991 ⟨11, (some (Fmt.DateSt.mk 4 78 0 0 0)), none⟩ (.node .leaf 371858114570764140508739034839244879 ⟨11, (some (Fmt.DateSt.mk 4 79 0 0 0)), none⟩ .leaf)))) 371895228473962358296562278632652867 ⟨10, (some (Fmt.DateSt.mk 4 80 0 0 0)), none⟩ (.node (.node (.node (.node (.node .leaf 371932345155251309990437706492813391 ⟨11, (some (Fmt.DateSt.mk 4 81 0 0 0)), none⟩ .leaf) 371969464614769622014321219342843983 ⟨11, (some (Fmt.DateSt.mk 4 82 0 0 0)), none⟩ .leaf) 372006586852655927700664715848998991 ⟨11, (some (Fmt.DateSt.mk 4 83 0 0 0)), none⟩ (.node .leaf 372043711869048862115646715657420867 ⟨10, (some (Fmt.DateSt.mk 4 84 0 0 0)), none⟩ .leaf)) 372080839664087067234630339674808399 ⟨11, (some (Fmt.DateSt.mk 4 85 0 0 0)), none⟩ (.node (.node (.node .leaf 372117970237909183316113091468378191 ⟨11, (some (Fmt.DateSt.mk 4 86 0 0 0)), none⟩ .leaf) 372155103590653857527777075865903183 ⟨11, (some (Fmt.DateSt.mk 4 87 0 0 0)), none⟩ .leaf) 372192239722459738770686699736465475 ⟨10, (some (Fmt.DateSt.mk 4 88 0 0 0)), none⟩ (.node .leaf 372229378633465482855779643446599759 ⟨11, (some (Fmt.DateSt.mk 4 89 0 0 0)), none⟩ .leaf))) 372266520323809743876094961668014159 ⟨11, (some (Fmt.DateSt.mk 4 90 0 0 0)), none⟩ (.node (.node (.node (.node .leaf 372303664793631182834544982569869391 ⟨11, (some (Fmt.DateSt.mk 4 91 0 0 0)), none⟩ .leaf) 372340812043068462467079983064318019 ⟨10, (some (Fmt.DateSt.mk 4 92 0 0 0)), none⟩ .leaf) 372377962072260252420212254517338191 ⟨11, (some (Fmt.DateSt.mk 4 93 0 0 0)), none⟩ (.node .leaf 372415114881345220621522351165521999 ⟨11, (some (Fmt.DateSt.mk 4 94 0 0 0)), none⟩ .leaf)) 372452270470462041909152841699287119 ⟨11, (some (Fmt.DateSt.mk 4 95 0 0 0)), none⟩ (.node (.node .leaf 372489428839749392853939855893987395 ⟨10, (some (Fmt.DateSt.mk 4 96 0 0 0)), none⟩ .leaf) 372526589989345956937970347654651983 ⟨11, (some (Fmt.DateSt.mk 4 97 0 0 0)), none⟩ (.node .leaf 372563753919390415923366319243149391 ⟨11, (some (Fmt.DateSt.mk 4 98 0 0 0)), none⟩ .leaf))))))))) 372600920630021458483500597051023439 ⟨11, (some (Fmt.DateSt.mk 4 99 0 0 0)), none⟩ (.node (.node (.node (.node (.node (.node (.node (.node (.node (.node .leaf 372638090121377775887388943713075279 ⟨11, (some (Fmt.DateSt.mk 4 100 0 0 0)), none⟩ .leaf) 372675262393598062862811635684646991 ⟨11, (some (Fmt.DateSt.mk 4 101 0 0 0)), none⟩ .leaf) 372712437446821017596313463241621583 ⟨11, (some (Fmt.DateSt.mk 4 102 0 0 0)), none⟩ (.node .leaf 372749615281185341733203730480422991 ⟨11, (some (Fmt.DateSt.mk 4 103 0 0 0)), none⟩ .leaf)) 372786795896829739514090221363200067 ⟨10, (some (Fmt.DateSt.mk 4 104 0 0 0)), none⟩ (.node (.node (.node .leaf 372823979293892922092209369491906639 ⟨11, (some (Fmt.DateSt.mk 4 105 0 0 0)), none⟩ .leaf) 372861165472513598898765918560141391 ⟨11, (some (Fmt.DateSt.mk 4 106 0 0 0)), none⟩ .leaf) 372898354432830486277593261901307983 ⟨11, (some (Fmt.DateSt.mk 4 107 0 0 0)), none⟩ (.node .leaf 372935546174982302304184984801148995 ⟨10, (some (Fmt.DateSt.mk 4 108 0 0 0)), none⟩ .leaf))) 372972740699107771967352338019491919 ⟨11, (some (Fmt.DateSt.mk 4 109 0 0 0)), none⟩ (.node (.node (.node (.node .leaf 373009938005345618532841358656389199 ⟨11, (some (Fmt.DateSt.mk 4 110 0 0 0)), none⟩ .leaf) 373047138093834572179715749285978191 ⟨11, (some (Fmt.DateSt.mk 4 111 0 0 0)), none⟩ .leaf) 373084340964713364818354879337726019 ⟨10, (some (Fmt.DateSt.mk 4 112 0 0 0)), none⟩ (.node .leaf 373121546618120735273144868268941391 ⟨11, (some (Fmt.DateSt.mk 4 113 0 0 0)), none⟩ .leaf)) 373158755054195420644372995046522959 ⟨11, (some (Fmt.DateSt.mk 4 114 0 0 0)), none⟩ (.node (.node (.node .leaf 373195966273076164946333288665210959 ⟨11, (some (Fmt.DateSt.mk 4 115 0 0 0)), none⟩ .leaf) 373233180274901713924290885518327875 ⟨10, (some (Fmt.DateSt.mk 4 116 0 0 0)), none⟩ .leaf) 373270397059810820238206825300271183 ⟨11, (some (Fmt.DateSt.mk 4 117 0 0 0)), none⟩ (.node .leaf 373307616627942234822909577305178191 ⟨11, (some (Fmt.DateSt.mk 4 118 0 0 0)), none⟩ .leaf)))) 373344838979434715527923514128261199 ⟨11, (some (Fmt.DateSt.mk 4 119 0 0 0)), none⟩ (.node (.node (.node (.node (.node .leaf 373382064114427021933399521946828867 ⟨10, (some (Fmt.DateSt.mk 4 120 0 0 0)), none⟩ .leaf) 373419292033057920534873612231974991 ⟨11, (some (Fmt.DateSt.mk 4 121 0 0 0)), none⟩ .leaf) 373456522735466176101715393065467983 ⟨11, (some (Fmt.DateSt.mk 4 122 0 0 0)), none⟩ (.node .leaf 373493756221790560318679597822861391 ⟨11, (some (Fmt.DateSt.mk 4 123 0 0 0)), none⟩ .leaf)) 373530992492169846600802845285580867 ⟨10, (some (Fmt.DateSt.mk 4 124 0 0 0)), none⟩ (.node (.node (.node .leaf 373568231546742815279196170241024079 ⟨11, (some (Fmt.DateSt.mk 4 125 0 0 0)), none⟩ .leaf) 373605473385648244957770268018982991 ⟨11, (some (Fmt.DateSt.mk 4 126 0 0 0)), none⟩ .leaf) 373642718009024921156510249955221583 ⟨11, (some (Fmt.DateSt.mk 4 127 0 0 0)), none⟩ (.node .leaf 373679965417011631125338450255413315 ⟨10, (some (Fmt.DateSt.mk 4 128 0 0 0)), none⟩ .leaf))) 373717215609747169030940978562867279 ⟨11, (some (Fmt.DateSt.mk 4 129 0 0 0)), none⟩ (.node (.node (.node (.node .leaf 373754468587370327311769565915791439 ⟨11, (some (Fmt.DateSt.mk 4 130 0 0 0)), none⟩ .leaf) 373791724350019905323039718790029391 ⟨11, (some (Fmt.DateSt.mk 4 131 0 0 0)), none⟩ .leaf) 373828982897834704149559469635633219 ⟨10, (some (Fmt.DateSt.mk 4 132 0 0 0)), none⟩ (.node .leaf 373866244230953531793590054491430991 ⟨11, (some (Fmt.DateSt.mk 4 133 0 0 0)), none⟩ .leaf)) 373903508349515194528124188564439119 ⟨11, (some (Fmt.DateSt.mk 4 134 0 0 0)), none⟩ (.node (.node .leaf 373940775253658505543607790650449999 ⟨11, (some (Fmt.DateSt.mk 4 135 0 0 0)), none⟩ .leaf) 373978044943522279759734574264025155 ⟨10, (some (Fmt.DateSt.mk 4 136 0 0 0)), none⟩ (.node .leaf 374015317419245339014340953379119183 ⟨11, (some (Fmt.DateSt.mk 4 137 0 0 0)), none⟩ .leaf))))) 374052592680966503414960575831949391 ⟨11, (some (Fmt.DateSt.mk 4 138 0 0 0)), none⟩ (.node (.node (.node (.node (.node (.node .leaf 374089870728824599987269789918126159 ⟨11, (some (Fmt.DateSt.mk 4 139 0 0 0)), none⟩ .leaf) 374127151562958457485847973036851267 ⟨10, (some (Fmt.DateSt.mk 4 140 0 0 0)), none⟩ .leaf) 374164435183506911584106768636813391 ⟨11, (some (Fmt.DateSt.mk 4 141 0 0 0)), none⟩ (.node .leaf 374201721590608796224120705643823183 ⟨11, (some (Fmt.DateSt.mk 4 142 0 0 0)), none⟩ .leaf)) 374239010784402952266796579033178191 ⟨11, (some (Fmt.DateSt.mk 4 143 0 0 0)), none⟩ (.node (.node (.node .leaf 374276302765028222301599412908851267 ⟨10, (some (Fmt.DateSt.mk 4 144 0 0 0)), none⟩ .leaf) 374313597532623455837516131733872719 ⟨11, (some (Fmt.DateSt.mk 4 145 0 0 0)), none⟩ .leaf) 374350895087327500651162093984038991 ⟨11, (some (Fmt.DateSt.mk 4 146 0 0 0)), none⟩ (.node .leaf 374388195429279211438674558494203983 ⟨11, (some (Fmt.DateSt.mk 4 147 0 0 0)), none⟩ .leaf))) 374425498558617444624404178893242435 ⟨10, (some (Fmt.DateSt.mk 4 148 0 0 0)), none⟩ (.node (.node (.node (.node .leaf 374462804475481063552913212198133839 ⟨11, (some (Fmt.DateSt.mk 4 149 0 0 0)), none⟩ .leaf) 374500113180008929835357794895052879 ⟨11, (some (Fmt.DateSt.mk 4 150 0 0 0)), none⟩ .leaf) 374537424672339912003105666858278991 ⟨11, (some (Fmt.DateSt.mk 4 151 0 0 0)), none⟩ (.node .leaf 374574738952612880315393094061719619 ⟨10, (some (Fmt.DateSt.mk 4 152 0 0 0)), none⟩ .leaf)) 374612056020966711952357717615910991 ⟨11, (some (Fmt.DateSt.mk 4 153 0 0 0)), none⟩ (.node (.node .leaf 374649375877540282359696400477798479 ⟨11, (some (Fmt.DateSt.mk 4 154 0 0 0)), none⟩ .leaf) 374686698522472473904007380740956239 ⟨11, (some (Fmt.DateSt.mk 4 155 0 0 0)), none⟩ (.node .leaf 374724023955902170679412519544455235 ⟨10, (some (Fmt.DateSt.mk 4 156 0 0 0)), none⟩ .leaf)))) 374761352177968263701624893631995983 ⟨11, (some (Fmt.DateSt.mk 4 157 0 0 0)), none⟩ (.node (.node (.node (.node (.node .leaf 374798683188809642250882040891686991 ⟨11, (some (Fmt.DateSt.mk 4 158 0 0 0)), none⟩ .leaf) 374836016988565202529012714816266319 ⟨11, (some (Fmt.DateSt.mk 4 159 0 0 0)), none⟩ .leaf) 374873353577373842465024354530099267 ⟨10, (some (Fmt.DateSt.mk 4 160 0 0 0)), none⟩ (.node .leaf 374910692955374466910205523949658191 ⟨11, (some (Fmt.DateSt.mk 4 161 0 0 0)), none⟩ .leaf)) 374948035122705978979334384354607183 ⟨11, (some (Fmt.DateSt.mk 4 162 0 0 0)), none⟩ (.node (.node (.node .leaf 374985380079507288709470221816717391 ⟨11, (some (Fmt.DateSt.mk 4 163 0 0 0)), none⟩ .leaf) 375022727825917307864506036265779267 ⟨10, (some (Fmt.DateSt.mk 4 164 0 0 0)), none⟩ .leaf) 375060078362074955131305930330644559 ⟨11, (some (Fmt.DateSt.mk 4 165 0 0 0)), none⟩ (.node .leaf 375097431688119147459188637142925391 ⟨11, (some (Fmt.DateSt.mk 4 166 0 0 0)), none⟩ .leaf))) 375134787804188808720443992533295183 ⟨11, (some (Fmt.DateSt.mk 4 167 0 0 0)), none⟩ (.node (.node (.node (.node .leaf 375172146710422864513850540057100355 ⟨10, (some (Fmt.DateSt.mk 4 168 0 0 0)), none⟩ .leaf) 375209508406960247361847972595179599 ⟨11, (some (Fmt.DateSt.mk 4 169 0 0 0)), none⟩ .leaf) 375246872893939888048295543591485519 ⟨11, (some (Fmt.DateSt.mk 4 170 0 0 0)), none⟩ (.node .leaf 375284240171500724280713655815462991 ⟨11, (some (Fmt.DateSt.mk 4 171 0 0 0)), none⟩ .leaf)) 375321610239781695492766379268145219 ⟨10, (some (Fmt.DateSt.mk 4 172 0 0 0)), none⟩ (.node (.node .leaf 375358983098921748042469048621965391 ⟨11, (some (Fmt.DateSt.mk 4 173 0 0 0)), none⟩ .leaf) 375396358749059826548221386093609039 ⟨11, (some (Fmt.DateSt.mk 4 174 0 0 0)), none⟩ (.node .leaf 375433737190334882552774378571161679 ⟨11, (some (Fmt.DateSt.mk 4 175 0 0 0)), none⟩ .leaf)))))) 375471118422885869324677605321474115 ⟨10, (some (Fmt.DateSt.mk 4 176 0 0 0)), none⟩ (.node (.node (.node (.node (.node (.node (.node .leaf 375508502446851747057522094348181583 ⟨11, (some (Fmt.DateSt.mk 4 177 0 0 0)), none⟩ .leaf) 375545889262371474204247985101094991 ⟨11, (some (Fmt.DateSt.mk 4 178 0 0 0)), none⟩ .leaf) 375583278869584016142836865766809679 ⟨11, (some (Fmt.DateSt.mk 4 179 0 0 0)), none⟩ (.node .leaf 375620671268628339976723807698124867 ⟨10, (some (Fmt.DateSt.mk 4 180 0 0 0)), none⟩ .leaf)) 375658066459643419735075583769485391 ⟨11, (some (Fmt.DateSt.mk 4 181 0 0 0)), none⟩ (.node (.node (.node .leaf 375695464442768227705372699124219983 ⟨11, (some (Fmt.DateSt.mk 4 182 0 0 0)), none⟩ .leaf) 375732865218141743100827360427302991 ⟨11, (some (Fmt.DateSt.mk 4 183 0 0 0)), none⟩ .leaf) 375770268785902946859760113937612867 ⟨10, (some (Fmt.DateSt.mk 4 184 0 0 0)), none⟩ (.node .leaf 375807675146190826846913528940011599 ⟨11, (some (Fmt.DateSt.mk 4 185 0 0 0)), none⟩ .leaf))) 375845084299144369184308424731738191 ⟨11, (some (Fmt.DateSt.mk 4 186 0 0 0)), none⟩ (.node (.node (.node (.node .leaf 375882496244902566920387643636015183 ⟨11, (some (Fmt.DateSt.mk 4 187 0 0 0)), none⟩ .leaf) 375919910983604414828357189637931075 ⟨10, (some (Fmt.DateSt.mk 4 188 0 0 0)), none⟩ .leaf) 375957328515388914608535479972372559 ⟨11, (some (Fmt.DateSt.mk 4 189 0 0 0)), none⟩ (.node .leaf 375994748840395066217483596550881359 ⟨11, (some (Fmt.DateSt.mk 4 190 0 0 0)), none⟩ .leaf)) 376032171958761876538875034534797391 ⟨11, (some (Fmt.DateSt.mk 4 191 0 0 0)), none⟩ (.node (.node .leaf 376069597870628354180801238455550019 ⟨10, (some (Fmt.DateSt.mk 4 192 0 0 0)), none⟩ .leaf) 376107026576133514679156525037658191 ⟨11, (some (Fmt.DateSt.mk 4 193 0 0 0)), none⟩ (.node .leaf 376144458075416371825042187267358799 ⟨11, (some (Fmt.DateSt.mk 4 194 0 0 0)), none⟩ .leaf)))) 376181892368615946337362390323978319 ⟨11, (some (Fmt.DateSt.mk 4 195 0 0 0)), none⟩ (.node (.node (.node (.node (.node .leaf 376219329455871260659094002105417795 ⟨10, (some (Fmt.DateSt.mk 4 196 0 0 0)), none⟩ .leaf) 376256769337321344161707290365435983 ⟨11, (some (Fmt.DateSt.mk 4 197 0 0 0)), none⟩ .leaf) 376294212013105224470843707625357391 ⟨11, (some (Fmt.DateSt.mk 4 198 0 0 0)), none⟩ (.node .leaf 376331657483361936140638106262364239 ⟨11, (some (Fmt.DateSt.mk 4 199 0 0 0)), none⟩ .leaf)) 376369105748230516316557630965350479 ⟨11, (some (Fmt.DateSt.mk 4 200 0 0 0)), none⟩ (.node (.node (.node .leaf 376406556807850005602833940243750991 ⟨11, (some (Fmt.DateSt.mk 4 201 0 0 0)), none⟩ .leaf) 376444010662359448062463206427541583 ⟨11, (some (Fmt.DateSt.mk 4 202 0 0 0)), none⟩ .leaf) 376481467311897891217206115667238991 ⟨11, (some (Fmt.DateSt.mk 4 203 0 0 0)), none⟩ (.node .leaf 376518926756604385179810331054080067 ⟨10, (some (Fmt.DateSt.mk 4 204 0 0 0)), none⟩ .leaf))) 376556388996617986992898177019125839 ⟨11, (some (Fmt.DateSt.mk 4 205 0 0 0)), none⟩ (.node (.node (.node (.node .leaf 376593854032077751951191270535053391 ⟨11, (some (Fmt.DateSt.mk 4 206 0 0 0)), none⟩ .leaf) 376631321863122742279285889914363983 ⟨11, (some (Fmt.DateSt.mk 4 207 0 0 0)), none⟩ .leaf) 376668792489892021924815070075158595 ⟨10, (some (Fmt.DateSt.mk 4 208 0 0 0)), none⟩ (.node .leaf 376706265912524661765977241096560719 ⟨11, (some (Fmt.DateSt.mk 4 209 0 0 0)), none⟩ .leaf)) 376743742131159730932034024867512399 ⟨11, (some (Fmt.DateSt.mk 4 210 0 0 0)), none⟩ (.node (.node .leaf 376781221145936305482812438437978191 ⟨11, (some (Fmt.DateSt.mk 4 211 0 0 0)), none⟩ .leaf) 376818702956993463200830871373054019 ⟨10, (some (Fmt.DateSt.mk 4 212 0 0 0)), none⟩ (.node .leaf 376856187564470288799863910939533391 ⟨11, (some (Fmt.DateSt.mk 4 213 0 0 0)), none⟩ .leaf))))) 376893674968505865243713132403015759 ⟨11, (some (Fmt.DateSt.mk 4 214 0 0 0)), none⟩ (.node (.node (.node (.node (.node (.node .leaf 376931165169239282427436308730798159 ⟨11, (some (Fmt.DateSt.mk 4 215 0 0 0)), none⟩ .leaf) 376968658166809631968437166955102275 ⟨10, (some (Fmt.DateSt.mk 4 216 0 0 0)), none⟩ .leaf) 377006153961356012416066503069999183 ⟨11, (some (Fmt.DateSt.mk 4 217 0 0 0)), none⟩ (.node .leaf 377043652553017520568665794178138191 ⟨11, (some (Fmt.DateSt.mk 4 218 0 0 0)), none⟩ .leaf)) 377081153941933260156523586344017999 ⟨11, (some (Fmt.DateSt.mk 4 219 0 0 0)), none⟩ (.node (.node (.node .leaf 377118658128242336631928926887116867 ⟨10, (some (Fmt.DateSt.mk 4 220 0 0 0)), none⟩ .leaf) 377156165112083862379808872068390991 ⟨11, (some (Fmt.DateSt.mk 4 221 0 0 0)), none⟩ .leaf) 377193674893596948033044749287931983 ⟨11, (some (Fmt.DateSt.mk 4 222 0 0 0)), none⟩ (.node .leaf 377231187472920711157155894887309391 ⟨11, (some (Fmt.DateSt.mk 4 223 0 0 0)), none⟩ .leaf))) 377268702850194271039316659293388867 ⟨10, (some (Fmt.DateSt.mk 4 224 0 0 0)), none⟩ (.node (.node (.node (.node .leaf 377306221025556753900030410573619279 ⟨11, (some (Fmt.DateSt.mk 4 225 0 0 0)), none⟩ .leaf) 377343741999147284206718274885926991 ⟨11, (some (Fmt.DateSt.mk 4 226 0 0 0)), none⟩ .leaf) 377381265771104993360130396028821583 ⟨11, (some (Fmt.DateSt.mk 4 227 0 0 0)), none⟩ (.node .leaf 377418792341569014482326410356686915 ⟨10, (some (Fmt.DateSt.mk 4 228 0 0 0)), none⟩ .leaf)) 377456321710678487629386049283072079 ⟨11, (some (Fmt.DateSt.mk 4 229 0 0 0)), none⟩ (.node (.node .leaf 377493853878572551103270186184130639 ⟨11, (some (Fmt.DateSt.mk 4 230 0 0 0)), none⟩ .leaf) 377531388845390350139959789495181391 ⟨11, (some (Fmt.DateSt.mk 4 231 0 0 0)), none⟩ (.node .leaf 377568926611271031696399764318257219 ⟨10, (some (Fmt.DateSt.mk 4 232 0 0 0)), none⟩ .leaf)))) 377606467176353749664246256952614991 ⟨11, (some (Fmt.DateSt.mk 4 233 0 0 0)), none⟩ (.node (.node (.node (.node (.node .leaf 377644010540777656179999836453027919 ⟨11, (some (Fmt.DateSt.mk 4 234 0 0 0)), none⟩ .leaf) 377681556704681910314872313071493199 ⟨11, (some (Fmt.DateSt.mk 4 235 0 0 0)), none⟩ .leaf) 377719105668205672860693843477823555 ⟨10, (some (Fmt.DateSt.mk 4 236 0 0 0)), none⟩ (.node .leaf 377756657431488111544697040396591183 ⟨11, (some (Fmt.DateSt.mk 4 237 0 0 0)), none⟩ .leaf)) 377794211994668392337922117021581391 ⟨11, (some (Fmt.DateSt.mk 4 238 0 0 0)), none⟩ (.node (.node (.node .leaf 377831769357885688146811742601338959 ⟨11, (some (Fmt.DateSt.mk 4 239 0 0 0)), none⟩ .leaf) 377869329521279173598081308193587267 ⟨10, (some (Fmt.DateSt.mk 4 240 0 0 0)), none⟩ .leaf) 377906892484988030254539944487821391 ⟨11, (some (Fmt.DateSt.mk 4 241 0 0 0)), none⟩ (.node .leaf 377944458249151437921767457277231183 ⟨11, (some (Fmt.DateSt.mk 4 242 0 0 0)), none⟩ .leaf))) 377982026813908583341437391986778191 ⟨11, (some (Fmt.DateSt.mk 4 243 0 0 0)), none⟩ (.node (.node (.node (.node .leaf 378019598179398654975150356882227267 ⟨10, (some (Fmt.DateSt.mk 4 244 0 0 0)), none⟩ .leaf) 378057172345760848221292052157603919 ⟨11, (some (Fmt.DateSt.mk 4 245 0 0 0)), none⟩ .leaf) 378094749313134356719981824665894991 ⟨11, (some (Fmt.DateSt.mk 4 246 0 0 0)), none⟩ (.node .leaf 378132329081658381048124113188347983 ⟨11, (some (Fmt.DateSt.mk 4 247 0 0 0)), none⟩ .leaf)) 378169911651472123502204726018900035 ⟨10, (some (Fmt.DateSt.mk 4 248 0 0 0)), none⟩ (.node (.node .leaf 378207497022714793316185984395714639 ⟨11, (some (Fmt.DateSt.mk 4 249 0 0 0)), none⟩ .leaf) 378245085195525597964726724691968079 ⟨11, (some (Fmt.DateSt.mk 4 250 0 0 0)), none⟩ (.node .leaf 378282676170043751859962296225062991 ⟨11, (some (Fmt.DateSt.mk 4 251 0 0 0)), none⟩ .leaf))))))) 378320269946408471133263690137239619 ⟨10, (some (Fmt.DateSt.mk 4 252 0 0 0)), none⟩ (.node (.node (.node (.node (.node (.node (.node (.node .leaf 378357866524758978854169900250406991 ⟨11, (some (Fmt.DateSt.mk 4 253 0 0 0)), none⟩ .leaf) 378395465905234496331879200918323279 ⟨11, (some (Fmt.DateSt.mk 4 254 0 0 0)), none⟩ .leaf) 378433068087974251813757869174415439 ⟨11, (some (Fmt.DateSt.mk 4 255 0 0 0)), none⟩ (.node .leaf 378470673073117475266062061829357635 ⟨10, (some (Fmt.DateSt.mk 4 256 0 0 0)), none⟩ .leaf)) 378508280860803403593907496828411983 ⟨11, (some (Fmt.DateSt.mk 4 257 0 0 0)), none⟩ (.node (.node (.node .leaf 378545891451171271941031834966310991 ⟨11, (some (Fmt.DateSt.mk 4 258 0 0 0)), none⟩ .leaf) 378583504844360322390032298172375119 ⟨11, (some (Fmt.DateSt.mk 4 259 0 0 0)), none⟩ .leaf) 378621121040509798742050191745843267 ⟨10, (some (Fmt.DateSt.mk 4 260 0 0 0)), none⟩ (.node .leaf 378658740039758951737778009294938191 ⟨11, (some (Fmt.DateSt.mk 4 261 0 0 0)), none⟩ .leaf))) 378696361842247030355492746515759183 ⟨11, (some (Fmt.DateSt.mk 4 262 0 0 0)), none⟩ (.node (.node (.node (.node .leaf 378733986448113290513022587413389391 ⟨11, (some (Fmt.DateSt.mk 4 263 0 0 0)), none⟩ .leaf) 378771613857496989846393968595763267 ⟨10, (some (Fmt.DateSt.mk 4 264 0 0 0)), none⟩ .leaf) 378809244070537392931876210873671759 ⟨11, (some (Fmt.DateSt.mk 4 265 0 0 0)), none⟩ (.node .leaf 378846877087373762582285593304973391 ⟨11, (some (Fmt.DateSt.mk 4 266 0 0 0)), none⟩ .leaf)) 378884512908145368550681279150383183 ⟨11, (some (Fmt.DateSt.mk 4 267 0 0 0)), none⟩ (.node (.node (.node .leaf 378922151532991482307974819146661955 ⟨10, (some (Fmt.DateSt.mk 4 268 0 0 0)), none⟩ .leaf) 378959792962051382266012412846776399 ⟨11, (some (Fmt.DateSt.mk 4 269 0 0 0)), none⟩ .leaf) 378997437195464345072149571130736719 ⟨11, (some (Fmt.DateSt.mk 4 270 0 0 0)), none⟩ (.node .leaf 379035084233369654314676453694758991 ⟨11, (some (Fmt.DateSt.mk 4 271 0 0 0)), none⟩ .leaf)))) 379072734075906595299389708224561219 ⟨10, (some (Fmt.DateSt.mk 4 272 0 0 0)), none⟩ (.node (.node (.node (.node (.node .leaf 379110386723214460273712464554893391 ⟨11, (some (Fmt.DateSt.mk 4 273 0 0 0)), none⟩ .leaf) 379148042175432539719539413848309839 ⟨11, (some (Fmt.DateSt.mk 4 274 0 0 0)), none⟩ .leaf) 379185700432700131060391729416396879 ⟨11, (some (Fmt.DateSt.mk 4 275 0 0 0)), none⟩ (.node .leaf 379223361495156533436951138713960515 ⟨10, (some (Fmt.DateSt.mk 4 276 0 0 0)), none⟩ .leaf)) 379261025362941052932217753397141583 ⟨11, (some (Fmt.DateSt.mk 4 277 0 0 0)), none⟩ (.node (.node (.node .leaf 379298692036192993862625393371430991 ⟨11, (some (Fmt.DateSt.mk 4 278 0 0 0)), none⟩ .leaf) 379336361515051667486926262743654479 ⟨11, (some (Fmt.DateSt.mk 4 279 0 0 0)), none⟩ .leaf) 379374033799656386780687151557836867 ⟨10, (some (Fmt.DateSt.mk 4 280 0 0 0)), none⟩ (.node .leaf 379411708890146471662485204831117391 ⟨11, (some (Fmt.DateSt.mk 4 281 0 0 0)), none⟩ .leaf))) 379449386786661240283293319672315983 ⟨11, (some (Fmt.DateSt.mk 4 282 0 0 0)), none⟩ (.node (.node (.node (.node .leaf 379487067489340017737094748163366991 ⟨11, (some (Fmt.DateSt.mk 4 283 0 0 0)), none⟩ .leaf) 379524750998322130834341325757644867 ⟨10, (some (Fmt.DateSt.mk 4 284 0 0 0)), none⟩ .leaf) 379562437313746913329187282372894799 ⟨11, (some (Fmt.DateSt.mk 4 285 0 0 0)), none⟩ (.node .leaf 379600126435753697207144540781658191 ⟨11, (some (Fmt.DateSt.mk 4 286 0 0 0)), none⟩ .leaf)) 379637818364481821397427418220847183 ⟨11, (some (Fmt.DateSt.mk 4 287 0 0 0)), none⟩ (.node (.node .leaf 379675513100070626545372778373316675 ⟨10, (some (Fmt.DateSt.mk 4 288 0 0 0)), none⟩ .leaf) 379713210642659460240711987597025359 ⟨11, (some (Fmt.DateSt.mk 4 289 0 0 0)), none⟩ (.node .leaf 379750910992387668303495942788628559 ⟨11, (some (Fmt.DateSt.mk 4 290 0 0 0)), none⟩ .leaf))))) 379788614149394603498170043519885391 ⟨11, (some (Fmt.DateSt.mk 4 291 0 0 0)), none⟩ (.node (.node (.node (.node (.node (.node .leaf 379826320113819620304956164523262019 ⟨10, (some (Fmt.DateSt.mk 4 292 0 0 0)), none⟩ .leaf) 379864028885802080149162860136538191 ⟨11, (some (Fmt.DateSt.mk 4 293 0 0 0)), none⟩ .leaf) 379901740465481342685379949840875599 ⟨11, (some (Fmt.DateSt.mk 4 294 0 0 0)), none⟩ (.node .leaf 379939454852996774513283932722749519 ⟨11, (some (Fmt.DateSt.mk 4 295 0 0 0)), none⟩ .leaf)) 379977172048487743947981677384368195 ⟨10, (some (Fmt.DateSt.mk 4 296 0 0 0)), none⟩ (.node (.node (.node .leaf 380014892052093626250358977682939983 ⟨11, (some (Fmt.DateSt.mk 4 297 0 0 0)), none⟩ .leaf) 380052614863953794909544524144525391 ⟨11, (some (Fmt.DateSt.mk 4 298 0 0 0)), none⟩ .leaf) 380090340484207630360445932550185039 ⟨11, (some (Fmt.DateSt.mk 4 299 0 0 0)), none⟩ (.node .leaf 380128068912994515624981729642905679 ⟨11, (some (Fmt.DateSt.mk 4 300 0 0 0)), none⟩ .leaf))) 380165800150453837183834955986214991 ⟨11, (some (Fmt.DateSt.mk 4 301 0 0 0)), none⟩ (.node (.node (.node (.node .leaf 380203534196724984976453165964181583 ⟨11, (some (Fmt.DateSt.mk 4 302 0 0 0)), none⟩ .leaf) 380241271051947352401048427781414991 ⟨11, (some (Fmt.DateSt.mk 4 303 0 0 0)), none⟩ .leaf) 380279010716260335442497546240000067 ⟨10, (some (Fmt.DateSt.mk 4 304 0 0 0)), none⟩ (.node .leaf 380316753189803337032840948854825039 ⟨11, (some (Fmt.DateSt.mk 4 305 0 0 0)), none⟩ .leaf)) 380354498472715758330284913622925391 ⟨11, (some (Fmt.DateSt.mk 4 306 0 0 0)), none⟩ (.node (.node .leaf 380392246565137007440199341254139983 ⟨11, (some (Fmt.DateSt.mk 4 307 0 0 0)), none⟩ .leaf) 380429997467206494182345978880688195 ⟨10, (some (Fmt.DateSt.mk 4 308 0 0 0)), none⟩ (.node .leaf 380467751179063635324342648155709519 ⟨11, (some (Fmt.DateSt.mk 4 309 0 0 0)), none⟩ .leaf)))) 380505507700847845858934343502315599 ⟨11, (some (Fmt.DateSt.mk 4 310 0 0 0)), none⟩ (.node (.node (.node (.node (.node .leaf 380543267032698547726722133864538191 ⟨11, (some (Fmt.DateSt.mk 4 311 0 0 0)), none⟩ .leaf) 380581029174755164582352691524862019 ⟨10, (some (Fmt.DateSt.mk 4 312 0 0 0)), none⟩ .leaf) 380618794127157127029021283814285391 ⟨11, (some (Fmt.DateSt.mk 4 313 0 0 0)), none⟩ (.node .leaf 380656561890043863894011570042388559 ⟨11, (some (Fmt.DateSt.mk 4 314 0 0 0)), none⟩ .leaf)) 380694332463554810953155804567265359 ⟨11, (some (Fmt.DateSt.mk 4 315 0 0 0)), none⟩ (.node (.node (.node .leaf 380732105847829405695985567641796675 ⟨10, (some (Fmt.DateSt.mk 4 316 0 0 0)), none⟩ .leaf) 380769882043007092561273623814447183 ⟨11, (some (Fmt.DateSt.mk 4 317 0 0 0)), none⟩ .leaf) 380807661049227314210842245741658191 ⟨11, (some (Fmt.DateSt.mk 4 318 0 0 0)), none⟩ (.node .leaf 380845442866629520255754890375454799 ⟨11, (some (Fmt.DateSt.mk 4 319 0 0 0)), none⟩ .leaf))) 380883227495353162020428028759244867 ⟨10, (some (Fmt.DateSt.mk 4 320 0 0 0)), none⟩ (.node (.node (.node (.node .leaf 380921014935537697779211974198566991 ⟨11, (some (Fmt.DateSt.mk 4 321 0 0 0)), none⟩ .leaf) 380958805187322584028467561157115983 ⟨11, (some (Fmt.DateSt.mk 4 322 0 0 0)), none⟩ .leaf) 380996598250847284214489466360717391 ⟨11, (some (Fmt.DateSt.mk 4 323 0 0 0)), none⟩ (.node .leaf 381034394126251263496579034463436867 ⟨10, (some (Fmt.DateSt.mk 4 324 0 0 0)), none⟩ .leaf)) 381072192813673993984664179067494479 ⟨11, (some (Fmt.DateSt.mk 4 325 0 0 0)), none⟩ (.node (.node .leaf 381109994313254946009644244904230991 ⟨11, (some (Fmt.DateSt.mk 4 326 0 0 0)), none⟩ .leaf) 381147798625133596853045145653141583 ⟨11, (some (Fmt.DateSt.mk 4 327 0 0 0)), none⟩ (.node .leaf 381185605749449425509053082399080515 ⟨10, (some (Fmt.DateSt.mk 4 328 0 0 0)), none⟩ .leaf)))))) 381223415686341917923173620580556879 ⟨11, (some (Fmt.DateSt.mk 4 329 0 0 0)), none⟩ (.node (.node (.node (.node (.node (.node (.node .leaf 381261228435950558260844563656949839 ⟨11, (some (Fmt.DateSt.mk 4 330 0 0 0)), none⟩ .leaf) 381299043998414837638823079441293391 ⟨11, (some (Fmt.DateSt.mk 4 331 0 0 0)), none⟩ .leaf) 381336862373874248886180208269361219 ⟨10, (some (Fmt.DateSt.mk 4 332 0 0 0)), none⟩ (.node .leaf 381374683562468291783999218955558991 ⟨11, (some (Fmt.DateSt.mk 4 333 0 0 0)), none⟩ .leaf)) 381412507564336464332256322147696719 ⟨11, (some (Fmt.DateSt.mk 4 334 0 0 0)), none⟩ (.node (.node (.node .leaf 381450334379618271482939956972216399 ⟨11, (some (Fmt.DateSt.mk 4 335 0 0 0)), none⟩ .leaf) 381488164008453219900005985835941955 ⟨10, (some (Fmt.DateSt.mk 4 336 0 0 0)), none⟩ .leaf) 381525996450980823200115432468783183 ⟨11, (some (Fmt.DateSt.mk 4 337 0 0 0)), none⟩ (.node .leaf 381563831707340593217782863167373391 ⟨11, (some (Fmt.DateSt.mk 4 338 0 0 0)), none⟩ .leaf))) 381601669777672048740228005551431759 ⟨11, (some (Fmt.DateSt.mk 4 339 0 0 0)), none⟩ (.node (.node (.node (.node .leaf 381639510662114710266291526918963267 ⟨10, (some (Fmt.DateSt.mk 4 340 0 0 0)), none⟩ .leaf) 381677354360808105248212257454989391 ⟨11, (some (Fmt.DateSt.mk 4 341 0 0 0)), none⟩ .leaf) 381715200873891759355043067565359183 ⟨11, (some (Fmt.DateSt.mk 4 342 0 0 0)), none⟩ (.node .leaf 381753050201505205209234990542938191 ⟨11, (some (Fmt.DateSt.mk 4 343 0 0 0)), none⟩ .leaf)) 381790902343787977144513481397043267 ⟨10, (some (Fmt.DateSt.mk 4 344 0 0 0)), none⟩ (.node (.node .leaf 381828757300879616448695228307415119 ⟨11, (some (Fmt.DateSt.mk 4 345 0 0 0)), none⟩ .leaf) 381866615072919662625371354249510991 ⟨11, (some (Fmt.DateSt.mk 4 346 0 0 0)), none⟩ (.node .leaf 381904475660047662132224215369211983 ⟨11, (some (Fmt.DateSt.mk 4 347 0 0 0)), none⟩ .leaf)))) 381942339062403163137864037207277635 ⟨10, (some (Fmt.DateSt.mk 4 348 0 0 0)), none⟩ (.node (.node (.node (.node (.node .leaf 381980205280125720765685417477775439 ⟨11, (some (Fmt.DateSt.mk 4 349 0 0 0)), none⟩ .leaf) 382018074313354888353817680186163279 ⟨11, (some (Fmt.DateSt.mk 4 350 0 0 0)), none⟩ .leaf) 382055946162230226195174521511206991 ⟨11, (some (Fmt.DateSt.mk 4 351 0 0 0)), none⟩ (.node .leaf 382093820826891296293250920345239619 ⟨10, (some (Fmt.DateSt.mk 4 352 0 0 0)), none⟩ .leaf)) 382131698307477667607019435476262991 ⟨11, (some (Fmt.DateSt.mk 4 353 0 0 0)), none⟩ (.node (.node (.node .leaf 382169578604128907309147540400128079 ⟨11, (some (Fmt.DateSt.mk 4 354 0 0 0)), none⟩ .leaf) 382207461716984589527780288508354639 ⟨11, (some (Fmt.DateSt.mk 4 355 0 0 0)), none⟩ .leaf) 382245347646184290101297394864980035 ⟨10, (some (Fmt.DateSt.mk 4 356 0 0 0)), none⟩ (.node .leaf 382283236391867591824249430871547983 ⟨11, (some (Fmt.DateSt.mk 4 357 0 0 0)), none⟩ .leaf))) 382321127954174075703841967974694991 ⟨11, (some (Fmt.DateSt.mk 4 358 0 0 0)), none⟩ (.node (.node (.node (.node .leaf 382359022333243329703451433958563919 ⟨11, (some (Fmt.DateSt.mk 4 359 0 0 0)), none⟩ .leaf) 382396919529214943496342262879027267 ⟨10, (some (Fmt.DateSt.mk 4 360 0 0 0)), none⟩ .leaf) 382434819542228513712643090290778191 ⟨11, (some (Fmt.DateSt.mk 4 361 0 0 0)), none⟩ (.node .leaf 382472722372423635194097534051631183 ⟨11, (some (Fmt.DateSt.mk 4 362 0 0 0)), none⟩ .leaf)) 382510628019939909739313413518221391 ⟨11, (some (Fmt.DateSt.mk 4 363 0 0 0)), none⟩ (.node (.node .leaf 382548536484916940856439864558387267 ⟨10, (some (Fmt.DateSt.mk 4 364 0 0 0)), none⟩ .leaf) 382586447767494339011183638419578959 ⟨11, (some (Fmt.DateSt.mk 4 365 0 0 0)), none⟩ (.node .leaf 382624361867811712879826347831181391 ⟨11, (some (Fmt.DateSt.mk 4 366 0 0 0)), none⟩ .leaf))))) 382662278786008678096207220902191183 ⟨11, (some (Fmt.DateSt.mk 4 367 0 0 0)), none⟩ (.node (.node (.node (.node (.node (.node .leaf 382700198522224852003360078132543555 ⟨10, (some (Fmt.DateSt.mk 4 368 0 0 0)), none⟩ .leaf) 382738121076599858902569838002053199 ⟨11, (some (Fmt.DateSt.mk 4 369 0 0 0)), none⟩ .leaf) 382776046449273321304656056572067919 ⟨11, (some (Fmt.DateSt.mk 4 370 0 0 0)), none⟩ (.node .leaf 382813974640384868678689387883814991 ⟨11, (some (Fmt.DateSt.mk 4 371 0 0 0)), none⟩ .leaf)) 382851905650074132202588319889457219 ⟨10, (some (Fmt.DateSt.mk 4 372 0 0 0)), none⟩ (.node (.node (.node .leaf 382889839478480750013215989840781391 ⟨11, (some (Fmt.DateSt.mk 4 373 0 0 0)), none⟩ .leaf) 382927776125744358455929845591490639 ⟨11, (some (Fmt.DateSt.mk 4 374 0 0 0)), none⟩ .leaf) 382965715592004600835031984294912079 ⟨11, (some (Fmt.DateSt.mk 4 375 0 0 0)), none⟩ (.node .leaf 383003657877401122163325544175566915 ⟨10, (some (Fmt.DateSt.mk 4 376 0 0 0)), none⟩ .leaf))) 383041602982073574413251932796821583 ⟨11, (some (Fmt.DateSt.mk 4 377 0 0 0)), none⟩ (.node (.node (.node (.node .leaf 383079550906161607764706438265126991 ⟨11, (some (Fmt.DateSt.mk 4 378 0 0 0)), none⟩ .leaf) 383117501649804879357222618025779279 ⟨11, (some (Fmt.DateSt.mk 4 379 0 0 0)), none⟩ .leaf) 383155455213143048038488243395788867 ⟨10, (some (Fmt.DateSt.mk 4 380 0 0 0)), none⟩ (.node .leaf 383193411596315779616523043789709391 ⟨11, (some (Fmt.DateSt.mk 4 381 0 0 0)), none⟩ .leaf)) 383231370799462738105760096027131983 ⟨11, (some (Fmt.DateSt.mk 4 382 0 0 0)), none⟩ (.node (.node .leaf 383269332822723594480964435025190991 ⟨11, (some (Fmt.DateSt.mk 4 383 0 0 0)), none⟩ .leaf) 383307297666238021424708448013516867 ⟨10, (some (Fmt.DateSt.mk 4 384 0 0 0)), none⟩ (.node .leaf 383345265330145698580590237797457999 ⟨11, (some (Fmt.DateSt.mk 4 385 0 0 0)), none⟩ .leaf)))) 383383235814586303797580618370138191 ⟨11, (some (Fmt.DateSt.mk 4 386 0 0 0)), none⟩ (.node (.node (.node (.node (.node .leaf 383421209119699521885676119300399183 ⟨11, (some (Fmt.DateSt.mk 4 387 0 0 0)), none⟩ .leaf) 383459185245625039362333726550622275 ⟨10, (some (Fmt.DateSt.mk 4 388 0 0 0)), none⟩ .leaf) 383497164192502549706729967856558159 ⟨11, (some (Fmt.DateSt.mk 4 389 0 0 0)), none⟩ (.node .leaf 383535145960471744602373342845255759 ⟨11, (some (Fmt.DateSt.mk 4 390 0 0 0)), none⟩ .leaf)) 383573130549672322694491892917133391 ⟨11, (some (Fmt.DateSt.mk 4 391 0 0 0)), none⟩ (.node (.node (.node .leaf 383611117960243984335427185587454019 ⟨10, (some (Fmt.DateSt.mk 4 392 0 0 0)), none⟩ .leaf) 383649108192326436839934225061978191 ⟨11, (some (Fmt.DateSt.mk 4 393 0 0 0)), none⟩ .leaf) 383687101246059385726059145062072399 ⟨11, (some (Fmt.DateSt.mk 4 394 0 0 0)), none⟩ (.node .leaf 383725097121582543474261515999600719 ⟨11, (some (Fmt.DateSt.mk 4 395 0 0 0)), none⟩ .leaf))) 383763095819035624271767469762838595 ⟨10, (some (Fmt.DateSt.mk 4 396 0 0 0)), none⟩ (.node (.node (.node (.node .leaf 383801097338558349268910538567163983 ⟨11, (some (Fmt.DateSt.mk 4 397 0 0 0)), none⟩ .leaf) 383839101680290437818274438688653391 ⟨11, (some (Fmt.DateSt.mk 4 398 0 0 0)), none⟩ .leaf) 383877108844371616235550286730485839 ⟨11, (some (Fmt.DateSt.mk 4 399 0 0 0)), none⟩ (.node .leaf 900719928772634107151646758092800106 ⟨13, (some (Fmt.DateSt.mk 5 0 0 0 0)), none⟩ .leaf)) 900791988528626594117205110929023068 ⟨12, (some (Fmt.DateSt.mk 5 1 0 0 0)), none⟩ (.node (.node .leaf 1867732843162960419615041180958720154 ⟨16, (some (Fmt.DateSt.mk 6 0 0 0 0)), none⟩ .leaf) 1867740625395294053444549494759019145 ⟨15, (some (Fmt.DateSt.mk 6 0 1 0 0)), none⟩ (.node .leaf 1867748407651947150838822174430352388 ⟨1, (some (Fmt.DateSt.mk 6 0 2 0 0)), none⟩ .leaf)))))))) 1867756189932919814647456071834435076 ⟨1, (some (Fmt.DateSt.mk 6 0 3 0 0)), none⟩ (.node (.node (.node (.node (.node (.node (.node (.node (.node .leaf 1867763972238212068477728597376542724 ⟨1, (some (Fmt.DateSt.mk 6 0 4 0 0)), none⟩ .leaf) 1867771754567823962995320315582927364 ⟨1, (some (Fmt.DateSt.mk 6 0 5 0 0)), none⟩ .leaf) 1867779536921755548865964567537974276 ⟨1, (some (Fmt.DateSt.mk 6 0 6 0 0)), none⟩ (.node .leaf 1867787319300006876755447470884201988 ⟨1, (some (Fmt.DateSt.mk 6 0 7 0 0)), none⟩ .leaf)) 1867795101702577997329607919822262276 ⟨1, (some (Fmt.DateSt.mk 6 0 8 0 0)), none⟩ (.node (.node (.node .leaf 1867802884129468961254337585110940164 ⟨1, (some (Fmt.DateSt.mk 6 0 9 0 0)), none⟩ .leaf) 1867857361798665603615762966436143225 ⟨14, (some (Fmt.DateSt.mk 6 1 0 0 0)), none⟩ .leaf) 1867865144420117140256335780432179849 ⟨15, (some (Fmt.DateSt.mk 6 1 1 0 0)), none⟩ (.node .leaf 1867872927065888947250769379962319876 ⟨1, (some (Fmt.DateSt.mk 6 1 2 0 0)), none⟩ .leaf))) 1867880709735981131316843943279664644 ⟨1, (some (Fmt.DateSt.mk 6 1 3 0 0)), none⟩ (.node (.node (.node (.node .leaf 1867888492430393716061779354131056644 ⟨1, (some (Fmt.DateSt.mk 6 1 4 0 0)), none⟩ .leaf) 1867896275149126752152100601972879876 ⟨1, (some (Fmt.DateSt.mk 6 1 5 0 0)), none⟩ .leaf) 1867904057892180290254385452819651588 ⟨1, (some (Fmt.DateSt.mk 6 1 6 0 0)), none⟩ (.node .leaf 1867911840659554381035264449244022276 ⟨1, (some (Fmt.DateSt.mk 6 1 7 0 0)), none⟩ .leaf)) 1867919623451249075161420910376775684 ⟨1, (some (Fmt.DateSt.mk 6 1 8 0 0)), none⟩ (.node (.node (.node .leaf 1867927406267264423299590931906828804 ⟨1, (some (Fmt.DateSt.mk 6 1 9 0 0)), none⟩ .leaf) 3460218032646431751165427745894099628 ⟨17, (some (Fmt.DateSt.mk 7 0 1 0 0)), none⟩ .leaf) 3460230390573485762848078931018652904 ⟨20, (some (Fmt.DateSt.mk 7 0 2 0 0)), none⟩ (.node .leaf 3460242748533641334270735574185852588 ⟨17, (some (Fmt.DateSt.mk 7 0 3 0 0)), none⟩ .leaf)))) 3460255106526898553480739097605703891 ⟨19, (some (Fmt.DateSt.mk 7 0 4 0 0)), none⟩ (.node (.node (.node (.node (.node .leaf 3460267464553257455911871188117394092 ⟨17, (some (Fmt.DateSt.mk 7 0 5 0 0)), none⟩ .leaf) 3460279822612718121719623380739820755 ⟨19, (some (Fmt.DateSt.mk 7 0 6 0 0)), none⟩ .leaf) 3460292180705280588968484620688713388 ⟨17, (some (Fmt.DateSt.mk 7 0 7 0 0)), none⟩ (.node .leaf 3460304538830944932552717051718619308 ⟨17, (some (Fmt.DateSt.mk 7 0 8 0 0)), none⟩ .leaf)) 3460316896989711211582489831819645651 ⟨19, (some (Fmt.DateSt.mk 7 0 9 0 0)), none⟩ (.node (.node (.node .leaf 3460329255181579469383738203659248812 ⟨17, (some (Fmt.DateSt.mk 7 0 10 0 0)), none⟩ .leaf) 3460341613406549786112405491040720595 ⟨19, (some (Fmt.DateSt.mk 7 0 11 0 0)), none⟩ .leaf) 3460353971664622199833056615808956588 ⟨17, (some (Fmt.DateSt.mk 7 0 12 0 0)), none⟩ (.node .leaf 3460415763451517976330579963250838188 ⟨17, (some (Fmt.DateSt.mk 7 1 1 0 0)), none⟩ .leaf))) 3460428121908204284351824770806533311 ⟨18, (some (Fmt.DateSt.mk 7 1 2 0 0)), none⟩ (.node (.node (.node (.node .leaf 3460440480397993108399998796747988652 ⟨17, (some (Fmt.DateSt.mk 7 1 3 0 0)), none⟩ .leaf) 3460452838920884520739602496537897171 ⟨19, (some (Fmt.DateSt.mk 7 1 4 0 0)), none⟩ .leaf) 3460465197476878562066089577928536748 ⟨17, (some (Fmt.DateSt.mk 7 1 5 0 0)), none⟩ (.node .leaf 3460477556065975312536397303001656531 ⟨19, (some (Fmt.DateSt.mk 7 1 6 0 0)), none⟩ .leaf)) 3460489914688174810215257739233527468 ⟨17, (some (Fmt.DateSt.mk 7 1 7 0 0)), none⟩ (.node (.node .leaf 3460502273343477129998228432512348332 ⟨17, (some (Fmt.DateSt.mk 7 1 8 0 0)), none⟩ .leaf) 3460514632031882330996322966161011411 ⟨19, (some (Fmt.DateSt.mk 7 1 9 0 0)), none⟩ (.node .leaf 3460526990753390456535870029365626028 ⟨17, (some (Fmt.DateSt.mk 7 1 10 0 0)), none⟩ .leaf))))) 3460539349508001586774258675676690131 ⟨19, (some (Fmt.DateSt.mk 7 1 11 0 0)), none⟩ (.node (.node (.node (.node (.node (.node .leaf 3460551708295715759776296946515286188 ⟨17, (some (Fmt.DateSt.mk 7 1 12 0 0)), none⟩ .leaf) 5902976563863578152689567249436580606 ⟨21, (some (Fmt.DateSt.mk 8 0 1 0 0)), none⟩ .leaf) 5902995010672535452005533863839432006 ⟨24, (some (Fmt.DateSt.mk 8 0 2 0 0)), none⟩ (.node .leaf 5903013457524727422285926643834507006 ⟨21, (some (Fmt.DateSt.mk 8 0 3 0 0)), none⟩ .leaf)) 5903031904420154168880723814662850861 ⟨23, (some (Fmt.DateSt.mk 8 0 4 0 0)), none⟩ (.node (.node (.node .leaf 5903050351358815728420178915400450814 ⟨21, (some (Fmt.DateSt.mk 8 0 5 0 0)), none⟩ .leaf) 5903068798340712195946507889509084461 ⟨23, (some (Fmt.DateSt.mk 8 0 6 0 0)), none⟩ .leaf) 5903087245365843611525968507691841278 ⟨21, (some (Fmt.DateSt.mk 8 0 7 0 0)), none⟩ (.node .leaf 5903105692434210063328934585163108606 ⟨21, (some (Fmt.DateSt.mk 8 0 8 0 0)), none⟩ .leaf))) 5903124139545811618909828607764513581 ⟨23, (some (Fmt.DateSt.mk 8 0 9 0 0)), none⟩ (.node (.node (.node (.node .leaf 5903142586700648325206960669747512574 ⟨21, (some (Fmt.DateSt.mk 8 0 10 0 0)), none⟩ .leaf) 5903161033898720277263025346903877421 ⟨23, (some (Fmt.DateSt.mk 8 0 11 0 0)), none⟩ .leaf) 5903179481140027515144329543020263678 ⟨21, (some (Fmt.DateSt.mk 8 0 12 0 0)), none⟩ (.node .leaf 5903271717995095596864641549649754878 ⟨21, (some (Fmt.DateSt.mk 8 1 1 0 0)), none⟩ .leaf)) 5903290165495816061118784805924023573 ⟨22, (some (Fmt.DateSt.mk 8 1 2 0 0)), none⟩ (.node (.node .leaf 5903308613039772290953476177087229694 ⟨21, (some (Fmt.DateSt.mk 8 1 3 0 0)), none⟩ .leaf) 5903327060626964371104060344711506221 ⟨23, (some (Fmt.DateSt.mk 8 1 4 0 0)), none⟩ (.node .leaf 5903345508257392345073003128195851006 ⟨21, (some (Fmt.DateSt.mk 8 1 5 0 0)), none⟩ .leaf)))) 5903363955931056307904052097410813229 ⟨23, (some (Fmt.DateSt.mk 8 1 6 0 0)), none⟩ (.node (.node (.node (.node (.node .leaf 5903382403647956299663622245974103806 ⟨21, (some (Fmt.DateSt.mk 8 1 7 0 0)), none⟩ .leaf) 5903400851408092408523447215743201534 ⟨21, (some (Fmt.DateSt.mk 8 1 8 0 0)), none⟩ .leaf) 5903419299211464702038793917892518701 ⟨23, (some (Fmt.DateSt.mk 8 1 9 0 0)), none⟩ (.node .leaf 5903437747058073227148301468682724606 ⟨21, (some (Fmt.DateSt.mk 8 1 10 0 0)), none⟩ .leaf)) 5903456194947918078896196072998717229 ⟨23, (some (Fmt.DateSt.mk 8 1 11 0 0)), none⟩ (.node (.node (.node .leaf 5903474642880999297348941854857419006 ⟨21, (some (Fmt.DateSt.mk 8 1 12 0 0)), none⟩ .leaf) 9455423773914385613223531568820341600 ⟨25, (some (Fmt.DateSt.mk 9 0 1 0 0)), none⟩ .leaf) 9455424594697155638100364061709490219 ⟨26, (some (Fmt.DateSt.mk 9 0 1 1 0)), none⟩ (.node .leaf 9455425415479979094970236739618489563 ⟨26, (some (Fmt.DateSt.mk 9 0 1 2 0)), none⟩ .leaf))) 9455426236262855992532790315653001927 ⟨27, (some (Fmt.DateSt.mk 9 0 1 3 0)), none⟩ (.node (.node (.node (.node .leaf 9455427057045786209027831420955070276 ⟨1, (some (Fmt.DateSt.mk 9 0 1 4 0)), none⟩ .leaf) 9455427877828769974936716933962608276 ⟨1, (some (Fmt.DateSt.mk 9 0 1 5 0)), none⟩ .leaf) 9455428698611807177196580199823944164 ⟨1, (some (Fmt.DateSt.mk 9 0 1 6 0)), none⟩ (.node .leaf 9455429519394897815809740502767534388 ⟨1, (some (Fmt.DateSt.mk 9 0 1 7 0)), none⟩ .leaf)) 9455430340178041890778517127072167044 ⟨1, (some (Fmt.DateSt.mk 9 0 1 8 0)), none⟩ (.node (.node .leaf 9455431160961239402105229357066961876 ⟨1, (some (Fmt.DateSt.mk 9 0 1 9 0)), none⟩ .leaf) 9455450038989530707112187836327826784 ⟨25, (some (Fmt.DateSt.mk 9 0 2 0 0)), none⟩ (.node .leaf 9455450859774010696073811222310923819 ⟨26, (some (Fmt.DateSt.mk 9 0 2 1 0)), none⟩ .leaf)))))) 9455451680558544134497353262204419665 ⟨30, (some (Fmt.DateSt.mk 9 0 2 2 0)), none⟩ (.node (.node (.node (.node (.node (.node (.node .leaf 9455452501343130865833121591801804276 ⟨1, (some (Fmt.DateSt.mk 9 0 2 3 0)), none⟩ .leaf) 9455453322127771159700784835750082884 ⟨1, (some (Fmt.DateSt.mk 9 0 2 4 0)), none⟩ .leaf) 9455454142912464889991323667038525588 ⟨1, (some (Fmt.DateSt.mk 9 0 2 5 0)), none⟩ (.node .leaf 9455454963697212056707057371455869924 ⟨1, (some (Fmt.DateSt.mk 9 0 2 6 0)), none⟩ .leaf)) 9455455784482012659850305234841185076 ⟨1, (some (Fmt.DateSt.mk 9 0 2 7 0)), none⟩ (.node (.node (.node .leaf 9455456605266866699423386543083871876 ⟨1, (some (Fmt.DateSt.mk 9 0 2 8 0)), none⟩ .leaf) 9455457426051774175428620582123662804 ⟨1, (some (Fmt.DateSt.mk 9 0 2 9 0)), none⟩ .leaf) 9455476304119394688525655858742681440 ⟨25, (some (Fmt.DateSt.mk 9 0 3 0 0)), none⟩ (.node .leaf 9455477124905584643947018579332727851 ⟨26, (some (Fmt.DateSt.mk 9 0 3 1 0)), none⟩ .leaf))) 9455477945691828031509843684535234779 ⟨26, (some (Fmt.DateSt.mk 9 0 3 2 0)), none⟩ (.node (.node (.node (.node .leaf 9455478766478124859913796049902483143 ⟨27, (some (Fmt.DateSt.mk 9 0 3 3 0)), none⟩ .leaf) 9455479587264475007398344080624673604 ⟨1, (some (Fmt.DateSt.mk 9 0 3 4 0)), none⟩ .leaf) 9455480408050878704445484877861257876 ⟨1, (some (Fmt.DateSt.mk 9 0 3 5 0)), none⟩ (.node .leaf 9455481228837335837992037720041455076 ⟨1, (some (Fmt.DateSt.mk 9 0 3 6 0)), none⟩ .leaf)) 9455482049623846408040321894614947124 ⟨1, (some (Fmt.DateSt.mk 9 0 3 7 0)), none⟩ (.node (.node .leaf 9455482870410410414592656689081747588 ⟨1, (some (Fmt.DateSt.mk 9 0 3 8 0)), none⟩ .leaf) 9455483691197027857651361390992201684 ⟨1, (some (Fmt.DateSt.mk 9 0 3 9 0)), none⟩ (.node .leaf 9455502569303977633462311327992064352 ⟨25, (some (Fmt.DateSt.mk 9 0 4 0 0)), none⟩ .leaf)))) 9455503390091877557718363473969502763 ⟨26, (some (Fmt.DateSt.mk 9 0 4 1 0)), none⟩ (.node (.node (.node (.node (.node .leaf 9455504210879830914190089181658826459 ⟨26, (some (Fmt.DateSt.mk 9 0 4 2 0)), none⟩ .leaf) 9455505031667837720274523642010045250 ⟨29, (some (Fmt.DateSt.mk 9 0 4 3 0)), none⟩ .leaf) 9455505852455897828118891444575767876 ⟨1, (some (Fmt.DateSt.mk 9 0 4 4 0)), none⟩ (.node .leaf 9455506673244011494297584504695172244 ⟨1, (some (Fmt.DateSt.mk 9 0 4 5 0)), none⟩ .leaf)) 9455507494032178597049906833112508388 ⟨1, (some (Fmt.DateSt.mk 9 0 4 6 0)), none⟩ (.node (.node (.node .leaf 9455508314820399136378177718888070964 ⟨1, (some (Fmt.DateSt.mk 9 0 4 7 0)), none⟩ .leaf) 9455509135608673112284716451132486276 ⟨1, (some (Fmt.DateSt.mk 9 0 4 8 0)), none⟩ .leaf) 9455509956397000524771842319006712276 ⟨1, (some (Fmt.DateSt.mk 9 0 4 9 0)), none⟩ (.node .leaf 9455528834543279617920582712561267552 ⟨25, (some (Fmt.DateSt.mk 9 0 5 0 0)), none⟩ .leaf))) 9455529655332889513386276023973982251 ⟨26, (some (Fmt.DateSt.mk 9 0 5 1 0)), none⟩ (.node (.node (.node (.node .leaf 9455530476122552841141854125733420251 ⟨26, (some (Fmt.DateSt.mk 9 0 5 2 0)), none⟩ .leaf) 9455531296912269609887006055872035527 ⟨27, (some (Fmt.DateSt.mk 9 0 5 3 0)), none⟩ .leaf) 9455532117702039697860861993158424388 ⟨1, (some (Fmt.DateSt.mk 9 0 5 4 0)), none⟩ (.node .leaf 9455532938491863335546059262362769044 ⟨1, (some (Fmt.DateSt.mk 9 0 5 5 0)), none⟩ .leaf)) 9455533759281740409879103074758971876 ⟨1, (some (Fmt.DateSt.mk 9 0 5 6 0)), none⟩ (.node (.node .leaf 9455534580071670920862312721017940276 ⟨1, (some (Fmt.DateSt.mk 9 0 5 7 0)), none⟩ .leaf) 9455535400861654868498007491860913284 ⟨1, (some (Fmt.DateSt.mk 9 0 5 8 0)), none⟩ (.node .leaf 9455536221651692252788506678059461588 ⟨1, (some (Fmt.DateSt.mk 9 0 5 9 0)), none⟩ .leaf))))) 9455555099837300717898951257493716320 ⟨25, (some (Fmt.DateSt.mk 9 0 6 0 0)), none⟩ (.node (.node (.node (.node (.node (.node .leaf 9455555920628620586949239123657033259 ⟨26, (some (Fmt.DateSt.mk 9 0 6 1 0)), none⟩ .leaf) 9455556741419993888363623060337324763 ⟨26, (some (Fmt.DateSt.mk 9 0 6 2 0)), none⟩ .leaf) 9455557562211420639539186580258062146 ⟨29, (some (Fmt.DateSt.mk 9 0 6 3 0)), none⟩ (.node .leaf 9455558383002900692622743568485835076 ⟨1, (some (Fmt.DateSt.mk 9 0 6 4 0)), none⟩ .leaf)) 9455559203794434304189398642244681876 ⟨1, (some (Fmt.DateSt.mk 9 0 6 5 0)), none⟩ (.node (.node (.node .leaf 9455560024586021352478117585628920804 ⟨1, (some (Fmt.DateSt.mk 9 0 6 6 0)), none⟩ .leaf) 9455560845377661837491219690920071988 ⟨1, (some (Fmt.DateSt.mk 9 0 6 7 0)), none⟩ .leaf) 9455561666169355759231024250449987204 ⟨1, (some (Fmt.DateSt.mk 9 0 6 8 0)), none⟩ (.node .leaf 9455562486961103117699850556600849876 ⟨1, (some (Fmt.DateSt.mk 9 0 6 9 0)), none⟩ .leaf))) 9455581365186041009395950984390969184 ⟨25, (some (Fmt.DateSt.mk 9 0 7 0 0)), none⟩ (.node (.node (.node (.node .leaf 9455582185979070854405788443887655979 ⟨26, (some (Fmt.DateSt.mk 9 0 7 1 0)), none⟩ .leaf) 9455583006772154131853933305606981851 ⟨26, (some (Fmt.DateSt.mk 9 0 7 2 0)), none⟩ .leaf) 9455583827565290850440098770095128263 ⟨27, (some (Fmt.DateSt.mk 9 0 7 3 0)), none⟩ (.node .leaf 9455584648358480888403076789229325124 ⟨1, (some (Fmt.DateSt.mk 9 0 7 4 0)), none⟩ .leaf)) 9455585469151724476226144912279677588 ⟨1, (some (Fmt.DateSt.mk 9 0 7 5 0)), none⟩ (.node (.node .leaf 9455586289945021500845494282928563684 ⟨1, (some (Fmt.DateSt.mk 9 0 7 6 0)), none⟩ .leaf) 9455587110738371962263444195068116276 ⟨1, (some (Fmt.DateSt.mk 9 0 7 7 0)), none⟩ (.node .leaf 9455587931531775860482313942640799876 ⟨1, (some (Fmt.DateSt.mk 9 0 7 8 0)), none⟩ .leaf)))) 9455588752325233195504422819639410644 ⟨1, (some (Fmt.DateSt.mk 9 0 7 9 0)), none⟩ (.node (.node (.node (.node (.node .leaf 9455607630589500568410168691412717920 ⟨25, (some (Fmt.DateSt.mk 9 0 8 0 0)), none⟩ .leaf) 9455608451384240391754512432092983851 ⟨26, (some (Fmt.DateSt.mk 9 0 8 1 0)), none⟩ .leaf) 9455609272179033647611374958236966619 ⟨26, (some (Fmt.DateSt.mk 9 0 8 2 0)), none⟩ (.node .leaf 9455610092973880344680481551660294343 ⟨27, (some (Fmt.DateSt.mk 9 0 8 3 0)), none⟩ .leaf)) 9455610913768780361200455050618352964 ⟨1, (some (Fmt.DateSt.mk 9 0 8 4 0)), none⟩ (.node (.node (.node .leaf 9455611734563733927654893116964656276 ⟨1, (some (Fmt.DateSt.mk 9 0 8 5 0)), none⟩ .leaf) 9455612555358740930979829860422242276 ⟨1, (some (Fmt.DateSt.mk 9 0 8 6 0)), none⟩ .leaf) 9455613376153801371177584576493856564 ⟨1, (some (Fmt.DateSt.mk 9 0 8 7 0)), none⟩ (.node .leaf 9455614196948915248250476560732576388 ⟨1, (some (Fmt.DateSt.mk 9 0 8 8 0)), none⟩ .leaf))) 9455615017744082562200825108741810644 ⟨1, (some (Fmt.DateSt.mk 9 0 8 9 0)), none⟩ (.node (.node (.node (.node .leaf 9455633896047679470940243953276787552 ⟨25, (some (Fmt.DateSt.mk 9 0 9 0 0)), none⟩ .leaf) 9455634716844129274994052312258283563 ⟨26, (some (Fmt.DateSt.mk 9 0 9 1 0)), none⟩ .leaf) 9455635537640632511634590891479987419 ⟨26, (some (Fmt.DateSt.mk 9 0 9 2 0)), none⟩ (.node .leaf 9455636358437189198259015686451391810 ⟨29, (some (Fmt.DateSt.mk 9 0 9 3 0)), none⟩ .leaf)) 9455637179233799187013524524440510276 ⟨1, (some (Fmt.DateSt.mk 9 0 9 4 0)), none⟩ (.node (.node .leaf 9455638000030462734474291077354651284 ⟨1, (some (Fmt.DateSt.mk 9 0 9 5 0)), none⟩ .leaf) 9455638820827179718879773788432431588 ⟨1, (some (Fmt.DateSt.mk 9 0 9 6 0)), none⟩ (.node .leaf 9455639641623950140232291954787209524 ⟨1, (some (Fmt.DateSt.mk 9 0 9 7 0)), none⟩ .leaf))))))) 9455640462420773998534164873582675076 ⟨1, (some (Fmt.DateSt.mk 9 0 9 8 0)), none⟩ (.node (.node (.node (.node (.node (.node (.node (.node .leaf 9455641283217651293787711842032849876 ⟨1, (some (Fmt.DateSt.mk 9 0 9 9 0)), none⟩ .leaf) 9455660161560577792984869121259136352 ⟨25, (some (Fmt.DateSt.mk 9 0 10 0 0)), none⟩ .leaf) 9455660982358737580123102084926955051 ⟨26, (some (Fmt.DateSt.mk 9 0 10 1 0)), none⟩ (.node .leaf 9455661803156950799922276755146885851 ⟨26, (some (Fmt.DateSt.mk 9 0 10 2 0)), none⟩ .leaf)) 9455662623955217461082142576298616007 ⟨27, (some (Fmt.DateSt.mk 9 0 10 3 0)), none⟩ (.node (.node (.node .leaf 9455663444753537441840984159041521988 ⟨1, (some (Fmt.DateSt.mk 9 0 10 4 0)), none⟩ .leaf) 9455664265551910972683039391062829204 ⟨1, (some (Fmt.DateSt.mk 9 0 10 5 0)), none⟩ .leaf) 9455665086350337940544028313839739876 ⟨1, (some (Fmt.DateSt.mk 9 0 10 6 0)), none⟩ (.node .leaf 9455665907148818345426270226096225076 ⟨1, (some (Fmt.DateSt.mk 9 0 10 7 0)), none⟩ .leaf))) 9455666727947352187332084426606587524 ⟨1, (some (Fmt.DateSt.mk 9 0 10 8 0)), none⟩ (.node (.node (.node (.node .leaf 9455667548745939466263790214195461588 ⟨1, (some (Fmt.DateSt.mk 9 0 10 9 0)), none⟩ .leaf) 9455686427128195610542789323193855840 ⟨25, (some (Fmt.DateSt.mk 9 0 11 0 0)), none⟩ .leaf) 9455687247928065383140408527200531499 ⟨26, (some (Fmt.DateSt.mk 9 0 11 1 0)), none⟩ (.node .leaf 9455688068727988588473180975606636763 ⟨26, (some (Fmt.DateSt.mk 9 0 11 2 0)), none⟩ .leaf)) 9455688889527965243938310985862897986 ⟨29, (some (Fmt.DateSt.mk 9 0 11 3 0)), none⟩ (.node (.node (.node .leaf 9455689710327995201681585679325246276 ⟨1, (some (Fmt.DateSt.mk 9 0 11 4 0)), none⟩ .leaf) 9455690531128078718279891432260489876 ⟨1, (some (Fmt.DateSt.mk 9 0 11 5 0)), none⟩ .leaf) 9455691351928215671971348460082908644 ⟨1, (some (Fmt.DateSt.mk 9 0 11 6 0)), none⟩ (.node .leaf 9455692172728406062758276063127086388 ⟨1, (some (Fmt.DateSt.mk 9 0 11 7 0)), none⟩ .leaf)))) 9455692993528649890642993541777938564 ⟨1, (some (Fmt.DateSt.mk 9 0 11 8 0)), none⟩ (.node (.node (.node (.node (.node .leaf 9455693814328947155627820196470712276 ⟨1, (some (Fmt.DateSt.mk 9 0 11 9 0)), none⟩ .leaf) 9455712692750532999612802463473170784 ⟨25, (some (Fmt.DateSt.mk 9 0 12 0 0)), none⟩ .leaf) 9455713513552112760044771192738679339 ⟨26, (some (Fmt.DateSt.mk 9 0 12 1 0)), none⟩ (.node .leaf 9455714334353745953286104755786348251 ⟨26, (some (Fmt.DateSt.mk 9 0 12 2 0)), none⟩ .leaf)) 9455715155155432588036576759593478343 ⟨27, (some (Fmt.DateSt.mk 9 0 12 3 0)), none⟩ (.node (.node (.node .leaf 9455715975957172542534133586753674564 ⟨1, (some (Fmt.DateSt.mk 9 0 12 4 0)), none⟩ .leaf) 9455716796758966047263653351677066388 ⟨1, (some (Fmt.DateSt.mk 9 0 12 5 0)), none⟩ .leaf) 9455717617560812989160542027158812644 ⟨1, (some (Fmt.DateSt.mk 9 0 12 6 0)), none⟩ (.node .leaf 9455718438362713368227118915144109876 ⟨1, (some (Fmt.DateSt.mk 9 0 12 7 0)), none⟩ .leaf))) 9455719259164667184465703317628486276 ⟨1, (some (Fmt.DateSt.mk 9 0 12 8 0)), none⟩ (.node (.node (.node (.node .leaf 9455720079966674437878614536657801684 ⟨1, (some (Fmt.DateSt.mk 9 0 12 9 0)), none⟩ .leaf) 9455844021683016177605883252835871584 ⟨25, (some (Fmt.DateSt.mk 9 1 1 0 0)), none⟩ .leaf) 9455844842493145912834106606555641899 ⟨26, (some (Fmt.DateSt.mk 9 1 1 1 0)), none⟩ (.node .leaf 9455845663303329081242753514002425051 ⟨26, (some (Fmt.DateSt.mk 9 1 1 2 0)), none⟩ .leaf)) 9455846484113565691531657988794356423 ⟨27, (some (Fmt.DateSt.mk 9 1 1 3 0)), none⟩ (.node (.node .leaf 9455847304923855621937920841305403204 ⟨1, (some (Fmt.DateSt.mk 9 1 1 4 0)), none⟩ .leaf) 9455848125734199102948020756643171988 ⟨1, (some (Fmt.DateSt.mk 9 1 1 5 0)), none⟩ (.node .leaf 9455848946544596021496578533989304804 ⟨1, (some (Fmt.DateSt.mk 9 1 1 6 0)), none⟩ .leaf))))) 9455849767355046377585913483342061876 ⟨1, (some (Fmt.DateSt.mk 9 1 1 7 0)), none⟩ (.node (.node (.node (.node (.node (.node .leaf 9455850588165550171218344914750035076 ⟨1, (some (Fmt.DateSt.mk 9 1 1 8 0)), none⟩ .leaf) 9455851408976107402396192138312147924 ⟨1, (some (Fmt.DateSt.mk 9 1 1 9 0)), none⟩ .leaf) 9455870287633672591726165502674941280 ⟨25, (some (Fmt.DateSt.mk 9 1 2 0 0)), none⟩ (.node .leaf 9455871108445512329038552725789675051 ⟨26, (some (Fmt.DateSt.mk 9 1 2 1 0)), none⟩ .leaf)) 9455871929257405508303102373536590996 ⟨28, (some (Fmt.DateSt.mk 9 1 2 2 0)), none⟩ (.node (.node (.node .leaf 9455872750069351999059224076530521588 ⟨1, (some (Fmt.DateSt.mk 9 1 2 3 0)), none⟩ .leaf) 9455873570881352044839997089559337284 ⟨1, (some (Fmt.DateSt.mk 9 1 2 4 0)), none⟩ .leaf) 9455874391693405528231126597946800276 ⟨1, (some (Fmt.DateSt.mk 9 1 2 5 0)), none⟩ (.node .leaf 9455875212505512449234931913251451876 ⟨1, (some (Fmt.DateSt.mk 9 1 2 6 0)), none⟩ .leaf))) 9455876033317672807853732347082165044 ⟨1, (some (Fmt.DateSt.mk 9 1 2 7 0)), none⟩ (.node (.node (.node (.node .leaf 9455876854129886604089847211098144388 ⟨1, (some (Fmt.DateSt.mk 9 1 2 8 0)), none⟩ .leaf) 9455877674942153837945595817008926164 ⟨1, (some (Fmt.DateSt.mk 9 1 2 9 0)), none⟩ .leaf) 9455896553639049109351603765231910752 ⟨25, (some (Fmt.DateSt.mk 9 1 3 0 0)), none⟩ (.node .leaf 9455897374452598851123129687533675563 ⟨26, (some (Fmt.DateSt.mk 9 1 3 1 0)), none⟩ .leaf)) 9455898195266202026223503012288286939 ⟨26, (some (Fmt.DateSt.mk 9 1 3 2 0)), none⟩ (.node (.node .leaf 9455899016079858643352581915828934343 ⟨27, (some (Fmt.DateSt.mk 9 1 3 3 0)), none⟩ .leaf) 9455899836893568580747128978819646276 ⟨1, (some (Fmt.DateSt.mk 9 1 3 4 0)), none⟩ (.node .leaf 9455900657707332068894263116203106964 ⟨1, (some (Fmt.DateSt.mk 9 1 3 5 0)), none⟩ .leaf)))) 9455901478521148994728291056952188388 ⟨1, (some (Fmt.DateSt.mk 9 1 3 6 0)), none⟩ (.node (.node (.node (.node (.node .leaf 9455902299335019358251532114286376244 ⟨1, (some (Fmt.DateSt.mk 9 1 3 7 0)), none⟩ .leaf) 9455903120148943159466305601475487876 ⟨1, (some (Fmt.DateSt.mk 9 1 3 8 0)), none⟩ .leaf) 9455903940962920398374930831839672276 ⟨1, (some (Fmt.DateSt.mk 9 1 3 9 0)), none⟩ (.node .leaf 9455922819699145806481418157364070752 ⟨25, (some (Fmt.DateSt.mk 9 1 4 0 0)), none⟩ .leaf)) 9455923640514405555087059257912375851 ⟨26, (some (Fmt.DateSt.mk 9 1 4 1 0)), none⟩ (.node (.node (.node .leaf 9455924461329718737095759762579564251 ⟨26, (some (Fmt.DateSt.mk 9 1 4 2 0)), none⟩ .leaf) 9455925282145085369904941438382385986 ⟨29, (some (Fmt.DateSt.mk 9 1 4 3 0)), none⟩ .leaf) 9455926102960505305658543223013387588 ⟨1, (some (Fmt.DateSt.mk 9 1 4 4 0)), none⟩ (.node .leaf 9455926923775978800936658674606591124 ⟨1, (some (Fmt.DateSt.mk 9 1 4 5 0)), none⟩ .leaf))) 9455927744591505733975885977553455076 ⟨1, (some (Fmt.DateSt.mk 9 1 4 6 0)), none⟩ (.node (.node (.node (.node .leaf 9455928565407086104778544446684077876 ⟨1, (some (Fmt.DateSt.mk 9 1 4 7 0)), none⟩ .leaf) 9455929386222719913346953396878889604 ⟨1, (some (Fmt.DateSt.mk 9 1 4 8 0)), none⟩ .leaf) 9455930207038407159683432143068651988 ⟨1, (some (Fmt.DateSt.mk 9 1 4 9 0)), none⟩ (.node .leaf 9455949085813962759114881572486845280 ⟨25, (some (Fmt.DateSt.mk 9 1 5 0 0)), none⟩ .leaf)) 9455949906630932516929615979608641579 ⟨26, (some (Fmt.DateSt.mk 9 1 5 1 0)), none⟩ (.node (.node .leaf 9455950727447955708221621844050771163 ⟨26, (some (Fmt.DateSt.mk 9 1 5 2 0)), none⟩ .leaf) 9455951548265032341690781504895032007 ⟨27, (some (Fmt.DateSt.mk 9 1 5 3 0)), none⟩ (.node .leaf 9455952369082162295573519312625751876 ⟨1, (some (Fmt.DateSt.mk 9 1 5 4 0)), none⟩ .leaf)))))) 9455953189899345800357594412909885076 ⟨1, (some (Fmt.DateSt.mk 9 1 5 5 0)), none⟩ (.node (.node (.node (.node (.node (.node (.node .leaf 9455954010716582742976999464075325924 ⟨1, (some (Fmt.DateSt.mk 9 1 5 6 0)), none⟩ .leaf) 9455954831533873123434053782562785588 ⟨1, (some (Fmt.DateSt.mk 9 1 5 7 0)), none⟩ .leaf) 9455955652351216941731076684863306884 ⟨1, (some (Fmt.DateSt.mk 9 1 5 8 0)), none⟩ (.node .leaf 9455956473168614197870387487518264276 ⟨1, (some (Fmt.DateSt.mk 9 1 5 9 0)), none⟩ .leaf)) 9455975351983500043251319680573791584 ⟨25, (some (Fmt.DateSt.mk 9 1 6 0 0)), none⟩ (.node (.node (.node .leaf 9455976172802179812650127171863471659 ⟨26, (some (Fmt.DateSt.mk 9 1 6 1 0)), none⟩ .leaf) 9455976993620913015600418225210348251 ⟨26, (some (Fmt.DateSt.mk 9 1 6 2 0)), none⟩ .leaf) 9455977814439699669499662929941503810 ⟨29, (some (Fmt.DateSt.mk 9 1 6 3 0)), none⟩ (.node .leaf 9455978635258539626491389514700063044 ⟨1, (some (Fmt.DateSt.mk 9 1 6 4 0)), none⟩ .leaf))) 9455979456077433143156404247423754388 ⟨1, (some (Fmt.DateSt.mk 9 1 6 5 0)), none⟩ (.node (.node (.node (.node .leaf 9455980276896380097730967082096008164 ⟨1, (some (Fmt.DateSt.mk 9 1 6 6 0)), none⟩ .leaf) 9455981097715380490217397336768148276 ⟨1, (some (Fmt.DateSt.mk 9 1 6 7 0)), none⟩ .leaf) 9455981918534434320618014329541830276 ⟨1, (some (Fmt.DateSt.mk 9 1 6 8 0)), none⟩ (.node .leaf 9455982739353541588935137378569041364 ⟨1, (some (Fmt.DateSt.mk 9 1 6 9 0)), none⟩ .leaf)) 9456001618207757734890110928156600160 ⟨25, (some (Fmt.DateSt.mk 9 1 7 0 0)), none⟩ (.node (.node .leaf 9456002439028147518247972930475998251 ⟨26, (some (Fmt.DateSt.mk 9 1 7 1 0)), none⟩ .leaf) 9456003259848590735231530651124869339 ⟨26, (some (Fmt.DateSt.mk 9 1 7 2 0)), none⟩ (.node .leaf 9456004080669087394540690591967174343 ⟨27, (some (Fmt.DateSt.mk 9 1 7 3 0)), none⟩ .leaf)))) 9456004901489637374411538872837778244 ⟨1, (some (Fmt.DateSt.mk 9 1 7 4 0)), none⟩ (.node (.node (.node (.node (.node .leaf 9456005722310240905332474871017097876 ⟨1, (some (Fmt.DateSt.mk 9 1 7 5 0)), none⟩ .leaf) 9456006543130897874237177173751842276 ⟨1, (some (Fmt.DateSt.mk 9 1 7 6 0)), none⟩ .leaf) 9456007363951608281127965100703948084 ⟨1, (some (Fmt.DateSt.mk 9 1 7 7 0)), none⟩ (.node .leaf 9456008184772372126007157971585683588 ⟨1, (some (Fmt.DateSt.mk 9 1 7 8 0)), none⟩ .leaf)) 9456009005593189408877075106159648724 ⟨1, (some (Fmt.DateSt.mk 9 1 7 9 0)), none⟩ (.node (.node (.node .leaf 9456027884486735910030686538325094752 ⟨25, (some (Fmt.DateSt.mk 9 1 8 0 0)), none⟩ .leaf) 9456028705308835709722586127803486763 ⟨26, (some (Fmt.DateSt.mk 9 1 8 1 0)), none⟩ .leaf) 9456029526130988943114393643419041499 ⟨26, (some (Fmt.DateSt.mk 9 1 8 2 0)), none⟩ (.node .leaf 9456030346953195618906027668439384263 ⟨27, (some (Fmt.DateSt.mk 9 1 8 3 0)), none⟩ .leaf))) 9456031167775455615333405207198487876 ⟨1, (some (Fmt.DateSt.mk 9 1 8 4 0)), none⟩ (.node (.node (.node (.node .leaf 9456031988597769162885245753116947604 ⟨1, (some (Fmt.DateSt.mk 9 1 8 5 0)), none⟩ .leaf) 9456032809420136148495070857737301988 ⟨1, (some (Fmt.DateSt.mk 9 1 8 6 0)), none⟩ .leaf) 9456033630242556572165199842332100404 ⟨1, (some (Fmt.DateSt.mk 9 1 8 7 0)), none⟩ (.node .leaf 9456034451065030433897952028224223876 ⟨1, (some (Fmt.DateSt.mk 9 1 8 8 0)), none⟩ .leaf)) 9456035271887557733695646736786885076 ⟨1, (some (Fmt.DateSt.mk 9 1 8 9 0)), none⟩ (.node (.node .leaf 9456054150820434644672530510727232352 ⟨25, (some (Fmt.DateSt.mk 9 1 9 0 0)), none⟩ .leaf) 9456054971644244463073452412761335851 ⟨26, (some (Fmt.DateSt.mk 9 1 9 1 0)), none⟩ (.node .leaf 9456055792468107715248494500275705051 ⟨26, (some (Fmt.DateSt.mk 9 1 9 2 0)), none⟩ .leaf))))) 9456056613292024418595199346188750146 ⟨29, (some (Fmt.DateSt.mk 9 1 9 3 0)), none⟩ (.node (.node (.node (.node (.node (.node .leaf 9456057434115994425256479114499915588 ⟨1, (some (Fmt.DateSt.mk 9 1 9 4 0)), none⟩ .leaf) 9456058254940017991814209139708468884 ⟨1, (some (Fmt.DateSt.mk 9 1 9 5 0)), none⟩ .leaf) 9456059075764094996504142029304994276 ⟨1, (some (Fmt.DateSt.mk 9 1 9 6 0)), none⟩ (.node .leaf 9456059896588225439328597106172653876 ⟨1, (some (Fmt.DateSt.mk 9 1 9 7 0)), none⟩ .leaf)) 9456060717412409320289893693244941444 ⟨1, (some (Fmt.DateSt.mk 9 1 9 8 0)), none⟩ (.node (.node (.node .leaf 9456061538236646639390351113505682388 ⟨1, (some (Fmt.DateSt.mk 9 1 9 9 0)), none⟩ .leaf) 9456080417208854014815179621569103200 ⟨25, (some (Fmt.DateSt.mk 9 1 10 0 0)), none⟩ .leaf) 9456081238034373854300110210823077419 ⟨26, (some (Fmt.DateSt.mk 9 1 10 1 0)), none⟩ (.node .leaf 9456082058859947127633373296435833563 ⟨26, (some (Fmt.DateSt.mk 9 1 10 2 0)), none⟩ .leaf))) 9456082879685573843514911624507491527 ⟨27, (some (Fmt.DateSt.mk 9 1 10 3 0)), none⟩ (.node (.node (.node (.node .leaf 9456083700511253880180303968017918276 ⟨1, (some (Fmt.DateSt.mk 9 1 10 4 0)), none⟩ .leaf) 9456084521336987468118910053334960276 ⟨1, (some (Fmt.DateSt.mk 9 1 10 5 0)), none⟩ .leaf) 9456085342162774494263937360265659364 ⟨1, (some (Fmt.DateSt.mk 9 1 10 6 0)), none⟩ (.node .leaf 9456086162988614958617705213303790388 ⟨1, (some (Fmt.DateSt.mk 9 1 10 7 0)), none⟩ .leaf)) 9456086983814508861182532936993459844 ⟨1, (some (Fmt.DateSt.mk 9 1 10 8 0)), none⟩ (.node (.node .leaf 9456087804640456201960739855929105876 ⟨1, (some (Fmt.DateSt.mk 9 1 10 9 0)), none⟩ .leaf) 9456106683651994096458223423614930784 ⟨25, (some (Fmt.DateSt.mk 9 1 11 0 0)), none⟩ (.node .leaf 9456107504479223959402150724020376619 ⟨26, (some (Fmt.DateSt.mk 9 1 11 1 0)), none⟩ .leaf)))) 9456108325306507256268622883198533851 ⟨26, (some (Fmt.DateSt.mk 9 1 11 2 0)), none⟩ (.node (.node (.node (.node (.node .leaf 9456109146133844004455230796545917250 ⟨29, (some (Fmt.DateSt.mk 9 1 11 3 0)), none⟩ .leaf) 9456109966961234056104475917586486084 ⟨1, (some (Fmt.DateSt.mk 9 1 11 4 0)), none⟩ .leaf) 9456110787788677667798946293097853588 ⟨1, (some (Fmt.DateSt.mk 9 1 11 5 0)), none⟩ (.node .leaf 9456111608616174717774056298988170724 ⟨1, (some (Fmt.DateSt.mk 9 1 11 6 0)), none⟩ .leaf)) 9456112429443725206032125261361825076 ⟨1, (some (Fmt.DateSt.mk 9 1 11 7 0)), none⟩ (.node (.node (.node .leaf 9456113250271329132575472506373535876 ⟨1, (some (Fmt.DateSt.mk 9 1 11 8 0)), none⟩ .leaf) 9456114071098986497406417360228354004 ⟨1, (some (Fmt.DateSt.mk 9 1 11 9 0)), none⟩ .leaf) 9456132950149854965601304246187071840 ⟨25, (some (Fmt.DateSt.mk 9 1 12 0 0)), none⟩ (.node .leaf 9456133770978794854379217930943031851 ⟨26, (some (Fmt.DateSt.mk 9 1 12 1 0)), none⟩ .leaf))) 9456134591807788177153888888421045979 ⟨26, (some (Fmt.DateSt.mk 9 1 12 2 0)), none⟩ (.node (.node (.node (.node .leaf 9456135412636834942625284027587283143 ⟨27, (some (Fmt.DateSt.mk 9 1 12 3 0)), none⟩ .leaf) 9456136233465935029028643889597742404 ⟨1, (some (Fmt.DateSt.mk 9 1 12 4 0)), none⟩ .leaf) 9456137054295088666853968434656713876 ⟨1, (some (Fmt.DateSt.mk 9 1 12 5 0)), none⟩ (.node .leaf 9456137875124295743034151070399535076 ⟨1, (some (Fmt.DateSt.mk 9 1 12 6 0)), none⟩ .leaf)) 9456138695953556257571511124541206324 ⟨1, (some (Fmt.DateSt.mk 9 1 12 7 0)), none⟩ (.node (.node .leaf 9456139516782870210468367924847059588 ⟨1, (some (Fmt.DateSt.mk 9 1 12 8 0)), none⟩ .leaf) 9456140337612237601727040799132758484 ⟨1, (some (Fmt.DateSt.mk 9 1 12 9 0)), none⟩ (.node .leaf 14411518833973866458555351204659200529 ⟨31, (some (Fmt.DateSt.mk 10 0 0 0 0)), none⟩ .leaf))))))))))
-
-theorem cert_isodate_ok : Cert.check pat_isodate cert_isodate = true := by decide +kernel
-
-end Gozod.Gen
+/- GENERATED: no certificate exists for isodate: the pattern and the specification differ on the byte string (hex) 303030312d30322d3239 (pattern true, specification false). -/
